@@ -16,1660 +16,1698 @@ Definition terms (ts : list tok) (t : pt) : string :=
   digest (show_toks (Some ts)) ++ " " ++ digest (show_pt (Some t)) ++ " " ++ digest (show_pt (parse ts)).
 Definition terms_full (ts : list tok) (t : pt) : string :=
   show_toks (Some ts) ++ nl ++ show_pt (Some t) ++ nl ++ show_pt (parse ts).
-Eval vm_compute in ("<<<M23>>>" ++ check (runes_of_ascii "options
-    // a // b
-    {
-float	= char[ 4294967296 ] ; }
-")).
-Eval vm_compute in ("<<<M55>>>" ++ check (runes_of_ascii "MetaData
-trueish {int
-falsey , char[
-10
-    ] u  , zchar[ 007 ] leftPad , string
-x `two words`
-    ,  }
-")).
-Eval vm_compute in ("<<<T55>>>" ++ terms [mkTok 37 "MetaData" 1 0 false; mkTok 42 "trueish" 2 0 false; mkTok 2 "{" 2 8 false; mkTok 42 "int" 2 9 false; mkTok 42 "falsey" 3 0 false; mkTok 40 "," 3 7 false; mkTok 12 "char[" 3 9 false; mkTok 30 "10" 4 0 false; mkTok 13 "]" 5 4 false; mkTok 42 "u" 5 6 false; mkTok 40 "," 5 9 false; mkTok 14 "zchar[" 5 11 false; mkTok 30 "007" 5 18 false; mkTok 13 "]" 5 22 false; mkTok 42 "leftPad" 5 24 false; mkTok 40 "," 5 32 false; mkTok 15 "string" 5 34 false; mkTok 42 "x" 6 0 false; mkTok 43 "`two words`" 6 2 false; mkTok 40 "," 7 4 false; mkTok 3 "}" 7 7 false; mkTok 0 "<EOF>" 8 0 false] (mkPacket (mkPtok 37 "MetaData" 1 0 0) (Some (mkPtok 3 "}" 7 7 20)) [(DMeta (mkMetaDef (mkSpan (mkPtok 37 "MetaData" 1 0 0) (mkPtok 3 "}" 7 7 20)) (mkPtok 37 "MetaData" 1 0 0) (mkPtok 42 "trueish" 2 0 1) (mkPtok 2 "{" 2 8 2) [(MIRef (mkRefMetaDecl (mkSpan (mkPtok 42 "int" 2 9 3) (mkPtok 40 "," 3 7 5)) (mkPtok 42 "int" 2 9 3) (mkPtok 42 "falsey" 3 0 4) None (mkPtok 40 "," 3 7 5))); (MIDecl (mkMetaDecl (mkSpan (mkPtok 12 "char[" 3 9 6) (mkPtok 40 "," 5 9 10)) (TyFixed (mkSpan (mkPtok 12 "char[" 3 9 6) (mkPtok 13 "]" 5 4 8)) (mkFixedString (mkSpan (mkPtok 12 "char[" 3 9 6) (mkPtok 13 "]" 5 4 8)) (mkPtok 12 "char[" 3 9 6) (mkPtok 30 "10" 4 0 7) (mkPtok 13 "]" 5 4 8))) (mkPtok 42 "u" 5 6 9) None (mkPtok 40 "," 5 9 10))); (MIDecl (mkMetaDecl (mkSpan (mkPtok 14 "zchar[" 5 11 11) (mkPtok 40 "," 5 32 15)) (TyFixed (mkSpan (mkPtok 14 "zchar[" 5 11 11) (mkPtok 13 "]" 5 22 13)) (mkFixedString (mkSpan (mkPtok 14 "zchar[" 5 11 11) (mkPtok 13 "]" 5 22 13)) (mkPtok 14 "zchar[" 5 11 11) (mkPtok 30 "007" 5 18 12) (mkPtok 13 "]" 5 22 13))) (mkPtok 42 "leftPad" 5 24 14) None (mkPtok 40 "," 5 32 15))); (MIDecl (mkMetaDecl (mkSpan (mkPtok 15 "string" 5 34 16) (mkPtok 40 "," 7 4 19)) (TyDynamic (mkSpan (mkPtok 15 "string" 5 34 16) (mkPtok 15 "string" 5 34 16)) (mkDynamicString (mkSpan (mkPtok 15 "string" 5 34 16) (mkPtok 15 "string" 5 34 16)) (mkPtok 15 "string" 5 34 16))) (mkPtok 42 "x" 6 0 17) (Some (mkPtok 43 "`two words`" 6 2 18)) (mkPtok 40 "," 7 4 19)))] (mkPtok 3 "}" 7 7 20)))])).
-Eval vm_compute in ("<<<M87>>>" ++ check (runes_of_ascii "MetaData
-Packet
-{
-    }options { Z9_ =
-char[] ; _x=
-'0';
-body
-=
-false }
-")).
-Eval vm_compute in ("<<<M119>>>" ++ check (runes_of_ascii "packet BodyLength {  @tag(
-0 )
-    char[
-4294967296 ]
-    options1 , }
-    root packet asx{ repeat string //x
-zchar //	t
-,
-    repeat char string_ `" ++ [28040; 24687; 31867; 22411]%N ++ runes_of_ascii "` ,
-    } options{ rootA = zchar[ 00
-] ;len = ""a\""b"" ; float =7;uint8x= f64 ;// `tick` ""quote"" 'q'
-}root packet
-    stringy{trueish Foo , } packet
-pack{ u64
-// @lengthOf(
-// c
-repeatCount @lengthOf( Header
-    ) ,
-}
+Eval vm_compute in ("<<<M23>>>" ++ check (runes_of_ascii "root packet x_y_z
+{ int32 lengthOf
+    `line1
+line2` , }packet
+    T{ u16  i64_	, } packet
+Z9_ { repeat string//
+trueish // `tick` ""quote"" 'q'
+`doc`,
+} options
+/// triple
+// 50% %s
+{repeatCount
+    ='0' //	t
+;charz  =
+    i16
+; tag= ""packet""}
 
 ")).
-Eval vm_compute in ("<<<M151>>>" ++ check (runes_of_ascii "root //	t
-packet
-BodyLength { zchar[ 10
-]
-u128
-    ,
-uint8 zchar ``
-    , repeat falsey ,float64 chars@calculatedFrom( """ ++ [128512]%N ++ runes_of_ascii """
-) , char[]matchKey, repeat //x
-uint16 matchKey ,
-@calculatedFrom( ""CRC32"" ) char[ 3 ] u `" ++ [28040; 24687; 31867; 22411]%N ++ runes_of_ascii "` , @leftPad ( '0'
-    //	t
-    ) u64  charz @calculatedFrom(""" ++ [128512]%N ++ runes_of_ascii """), }
-root packet chars //
-{} MetaData Z9_{ zchar[ 255 ] _x,int32 f32a , int8
-asx `` ,
-o
-packetx // `tick` ""quote"" 'q'
-, }
-    options
-// trailing space 
-// c
-{	A
-=
-4294967296
-//
-// packet A { u8 x, }
-;
-Foo = ""x y"" ;Foo =  ' ' } //	t")).
-Eval vm_compute in ("<<<M183>>>" ++ check (runes_of_ascii "
-packet Foo {	} packet MetaDataX
-    {char[]	Logon
-// trailing space 
-//
-,  }root packet MetaDataX { match Z9_ as zchar{
-7 : zchar , } , }")).
-Eval vm_compute in ("<<<M215>>>" ++ check (runes_of_ascii "MetaData
-T { Foo  lengthOf , string
-    //x
-    packetx
-    `// not a comment` , zchar[
-    //	t
-    0] metadata
-//x
-// `tick` ""quote"" 'q'
-`crlf
-line` ,
-x string_
-`line1
-line2` , } packet repeatCount {	char[ // `tick` ""quote"" 'q'
-255 ]
-A @calculatedFrom(""a\\"" )
-,float32
-    BodyLength @lengthOf(	_x )
-// c
-//
-`doc` , char[] trueish
-    // " ++ [128512]%N ++ runes_of_ascii " emoji
-    @calculatedFrom( ""packet"")
-    ,}
-")).
-Eval vm_compute in ("<<<M247>>>" ++ check (runes_of_ascii "MetaData
-    a1 { // a // b
-}options { o
-= 255
-; } packet f32a //
-{ uint8 _x	@calculatedFrom( ""x y""
-)	,}MetaData
-    options1
-{  f64 lengthOf `it's`
-,lengthOf metadata,	int8 crc
-`
-` /// triple
-,
-    char[0123456789//	t
-]o ,
-// " ++ [128512]%N ++ runes_of_ascii " emoji
-// packet A { u8 x, }
-char[] //	t
-a1,}
-")).
-Eval vm_compute in ("<<<M279>>>" ++ check (runes_of_ascii "root packet
-i8i8
-    { _x@lengthOf(chars
-),
-    char[	7]
-packetx
-    /// triple
-    `say ""hi""`
-,
-    // c
-    }root packet string_ {
-    //
-    repeat// `tick` ""quote"" 'q'
-options1// c
-`u8 x,`	,
-    }
-options {	}")).
-Eval vm_compute in ("<<<T279>>>" ++ terms [mkTok 34 "root" 1 0 false; mkTok 35 "packet" 1 5 false; mkTok 42 "i8i8" 2 0 false; mkTok 2 "{" 3 4 false; mkTok 42 "_x" 3 6 false; mkTok 7 "@lengthOf(" 3 8 false; mkTok 42 "chars" 3 18 false; mkTok 6 ")" 4 0 false; mkTok 40 "," 4 1 false; mkTok 12 "char[" 5 4 false; mkTok 30 "7" 5 10 false; mkTok 13 "]" 5 11 false; mkTok 42 "packetx" 6 0 false; mkTok 44 "/// triple" 7 4 true; mkTok 43 "`say ""hi""`" 8 4 false; mkTok 40 "," 9 0 false; mkTok 44 "// c" 10 4 true; mkTok 3 "}" 11 4 false; mkTok 34 "root" 11 5 false; mkTok 35 "packet" 11 10 false; mkTok 42 "string_" 11 17 false; mkTok 2 "{" 11 25 false; mkTok 44 "//" 12 4 true; mkTok 36 "repeat" 13 4 false; mkTok 44 "// `tick` ""quote"" 'q'" 13 10 true; mkTok 42 "options1" 14 0 false; mkTok 44 "// c" 14 8 true; mkTok 43 "`u8 x,`" 15 0 false; mkTok 40 "," 15 8 false; mkTok 3 "}" 16 4 false; mkTok 1 "options" 17 0 false; mkTok 2 "{" 17 8 false; mkTok 3 "}" 17 10 false; mkTok 0 "<EOF>" 17 11 false] (mkPacket (mkPtok 34 "root" 1 0 0) (Some (mkPtok 3 "}" 17 10 32)) [(DPacket (mkPacketDef (mkSpan (mkPtok 34 "root" 1 0 0) (mkPtok 3 "}" 11 4 17)) (Some (mkPtok 34 "root" 1 0 0)) (mkPtok 35 "packet" 1 5 1) (mkPtok 42 "i8i8" 2 0 2) (mkPtok 2 "{" 3 4 3) [(mkFieldWithAttr (mkSpan (mkPtok 42 "_x" 3 6 4) (mkPtok 40 "," 4 1 8)) [] (LengthField (mkSpan (mkPtok 42 "_x" 3 6 4) (mkPtok 40 "," 4 1 8)) (mkLengthFieldDecl (mkSpan (mkPtok 42 "_x" 3 6 4) (mkPtok 40 "," 4 1 8)) None (mkPtok 42 "_x" 3 6 4) (mkLengthOf (mkSpan (mkPtok 7 "@lengthOf(" 3 8 5) (mkPtok 6 ")" 4 0 7)) (mkPtok 7 "@lengthOf(" 3 8 5) (mkPtok 42 "chars" 3 18 6) (mkPtok 6 ")" 4 0 7)) None (mkPtok 40 "," 4 1 8)))); (mkFieldWithAttr (mkSpan (mkPtok 12 "char[" 5 4 9) (mkPtok 40 "," 9 0 15)) [] (MetaField (mkSpan (mkPtok 12 "char[" 5 4 9) (mkPtok 40 "," 9 0 15)) None (mkMetaDecl (mkSpan (mkPtok 12 "char[" 5 4 9) (mkPtok 40 "," 9 0 15)) (TyFixed (mkSpan (mkPtok 12 "char[" 5 4 9) (mkPtok 13 "]" 5 11 11)) (mkFixedString (mkSpan (mkPtok 12 "char[" 5 4 9) (mkPtok 13 "]" 5 11 11)) (mkPtok 12 "char[" 5 4 9) (mkPtok 30 "7" 5 10 10) (mkPtok 13 "]" 5 11 11))) (mkPtok 42 "packetx" 6 0 12) (Some (mkPtok 43 "`say ""hi""`" 8 4 14)) (mkPtok 40 "," 9 0 15))))] (mkPtok 3 "}" 11 4 17))); (DPacket (mkPacketDef (mkSpan (mkPtok 34 "root" 11 5 18) (mkPtok 3 "}" 16 4 29)) (Some (mkPtok 34 "root" 11 5 18)) (mkPtok 35 "packet" 11 10 19) (mkPtok 42 "string_" 11 17 20) (mkPtok 2 "{" 11 25 21) [(mkFieldWithAttr (mkSpan (mkPtok 36 "repeat" 13 4 23) (mkPtok 40 "," 15 8 28)) [] (ObjectField (mkSpan (mkPtok 36 "repeat" 13 4 23) (mkPtok 40 "," 15 8 28)) (Some (mkPtok 36 "repeat" 13 4 23)) (mkPtok 42 "options1" 14 0 25) None (Some (mkPtok 43 "`u8 x,`" 15 0 27)) (mkPtok 40 "," 15 8 28)))] (mkPtok 3 "}" 16 4 29))); (DOption (mkOptionDef (mkSpan (mkPtok 1 "options" 17 0 30) (mkPtok 3 "}" 17 10 32)) (mkPtok 1 "options" 17 0 30) (mkPtok 2 "{" 17 8 31) [] (mkPtok 3 "}" 17 10 32)))])).
-Eval vm_compute in ("<<<M311>>>" ++ check (runes_of_ascii "packet
-    // " ++ [27880; 37322]%N ++ runes_of_ascii "
-    Foo
-{ //x
-uint8x
-// " ++ [27880; 37322]%N ++ runes_of_ascii "
-// " ++ [128512]%N ++ runes_of_ascii " emoji
-,match
-len as options1
-// a // b
-// trailing space 
-{ 3 /// triple
-:i64_ , }
-, }
-")).
-Eval vm_compute in ("<<<M343>>>" ++ check (runes_of_ascii "packet string_ { @lengthOf( int) BodyLength u8x,i64_ `tab	here`
-// " ++ [128512]%N ++ runes_of_ascii " emoji
-// @lengthOf(
-,char[  3 ] /// triple
-string_  ,repeat leftPad `" ++ [28040; 24687; 31867; 22411]%N ++ runes_of_ascii "`  ,
-repeat int32
-/// triple
-// `tick` ""quote"" 'q'
-BodyLength`u8 x,`, // `tick` ""quote"" 'q'
-@tag( 4294967296
-) BodyLength	`crlf
-line`
-    ,  msg_type Packet `" ++ [233]%N ++ runes_of_ascii "`
-    , float32 string_ // trailing space 
-@calculatedFrom(""""  )
-, asx int
-    `it's` , }
-")).
-Eval vm_compute in ("<<<M375>>>" ++ check (@nil rune)).
-Eval vm_compute in ("<<<M407>>>" ++ check (runes_of_ascii "packet repeatCount{
-    @tag(1
-) @leftPad
-(' ')	@leftPad
-    (
-    // c
-    '\x00'
-    ) int16
-trueish
-@lengthOf( len) `// not a comment` ,@calculatedFrom(	""it's"")
-f64 trueish
-@lengthOf( pack ), i64
-/// triple
-//x
-int
-    `u8 x,`,  int16 Packet, repeat trueish{ char[ 65535 ] int @lengthOf( Foo ) `crlf
-line`
-    , },	match chars
-as u128 { 0123456789 :
-uint8x ,	""1""
-    : A
-    // `tick` ""quote"" 'q'
-    , ""packet""	:
-    matchKey
-,0
-: crc ,""abc"" :
-T ,} ,
-@rightPad (// " ++ [27880; 37322]%N ++ runes_of_ascii "
-) match
-//	t
-//x
-a1 as
-    u128 {3
-//
-// @lengthOf(
-:	lengthOf	, ""a\\"": trueish
-007 :
-rootA }
-    ,@leftPad ( ' '
-) string_ `tab	here`
-    , packetx
-    @lengthOf( Header ) , @tag(255	) @tag( 42 ) char[]packetx, // `tick` ""quote"" 'q'
-}
-    options { rootA // a // b
-=
-// c
-//	t
-' ' x_y_z = int8
-}")).
-Eval vm_compute in ("<<<M439>>>" ++ check (runes_of_ascii "packet Packet
-{ Logon @lengthOf(chars ) , @lengthOf(  stringy
-    // c
-    ) int { // a // b
-char[ 1 ]
-    rootA,
-    repeat repeatCount `it's`
-    , i8 calculatedFrom
-    ,	} ,
-    _x
-u128,
-    //	t
-    i16 uint8x @lengthOf( a1 )	, a1@calculatedFrom( """ ++ [233]%N ++ runes_of_ascii "t" ++ [233]%N ++ runes_of_ascii """ ) , @lengthOf(
-x
-// `tick` ""quote"" 'q'
-// packet A { u8 x, }
-)	repeat
-    x_y_z{
-int32 crc @calculatedFrom( ""packet"" ), repeat string Z9_
-    , float64 len ,} , repeat
-options1`" ++ [28040; 24687; 31867; 22411]%N ++ runes_of_ascii "`
-,
-// a // b
-// " ++ [128512]%N ++ runes_of_ascii " emoji
-@leftPad  (' ' ) string // @lengthOf(
-msg_type @calculatedFrom(
-    ""a	b"" ) , // trailing space 
-repeat uint8
-trueish`line1
-line2` , } options // `tick` ""quote"" 'q'
-{
-    body	= ""\" ++ [233]%N ++ runes_of_ascii """ } packet pack// @lengthOf(
-{ /// triple
-@lengthOf(	matchKey )char[3 ] a1
-    ,
-@leftPad
-( ) @calculatedFrom( ""it's""
-) repeat f32a { zchar[ 00 ]
-lengthOf ,
-    stringy u8x ,
-As// trailing space 
-{  A//x
-@calculatedFrom(	""abc"" ), match
-u8x as	crc	{
-65535:
-trueish ,
-""a	b"" :
-    matchKey
-    // " ++ [128512]%N ++ runes_of_ascii " emoji
-    } , }
-, trueish // a // b
-@calculatedFrom( /// triple
-""\n"" // trailing space 
-) `say ""hi""`
-    , } , }
-packet stringy {char[ 4294967296 ]
-u8x
-, }
-")).
-Eval vm_compute in ("<<<M471>>>" ++ check (runes_of_ascii "packet  T {
-@lengthOf(// trailing space 
-matchKey // packet A { u8 x, }
-)
-match
-u as crc { [ ""it's"",""CRC32"" ,
-3 ]:Z9_, } , }
-
-")).
-Eval vm_compute in ("<<<M503>>>" ++ check (runes_of_ascii "
-
-")).
-Eval vm_compute in ("<<<T503>>>" ++ terms [mkTok 0 "<EOF>" 3 0 false] (mkPacket (mkPtok 0 "<EOF>" 3 0 0) None [])).
-Eval vm_compute in ("<<<M535>>>" ++ check (runes_of_ascii "
-root  packet BodyLength {
-    match
-matchKey as
-    As  { 255: Foo
-//
-//x
-,  10 :
-len , // packet A { u8 x, }
-""" ++ [233]%N ++ runes_of_ascii "t" ++ [233]%N ++ runes_of_ascii """
-    :tag , }
-    //	t
-    , packetx A , @calculatedFrom(
-""" ++ [233]%N ++ runes_of_ascii "t" ++ [233]%N ++ runes_of_ascii """) Logon `crlf
-line` // c
-, char[]
-charz
-    `a\` , zchar[
-    //x
-    42 ] chars , }
-    MetaData charz
-{ }
-packet zchar {}")).
-Eval vm_compute in ("<<<M567>>>" ++ check (runes_of_ascii "MetaData Z9_ { }")).
-Eval vm_compute in ("<<<M599>>>" ++ check (runes_of_ascii "MetaData body {
-string asx
-,
-asx// a // b
-int , u128 a1
-    ,
-int32 len
-    ,
-    }
-")).
-Eval vm_compute in ("<<<M631>>>" ++ check (runes_of_ascii "
-options
-    {
-} MetaData u8x{	i32 int // a // b
-, i64 A ,
-    o Z9_ `tab	here`
-    ,
-    // @lengthOf(
-    }
-")).
-Eval vm_compute in ("<<<M663>>>" ++ check (runes_of_ascii "packet u {
-    uint16 // a // b
-chars  `" ++ [28040; 24687; 31867; 22411]%N ++ runes_of_ascii "`	,// `tick` ""quote"" 'q'
-} root	packet T
-{	leftPad
-Foo `" ++ [28040; 24687; 31867; 22411]%N ++ runes_of_ascii "`
-    ,
-}
-// @lengthOf(
-")).
-Eval vm_compute in ("<<<M695>>>" ++ check (runes_of_ascii "packet
-    u128 {
-repeat string
-As`say ""hi""`, } 	 ")).
-Eval vm_compute in ("<<<M727>>>" ++ check (runes_of_ascii "options {	leftPad = false
-    ;
-Packet  =//	t
-int16 ;
-    // c
-    len = ' ' calculatedFrom =65535
-; } MetaData Header{  int32 Z9_ , f32
-zchar `u8 x,` , char[  10 // a // b
-]x , asx
-_x
-`two words`
-    /// triple
-    , zchar[ 1 ]calculatedFrom `it's` ,}
-// a // b
-//	t
-packet
-    o{
-    u msg_type
-// " ++ [27880; 37322]%N ++ runes_of_ascii "
-//
-,@leftPad( '0' ) repeat BodyLength u
-    `" ++ [233]%N ++ runes_of_ascii "` , @leftPad
-('0'// " ++ [27880; 37322]%N ++ runes_of_ascii "
-)@tag( 1 )zchar[ 1 ]i64_ @calculatedFrom( """ ++ [233]%N ++ runes_of_ascii "t" ++ [233]%N ++ runes_of_ascii """	)	`it's` , @lengthOf( x
-    )
-    @tag( 255  ) @tag(  7 )
-repeat zchar[ 10
-] chars
-`two words` ,	@lengthOf(	Foo )rootA `" ++ [233]%N ++ runes_of_ascii "`
-, } packet o {pack // " ++ [27880; 37322]%N ++ runes_of_ascii "
-{repeat i8	lengthOf
-    ,char int //	t
-`u8 x,` ,
-//	t
-// a // b
-i64 matchKey@lengthOf( x_y_z // @lengthOf(
-), }
-, zchar[ 007 ]
-//x
-// packet A { u8 x, }
-metadata`say ""hi""`  , @rightPad ( ' ' )
-    match //x
-MetaDataX
-    as
-x_y_z { 0 : roots , """" : chars
-    ,
-    """ ++ [28040; 24687]%N ++ runes_of_ascii """ : T , 0 :
-//x
-// a // b
-Foo
-//	t
-/// triple
-,
-    [ 0123456789, """ ++ [28040; 24687]%N ++ runes_of_ascii """ , 0 , """ ++ [233]%N ++ runes_of_ascii "t" ++ [233]%N ++ runes_of_ascii """ ,
-    10 , ""a	b""
-, """ ++ [233]%N ++ runes_of_ascii "t" ++ [233]%N ++ runes_of_ascii """ //	t
-,""" ++ [128512]%N ++ runes_of_ascii """
-]  :
-options1 0123456789  :u ,// " ++ [128512]%N ++ runes_of_ascii " emoji
-} , len @calculatedFrom(
-""a\""b""
-) // " ++ [27880; 37322]%N ++ runes_of_ascii "
-, @tag(42 )
-@lengthOf( x_y_z	)
-// a // b
-/// triple
-leftPad chars , //	t
-i8 options1
-@lengthOf(i64_
-    )	,
-repeat
-matchKey `
-` , o	@calculatedFrom( ""`tick`"" ) ,
-    @lengthOf( len ) len
-{match float as
-    rootA {
-[ ""x y""  , ""a\""b"" ,7 , """"
-, """ ++ [233]%N ++ runes_of_ascii "t" ++ [233]%N ++ runes_of_ascii """ , 4294967296
-    ,
-    ""abc"" , 65535
-]: float
-    , } ,	f32
-    Packet ,
-u16 a1	,	zchar[ 65535 ]
-stringy, } ,	} root packet
-    metadata // a // b
-{
-    @tag( 4294967296
-    ) // " ++ [27880; 37322]%N ++ runes_of_ascii "
-string	u8x
-    `a\` , }
-")).
-Eval vm_compute in ("<<<T727>>>" ++ terms [mkTok 1 "options" 1 0 false; mkTok 2 "{" 1 8 false; mkTok 42 "leftPad" 1 10 false; mkTok 4 "=" 1 18 false; mkTok 11 "false" 1 20 false; mkTok 41 ";" 2 4 false; mkTok 42 "Packet" 3 0 false; mkTok 4 "=" 3 8 false; mkTok 44 (string_of_bytes [47; 47; 9; 116]%N) 3 9 true; mkTok 25 "int16" 4 0 false; mkTok 41 ";" 4 6 false; mkTok 44 "// c" 5 4 true; mkTok 42 "len" 6 4 false; mkTok 4 "=" 6 8 false; mkTok 33 "' '" 6 10 false; mkTok 42 "calculatedFrom" 6 14 false; mkTok 4 "=" 6 29 false; mkTok 30 "65535" 6 30 false; mkTok 41 ";" 7 0 false; mkTok 3 "}" 7 2 false; mkTok 37 "MetaData" 7 4 false; mkTok 42 "Header" 7 13 false; mkTok 2 "{" 7 19 false; mkTok 26 "int32" 7 22 false; mkTok 42 "Z9_" 7 28 false; mkTok 40 "," 7 32 false; mkTok 28 "f32" 7 34 false; mkTok 42 "zchar" 8 0 false; mkTok 43 "`u8 x,`" 8 6 false; mkTok 40 "," 8 14 false; mkTok 12 "char[" 8 16 false; mkTok 30 "10" 8 23 false; mkTok 44 "// a // b" 8 26 true; mkTok 13 "]" 9 0 false; mkTok 42 "x" 9 1 false; mkTok 40 "," 9 3 false; mkTok 42 "asx" 9 5 false; mkTok 42 "_x" 10 0 false; mkTok 43 "`two words`" 11 0 false; mkTok 44 "/// triple" 12 4 true; mkTok 40 "," 13 4 false; mkTok 14 "zchar[" 13 6 false; mkTok 30 "1" 13 13 false; mkTok 13 "]" 13 15 false; mkTok 42 "calculatedFrom" 13 16 false; mkTok 43 "`it's`" 13 31 false; mkTok 40 "," 13 38 false; mkTok 3 "}" 13 39 false; mkTok 44 "// a // b" 14 0 true; mkTok 44 (string_of_bytes [47; 47; 9; 116]%N) 15 0 true; mkTok 35 "packet" 16 0 false; mkTok 42 "o" 17 4 false; mkTok 2 "{" 17 5 false; mkTok 42 "u" 18 4 false; mkTok 42 "msg_type" 18 6 false; mkTok 44 (string_of_bytes [47; 47; 32; 230; 179; 168; 233; 135; 138]%N) 19 0 true; mkTok 44 "//" 20 0 true; mkTok 40 "," 21 0 false; mkTok 32 "@leftPad" 21 1 false; mkTok 8 "(" 21 9 false; mkTok 33 "'0'" 21 11 false; mkTok 6 ")" 21 15 false; mkTok 36 "repeat" 21 17 false; mkTok 42 "BodyLength" 21 24 false; mkTok 42 "u" 21 35 false; mkTok 43 (string_of_bytes [96; 195; 169; 96]%N) 22 4 false; mkTok 40 "," 22 8 false; mkTok 32 "@leftPad" 22 10 false; mkTok 8 "(" 23 0 false; mkTok 33 "'0'" 23 1 false; mkTok 44 (string_of_bytes [47; 47; 32; 230; 179; 168; 233; 135; 138]%N) 23 4 true; mkTok 6 ")" 24 0 false; mkTok 9 "@tag(" 24 1 false; mkTok 30 "1" 24 7 false; mkTok 6 ")" 24 9 false; mkTok 14 "zchar[" 24 10 false; mkTok 30 "1" 24 17 false; mkTok 13 "]" 24 19 false; mkTok 42 "i64_" 24 20 false; mkTok 5 "@calculatedFrom(" 24 25 false; mkTok 31 (string_of_bytes [34; 195; 169; 116; 195; 169; 34]%N) 24 42 false; mkTok 6 ")" 24 48 false; mkTok 43 "`it's`" 24 50 false; mkTok 40 "," 24 57 false; mkTok 7 "@lengthOf(" 24 59 false; mkTok 42 "x" 24 70 false; mkTok 6 ")" 25 4 false; mkTok 9 "@tag(" 26 4 false; mkTok 30 "255" 26 10 false; mkTok 6 ")" 26 15 false; mkTok 9 "@tag(" 26 17 false; mkTok 30 "7" 26 24 false; mkTok 6 ")" 26 26 false; mkTok 36 "repeat" 27 0 false; mkTok 14 "zchar[" 27 7 false; mkTok 30 "10" 27 14 false; mkTok 13 "]" 28 0 false; mkTok 42 "chars" 28 2 false; mkTok 43 "`two words`" 29 0 false; mkTok 40 "," 29 12 false; mkTok 7 "@lengthOf(" 29 14 false; mkTok 42 "Foo" 29 25 false; mkTok 6 ")" 29 29 false; mkTok 42 "rootA" 29 30 false; mkTok 43 (string_of_bytes [96; 195; 169; 96]%N) 29 36 false; mkTok 40 "," 30 0 false; mkTok 3 "}" 30 2 false; mkTok 35 "packet" 30 4 false; mkTok 42 "o" 30 11 false; mkTok 2 "{" 30 13 false; mkTok 42 "pack" 30 14 false; mkTok 44 (string_of_bytes [47; 47; 32; 230; 179; 168; 233; 135; 138]%N) 30 19 true; mkTok 2 "{" 31 0 false; mkTok 36 "repeat" 31 1 false; mkTok 24 "i8" 31 8 false; mkTok 42 "lengthOf" 31 11 false; mkTok 40 "," 32 4 false; mkTok 19 "char" 32 5 false; mkTok 42 "int" 32 10 false; mkTok 44 (string_of_bytes [47; 47; 9; 116]%N) 32 14 true; mkTok 43 "`u8 x,`" 33 0 false; mkTok 40 "," 33 8 false; mkTok 44 (string_of_bytes [47; 47; 9; 116]%N) 34 0 true; mkTok 44 "// a // b" 35 0 true; mkTok 27 "i64" 36 0 false; mkTok 42 "matchKey" 36 4 false; mkTok 7 "@lengthOf(" 36 12 false; mkTok 42 "x_y_z" 36 23 false; mkTok 44 "// @lengthOf(" 36 29 true; mkTok 6 ")" 37 0 false; mkTok 40 "," 37 1 false; mkTok 3 "}" 37 3 false; mkTok 40 "," 38 0 false; mkTok 14 "zchar[" 38 2 false; mkTok 30 "007" 38 9 false; mkTok 13 "]" 38 13 false; mkTok 44 "//x" 39 0 true; mkTok 44 "// packet A { u8 x, }" 40 0 true; mkTok 42 "metadata" 41 0 false; mkTok 43 "`say ""hi""`" 41 8 false; mkTok 40 "," 41 20 false; mkTok 32 "@rightPad" 41 22 false; mkTok 8 "(" 41 32 false; mkTok 33 "' '" 41 34 false; mkTok 6 ")" 41 38 false; mkTok 38 "match" 42 4 false; mkTok 44 "//x" 42 10 true; mkTok 42 "MetaDataX" 43 0 false; mkTok 17 "as" 44 4 false; mkTok 42 "x_y_z" 45 0 false; mkTok 2 "{" 45 6 false; mkTok 30 "0" 45 8 false; mkTok 39 ":" 45 10 false; mkTok 42 "roots" 45 12 false; mkTok 40 "," 45 18 false; mkTok 31 """""" 45 20 false; mkTok 39 ":" 45 23 false; mkTok 42 "chars" 45 25 false; mkTok 40 "," 46 4 false; mkTok 31 (string_of_bytes [34; 230; 182; 136; 230; 129; 175; 34]%N) 47 4 false; mkTok 39 ":" 47 9 false; mkTok 42 "T" 47 11 false; mkTok 40 "," 47 13 false; mkTok 30 "0" 47 15 false; mkTok 39 ":" 47 17 false; mkTok 44 "//x" 48 0 true; mkTok 44 "// a // b" 49 0 true; mkTok 42 "Foo" 50 0 false; mkTok 44 (string_of_bytes [47; 47; 9; 116]%N) 51 0 true; mkTok 44 "/// triple" 52 0 true; mkTok 40 "," 53 0 false; mkTok 18 "[" 54 4 false; mkTok 30 "0123456789" 54 6 false; mkTok 40 "," 54 16 false; mkTok 31 (string_of_bytes [34; 230; 182; 136; 230; 129; 175; 34]%N) 54 18 false; mkTok 40 "," 54 23 false; mkTok 30 "0" 54 25 false; mkTok 40 "," 54 27 false; mkTok 31 (string_of_bytes [34; 195; 169; 116; 195; 169; 34]%N) 54 29 false; mkTok 40 "," 54 35 false; mkTok 30 "10" 55 4 false; mkTok 40 "," 55 7 false; mkTok 31 (string_of_bytes [34; 97; 9; 98; 34]%N) 55 9 false; mkTok 40 "," 56 0 false; mkTok 31 (string_of_bytes [34; 195; 169; 116; 195; 169; 34]%N) 56 2 false; mkTok 44 (string_of_bytes [47; 47; 9; 116]%N) 56 8 true; mkTok 40 "," 57 0 false; mkTok 31 (string_of_bytes [34; 240; 159; 152; 128; 34]%N) 57 1 false; mkTok 13 "]" 58 0 false; mkTok 39 ":" 58 3 false; mkTok 42 "options1" 59 0 false; mkTok 30 "0123456789" 59 9 false; mkTok 39 ":" 59 21 false; mkTok 42 "u" 59 22 false; mkTok 40 "," 59 24 false; mkTok 44 (string_of_bytes [47; 47; 32; 240; 159; 152; 128; 32; 101; 109; 111; 106; 105]%N) 59 25 true; mkTok 3 "}" 60 0 false; mkTok 40 "," 60 2 false; mkTok 42 "len" 60 4 false; mkTok 5 "@calculatedFrom(" 60 8 false; mkTok 31 """a\""b""" 61 0 false; mkTok 6 ")" 62 0 false; mkTok 44 (string_of_bytes [47; 47; 32; 230; 179; 168; 233; 135; 138]%N) 62 2 true; mkTok 40 "," 63 0 false; mkTok 9 "@tag(" 63 2 false; mkTok 30 "42" 63 7 false; mkTok 6 ")" 63 10 false; mkTok 7 "@lengthOf(" 64 0 false; mkTok 42 "x_y_z" 64 11 false; mkTok 6 ")" 64 17 false; mkTok 44 "// a // b" 65 0 true; mkTok 44 "/// triple" 66 0 true; mkTok 42 "leftPad" 67 0 false; mkTok 42 "chars" 67 8 false; mkTok 40 "," 67 14 false; mkTok 44 (string_of_bytes [47; 47; 9; 116]%N) 67 16 true; mkTok 24 "i8" 68 0 false; mkTok 42 "options1" 68 3 false; mkTok 7 "@lengthOf(" 69 0 false; mkTok 42 "i64_" 69 10 false; mkTok 6 ")" 70 4 false; mkTok 40 "," 70 6 false; mkTok 36 "repeat" 71 0 false; mkTok 42 "matchKey" 72 0 false; mkTok 43 (string_of_bytes [96; 10; 96]%N) 72 9 false; mkTok 40 "," 73 2 false; mkTok 42 "o" 73 4 false; mkTok 5 "@calculatedFrom(" 73 6 false; mkTok 31 """`tick`""" 73 23 false; mkTok 6 ")" 73 32 false; mkTok 40 "," 73 34 false; mkTok 7 "@lengthOf(" 74 4 false; mkTok 42 "len" 74 15 false; mkTok 6 ")" 74 19 false; mkTok 42 "len" 74 21 false; mkTok 2 "{" 75 0 false; mkTok 38 "match" 75 1 false; mkTok 42 "float" 75 7 false; mkTok 17 "as" 75 13 false; mkTok 42 "rootA" 76 4 false; mkTok 2 "{" 76 10 false; mkTok 18 "[" 77 0 false; mkTok 31 """x y""" 77 2 false; mkTok 40 "," 77 9 false; mkTok 31 """a\""b""" 77 11 false; mkTok 40 "," 77 18 false; mkTok 30 "7" 77 19 false; mkTok 40 "," 77 21 false; mkTok 31 """""" 77 23 false; mkTok 40 "," 78 0 false; mkTok 31 (string_of_bytes [34; 195; 169; 116; 195; 169; 34]%N) 78 2 false; mkTok 40 "," 78 8 false; mkTok 30 "4294967296" 78 10 false; mkTok 40 "," 79 4 false; mkTok 31 """abc""" 80 4 false; mkTok 40 "," 80 10 false; mkTok 30 "65535" 80 12 false; mkTok 13 "]" 81 0 false; mkTok 39 ":" 81 1 false; mkTok 42 "float" 81 3 false; mkTok 40 "," 82 4 false; mkTok 3 "}" 82 6 false; mkTok 40 "," 82 8 false; mkTok 28 "f32" 82 10 false; mkTok 42 "Packet" 83 4 false; mkTok 40 "," 83 11 false; mkTok 21 "u16" 84 0 false; mkTok 42 "a1" 84 4 false; mkTok 40 "," 84 7 false; mkTok 14 "zchar[" 84 9 false; mkTok 30 "65535" 84 16 false; mkTok 13 "]" 84 22 false; mkTok 42 "stringy" 85 0 false; mkTok 40 "," 85 7 false; mkTok 3 "}" 85 9 false; mkTok 40 "," 85 11 false; mkTok 3 "}" 85 13 false; mkTok 34 "root" 85 15 false; mkTok 35 "packet" 85 20 false; mkTok 42 "metadata" 86 4 false; mkTok 44 "// a // b" 86 13 true; mkTok 2 "{" 87 0 false; mkTok 9 "@tag(" 88 4 false; mkTok 30 "4294967296" 88 10 false; mkTok 6 ")" 89 4 false; mkTok 44 (string_of_bytes [47; 47; 32; 230; 179; 168; 233; 135; 138]%N) 89 6 true; mkTok 15 "string" 90 0 false; mkTok 42 "u8x" 90 7 false; mkTok 43 "`a\`" 91 4 false; mkTok 40 "," 91 9 false; mkTok 3 "}" 91 11 false; mkTok 0 "<EOF>" 92 0 false] (mkPacket (mkPtok 1 "options" 1 0 0) (Some (mkPtok 3 "}" 91 11 290)) [(DOption (mkOptionDef (mkSpan (mkPtok 1 "options" 1 0 0) (mkPtok 3 "}" 7 2 19)) (mkPtok 1 "options" 1 0 0) (mkPtok 2 "{" 1 8 1) [(mkOptionDecl (mkSpan (mkPtok 42 "leftPad" 1 10 2) (mkPtok 41 ";" 2 4 5)) (mkPtok 42 "leftPad" 1 10 2) (mkPtok 4 "=" 1 18 3) (VFalse (mkSpan (mkPtok 11 "false" 1 20 4) (mkPtok 11 "false" 1 20 4)) (mkPtok 11 "false" 1 20 4)) (Some (mkPtok 41 ";" 2 4 5))); (mkOptionDecl (mkSpan (mkPtok 42 "Packet" 3 0 6) (mkPtok 41 ";" 4 6 10)) (mkPtok 42 "Packet" 3 0 6) (mkPtok 4 "=" 3 8 7) (VType (mkSpan (mkPtok 25 "int16" 4 0 9) (mkPtok 25 "int16" 4 0 9)) (TyBasic (mkSpan (mkPtok 25 "int16" 4 0 9) (mkPtok 25 "int16" 4 0 9)) (mkBasicType (mkSpan (mkPtok 25 "int16" 4 0 9) (mkPtok 25 "int16" 4 0 9)) (mkPtok 25 "int16" 4 0 9)))) (Some (mkPtok 41 ";" 4 6 10))); (mkOptionDecl (mkSpan (mkPtok 42 "len" 6 4 12) (mkPtok 33 "' '" 6 10 14)) (mkPtok 42 "len" 6 4 12) (mkPtok 4 "=" 6 8 13) (VPaddingChar (mkSpan (mkPtok 33 "' '" 6 10 14) (mkPtok 33 "' '" 6 10 14)) (mkPtok 33 "' '" 6 10 14)) None); (mkOptionDecl (mkSpan (mkPtok 42 "calculatedFrom" 6 14 15) (mkPtok 41 ";" 7 0 18)) (mkPtok 42 "calculatedFrom" 6 14 15) (mkPtok 4 "=" 6 29 16) (VDigits (mkSpan (mkPtok 30 "65535" 6 30 17) (mkPtok 30 "65535" 6 30 17)) (mkPtok 30 "65535" 6 30 17)) (Some (mkPtok 41 ";" 7 0 18)))] (mkPtok 3 "}" 7 2 19))); (DMeta (mkMetaDef (mkSpan (mkPtok 37 "MetaData" 7 4 20) (mkPtok 3 "}" 13 39 47)) (mkPtok 37 "MetaData" 7 4 20) (mkPtok 42 "Header" 7 13 21) (mkPtok 2 "{" 7 19 22) [(MIDecl (mkMetaDecl (mkSpan (mkPtok 26 "int32" 7 22 23) (mkPtok 40 "," 7 32 25)) (TyBasic (mkSpan (mkPtok 26 "int32" 7 22 23) (mkPtok 26 "int32" 7 22 23)) (mkBasicType (mkSpan (mkPtok 26 "int32" 7 22 23) (mkPtok 26 "int32" 7 22 23)) (mkPtok 26 "int32" 7 22 23))) (mkPtok 42 "Z9_" 7 28 24) None (mkPtok 40 "," 7 32 25))); (MIDecl (mkMetaDecl (mkSpan (mkPtok 28 "f32" 7 34 26) (mkPtok 40 "," 8 14 29)) (TyBasic (mkSpan (mkPtok 28 "f32" 7 34 26) (mkPtok 28 "f32" 7 34 26)) (mkBasicType (mkSpan (mkPtok 28 "f32" 7 34 26) (mkPtok 28 "f32" 7 34 26)) (mkPtok 28 "f32" 7 34 26))) (mkPtok 42 "zchar" 8 0 27) (Some (mkPtok 43 "`u8 x,`" 8 6 28)) (mkPtok 40 "," 8 14 29))); (MIDecl (mkMetaDecl (mkSpan (mkPtok 12 "char[" 8 16 30) (mkPtok 40 "," 9 3 35)) (TyFixed (mkSpan (mkPtok 12 "char[" 8 16 30) (mkPtok 13 "]" 9 0 33)) (mkFixedString (mkSpan (mkPtok 12 "char[" 8 16 30) (mkPtok 13 "]" 9 0 33)) (mkPtok 12 "char[" 8 16 30) (mkPtok 30 "10" 8 23 31) (mkPtok 13 "]" 9 0 33))) (mkPtok 42 "x" 9 1 34) None (mkPtok 40 "," 9 3 35))); (MIRef (mkRefMetaDecl (mkSpan (mkPtok 42 "asx" 9 5 36) (mkPtok 40 "," 13 4 40)) (mkPtok 42 "asx" 9 5 36) (mkPtok 42 "_x" 10 0 37) (Some (mkPtok 43 "`two words`" 11 0 38)) (mkPtok 40 "," 13 4 40))); (MIDecl (mkMetaDecl (mkSpan (mkPtok 14 "zchar[" 13 6 41) (mkPtok 40 "," 13 38 46)) (TyFixed (mkSpan (mkPtok 14 "zchar[" 13 6 41) (mkPtok 13 "]" 13 15 43)) (mkFixedString (mkSpan (mkPtok 14 "zchar[" 13 6 41) (mkPtok 13 "]" 13 15 43)) (mkPtok 14 "zchar[" 13 6 41) (mkPtok 30 "1" 13 13 42) (mkPtok 13 "]" 13 15 43))) (mkPtok 42 "calculatedFrom" 13 16 44) (Some (mkPtok 43 "`it's`" 13 31 45)) (mkPtok 40 "," 13 38 46)))] (mkPtok 3 "}" 13 39 47))); (DPacket (mkPacketDef (mkSpan (mkPtok 35 "packet" 16 0 50) (mkPtok 3 "}" 30 2 106)) None (mkPtok 35 "packet" 16 0 50) (mkPtok 42 "o" 17 4 51) (mkPtok 2 "{" 17 5 52) [(mkFieldWithAttr (mkSpan (mkPtok 42 "u" 18 4 53) (mkPtok 40 "," 21 0 57)) [] (ObjectField (mkSpan (mkPtok 42 "u" 18 4 53) (mkPtok 40 "," 21 0 57)) None (mkPtok 42 "u" 18 4 53) (Some (mkPtok 42 "msg_type" 18 6 54)) None (mkPtok 40 "," 21 0 57))); (mkFieldWithAttr (mkSpan (mkPtok 32 "@leftPad" 21 1 58) (mkPtok 40 "," 22 8 66)) [(FAPadding (mkSpan (mkPtok 32 "@leftPad" 21 1 58) (mkPtok 6 ")" 21 15 61)) (mkPaddingAttr (mkSpan (mkPtok 32 "@leftPad" 21 1 58) (mkPtok 6 ")" 21 15 61)) (mkPtok 32 "@leftPad" 21 1 58) (mkPtok 8 "(" 21 9 59) (Some (mkPtok 33 "'0'" 21 11 60)) (mkPtok 6 ")" 21 15 61)))] (ObjectField (mkSpan (mkPtok 36 "repeat" 21 17 62) (mkPtok 40 "," 22 8 66)) (Some (mkPtok 36 "repeat" 21 17 62)) (mkPtok 42 "BodyLength" 21 24 63) (Some (mkPtok 42 "u" 21 35 64)) (Some (mkPtok 43 (string_of_bytes [96; 195; 169; 96]%N) 22 4 65)) (mkPtok 40 "," 22 8 66))); (mkFieldWithAttr (mkSpan (mkPtok 32 "@leftPad" 22 10 67) (mkPtok 40 "," 24 57 83)) [(FAPadding (mkSpan (mkPtok 32 "@leftPad" 22 10 67) (mkPtok 6 ")" 24 0 71)) (mkPaddingAttr (mkSpan (mkPtok 32 "@leftPad" 22 10 67) (mkPtok 6 ")" 24 0 71)) (mkPtok 32 "@leftPad" 22 10 67) (mkPtok 8 "(" 23 0 68) (Some (mkPtok 33 "'0'" 23 1 69)) (mkPtok 6 ")" 24 0 71))); (FATag (mkSpan (mkPtok 9 "@tag(" 24 1 72) (mkPtok 6 ")" 24 9 74)) (mkTagAttr (mkSpan (mkPtok 9 "@tag(" 24 1 72) (mkPtok 6 ")" 24 9 74)) (mkPtok 9 "@tag(" 24 1 72) (mkPtok 30 "1" 24 7 73) (mkPtok 6 ")" 24 9 74)))] (CheckSumField (mkSpan (mkPtok 14 "zchar[" 24 10 75) (mkPtok 40 "," 24 57 83)) (mkChecksumFieldDecl (mkSpan (mkPtok 14 "zchar[" 24 10 75) (mkPtok 40 "," 24 57 83)) (Some (TyFixed (mkSpan (mkPtok 14 "zchar[" 24 10 75) (mkPtok 13 "]" 24 19 77)) (mkFixedString (mkSpan (mkPtok 14 "zchar[" 24 10 75) (mkPtok 13 "]" 24 19 77)) (mkPtok 14 "zchar[" 24 10 75) (mkPtok 30 "1" 24 17 76) (mkPtok 13 "]" 24 19 77)))) (mkPtok 42 "i64_" 24 20 78) (mkCalculatedFrom (mkSpan (mkPtok 5 "@calculatedFrom(" 24 25 79) (mkPtok 6 ")" 24 48 81)) (mkPtok 5 "@calculatedFrom(" 24 25 79) (mkPtok 31 (string_of_bytes [34; 195; 169; 116; 195; 169; 34]%N) 24 42 80) (mkPtok 6 ")" 24 48 81)) (Some (mkPtok 43 "`it's`" 24 50 82)) (mkPtok 40 "," 24 57 83)))); (mkFieldWithAttr (mkSpan (mkPtok 7 "@lengthOf(" 24 59 84) (mkPtok 40 "," 29 12 99)) [(FALengthOf (mkSpan (mkPtok 7 "@lengthOf(" 24 59 84) (mkPtok 6 ")" 25 4 86)) (mkLengthOf (mkSpan (mkPtok 7 "@lengthOf(" 24 59 84) (mkPtok 6 ")" 25 4 86)) (mkPtok 7 "@lengthOf(" 24 59 84) (mkPtok 42 "x" 24 70 85) (mkPtok 6 ")" 25 4 86))); (FATag (mkSpan (mkPtok 9 "@tag(" 26 4 87) (mkPtok 6 ")" 26 15 89)) (mkTagAttr (mkSpan (mkPtok 9 "@tag(" 26 4 87) (mkPtok 6 ")" 26 15 89)) (mkPtok 9 "@tag(" 26 4 87) (mkPtok 30 "255" 26 10 88) (mkPtok 6 ")" 26 15 89))); (FATag (mkSpan (mkPtok 9 "@tag(" 26 17 90) (mkPtok 6 ")" 26 26 92)) (mkTagAttr (mkSpan (mkPtok 9 "@tag(" 26 17 90) (mkPtok 6 ")" 26 26 92)) (mkPtok 9 "@tag(" 26 17 90) (mkPtok 30 "7" 26 24 91) (mkPtok 6 ")" 26 26 92)))] (MetaField (mkSpan (mkPtok 36 "repeat" 27 0 93) (mkPtok 40 "," 29 12 99)) (Some (mkPtok 36 "repeat" 27 0 93)) (mkMetaDecl (mkSpan (mkPtok 14 "zchar[" 27 7 94) (mkPtok 40 "," 29 12 99)) (TyFixed (mkSpan (mkPtok 14 "zchar[" 27 7 94) (mkPtok 13 "]" 28 0 96)) (mkFixedString (mkSpan (mkPtok 14 "zchar[" 27 7 94) (mkPtok 13 "]" 28 0 96)) (mkPtok 14 "zchar[" 27 7 94) (mkPtok 30 "10" 27 14 95) (mkPtok 13 "]" 28 0 96))) (mkPtok 42 "chars" 28 2 97) (Some (mkPtok 43 "`two words`" 29 0 98)) (mkPtok 40 "," 29 12 99)))); (mkFieldWithAttr (mkSpan (mkPtok 7 "@lengthOf(" 29 14 100) (mkPtok 40 "," 30 0 105)) [(FALengthOf (mkSpan (mkPtok 7 "@lengthOf(" 29 14 100) (mkPtok 6 ")" 29 29 102)) (mkLengthOf (mkSpan (mkPtok 7 "@lengthOf(" 29 14 100) (mkPtok 6 ")" 29 29 102)) (mkPtok 7 "@lengthOf(" 29 14 100) (mkPtok 42 "Foo" 29 25 101) (mkPtok 6 ")" 29 29 102)))] (ObjectField (mkSpan (mkPtok 42 "rootA" 29 30 103) (mkPtok 40 "," 30 0 105)) None (mkPtok 42 "rootA" 29 30 103) None (Some (mkPtok 43 (string_of_bytes [96; 195; 169; 96]%N) 29 36 104)) (mkPtok 40 "," 30 0 105)))] (mkPtok 3 "}" 30 2 106))); (DPacket (mkPacketDef (mkSpan (mkPtok 35 "packet" 30 4 107) (mkPtok 3 "}" 85 13 276)) None (mkPtok 35 "packet" 30 4 107) (mkPtok 42 "o" 30 11 108) (mkPtok 2 "{" 30 13 109) [(mkFieldWithAttr (mkSpan (mkPtok 42 "pack" 30 14 110) (mkPtok 40 "," 38 0 132)) [] (InerObjectField (mkSpan (mkPtok 42 "pack" 30 14 110) (mkPtok 40 "," 38 0 132)) None (InerObjectDecl (mkSpan (mkPtok 42 "pack" 30 14 110) (mkPtok 3 "}" 37 3 131)) (mkPtok 42 "pack" 30 14 110) (mkPtok 2 "{" 31 0 112) [(MetaField (mkSpan (mkPtok 36 "repeat" 31 1 113) (mkPtok 40 "," 32 4 116)) (Some (mkPtok 36 "repeat" 31 1 113)) (mkMetaDecl (mkSpan (mkPtok 24 "i8" 31 8 114) (mkPtok 40 "," 32 4 116)) (TyBasic (mkSpan (mkPtok 24 "i8" 31 8 114) (mkPtok 24 "i8" 31 8 114)) (mkBasicType (mkSpan (mkPtok 24 "i8" 31 8 114) (mkPtok 24 "i8" 31 8 114)) (mkPtok 24 "i8" 31 8 114))) (mkPtok 42 "lengthOf" 31 11 115) None (mkPtok 40 "," 32 4 116))); (MetaField (mkSpan (mkPtok 19 "char" 32 5 117) (mkPtok 40 "," 33 8 121)) None (mkMetaDecl (mkSpan (mkPtok 19 "char" 32 5 117) (mkPtok 40 "," 33 8 121)) (TyBasic (mkSpan (mkPtok 19 "char" 32 5 117) (mkPtok 19 "char" 32 5 117)) (mkBasicType (mkSpan (mkPtok 19 "char" 32 5 117) (mkPtok 19 "char" 32 5 117)) (mkPtok 19 "char" 32 5 117))) (mkPtok 42 "int" 32 10 118) (Some (mkPtok 43 "`u8 x,`" 33 0 120)) (mkPtok 40 "," 33 8 121))); (LengthField (mkSpan (mkPtok 27 "i64" 36 0 124) (mkPtok 40 "," 37 1 130)) (mkLengthFieldDecl (mkSpan (mkPtok 27 "i64" 36 0 124) (mkPtok 40 "," 37 1 130)) (Some (TyBasic (mkSpan (mkPtok 27 "i64" 36 0 124) (mkPtok 27 "i64" 36 0 124)) (mkBasicType (mkSpan (mkPtok 27 "i64" 36 0 124) (mkPtok 27 "i64" 36 0 124)) (mkPtok 27 "i64" 36 0 124)))) (mkPtok 42 "matchKey" 36 4 125) (mkLengthOf (mkSpan (mkPtok 7 "@lengthOf(" 36 12 126) (mkPtok 6 ")" 37 0 129)) (mkPtok 7 "@lengthOf(" 36 12 126) (mkPtok 42 "x_y_z" 36 23 127) (mkPtok 6 ")" 37 0 129)) None (mkPtok 40 "," 37 1 130)))] (mkPtok 3 "}" 37 3 131)) (mkPtok 40 "," 38 0 132))); (mkFieldWithAttr (mkSpan (mkPtok 14 "zchar[" 38 2 133) (mkPtok 40 "," 41 20 140)) [] (MetaField (mkSpan (mkPtok 14 "zchar[" 38 2 133) (mkPtok 40 "," 41 20 140)) None (mkMetaDecl (mkSpan (mkPtok 14 "zchar[" 38 2 133) (mkPtok 40 "," 41 20 140)) (TyFixed (mkSpan (mkPtok 14 "zchar[" 38 2 133) (mkPtok 13 "]" 38 13 135)) (mkFixedString (mkSpan (mkPtok 14 "zchar[" 38 2 133) (mkPtok 13 "]" 38 13 135)) (mkPtok 14 "zchar[" 38 2 133) (mkPtok 30 "007" 38 9 134) (mkPtok 13 "]" 38 13 135))) (mkPtok 42 "metadata" 41 0 138) (Some (mkPtok 43 "`say ""hi""`" 41 8 139)) (mkPtok 40 "," 41 20 140)))); (mkFieldWithAttr (mkSpan (mkPtok 32 "@rightPad" 41 22 141) (mkPtok 40 "," 60 2 197)) [(FAPadding (mkSpan (mkPtok 32 "@rightPad" 41 22 141) (mkPtok 6 ")" 41 38 144)) (mkPaddingAttr (mkSpan (mkPtok 32 "@rightPad" 41 22 141) (mkPtok 6 ")" 41 38 144)) (mkPtok 32 "@rightPad" 41 22 141) (mkPtok 8 "(" 41 32 142) (Some (mkPtok 33 "' '" 41 34 143)) (mkPtok 6 ")" 41 38 144)))] (MatchField (mkSpan (mkPtok 38 "match" 42 4 145) (mkPtok 40 "," 60 2 197)) (mkMatchFieldDecl (mkSpan (mkPtok 38 "match" 42 4 145) (mkPtok 3 "}" 60 0 196)) (mkPtok 38 "match" 42 4 145) (mkPtok 42 "MetaDataX" 43 0 147) (mkPtok 17 "as" 44 4 148) (mkPtok 42 "x_y_z" 45 0 149) (mkPtok 2 "{" 45 6 150) [(mkMatchPair (mkSpan (mkPtok 30 "0" 45 8 151) (mkPtok 40 "," 45 18 154)) (MKDigits (mkPtok 30 "0" 45 8 151)) (mkPtok 39 ":" 45 10 152) (mkPtok 42 "roots" 45 12 153) (Some (mkPtok 40 "," 45 18 154))); (mkMatchPair (mkSpan (mkPtok 31 """""" 45 20 155) (mkPtok 40 "," 46 4 158)) (MKString (mkPtok 31 """""" 45 20 155)) (mkPtok 39 ":" 45 23 156) (mkPtok 42 "chars" 45 25 157) (Some (mkPtok 40 "," 46 4 158))); (mkMatchPair (mkSpan (mkPtok 31 (string_of_bytes [34; 230; 182; 136; 230; 129; 175; 34]%N) 47 4 159) (mkPtok 40 "," 47 13 162)) (MKString (mkPtok 31 (string_of_bytes [34; 230; 182; 136; 230; 129; 175; 34]%N) 47 4 159)) (mkPtok 39 ":" 47 9 160) (mkPtok 42 "T" 47 11 161) (Some (mkPtok 40 "," 47 13 162))); (mkMatchPair (mkSpan (mkPtok 30 "0" 47 15 163) (mkPtok 40 "," 53 0 170)) (MKDigits (mkPtok 30 "0" 47 15 163)) (mkPtok 39 ":" 47 17 164) (mkPtok 42 "Foo" 50 0 167) (Some (mkPtok 40 "," 53 0 170))); (mkMatchPair (mkSpan (mkPtok 18 "[" 54 4 171) (mkPtok 42 "options1" 59 0 190)) (MKList (mkKeyList (mkSpan (mkPtok 18 "[" 54 4 171) (mkPtok 13 "]" 58 0 188)) (mkPtok 18 "[" 54 4 171) (mkPtok 30 "0123456789" 54 6 172) [((mkPtok 40 "," 54 16 173), (mkPtok 31 (string_of_bytes [34; 230; 182; 136; 230; 129; 175; 34]%N) 54 18 174)); ((mkPtok 40 "," 54 23 175), (mkPtok 30 "0" 54 25 176)); ((mkPtok 40 "," 54 27 177), (mkPtok 31 (string_of_bytes [34; 195; 169; 116; 195; 169; 34]%N) 54 29 178)); ((mkPtok 40 "," 54 35 179), (mkPtok 30 "10" 55 4 180)); ((mkPtok 40 "," 55 7 181), (mkPtok 31 (string_of_bytes [34; 97; 9; 98; 34]%N) 55 9 182)); ((mkPtok 40 "," 56 0 183), (mkPtok 31 (string_of_bytes [34; 195; 169; 116; 195; 169; 34]%N) 56 2 184)); ((mkPtok 40 "," 57 0 186), (mkPtok 31 (string_of_bytes [34; 240; 159; 152; 128; 34]%N) 57 1 187))] (mkPtok 13 "]" 58 0 188))) (mkPtok 39 ":" 58 3 189) (mkPtok 42 "options1" 59 0 190) None); (mkMatchPair (mkSpan (mkPtok 30 "0123456789" 59 9 191) (mkPtok 40 "," 59 24 194)) (MKDigits (mkPtok 30 "0123456789" 59 9 191)) (mkPtok 39 ":" 59 21 192) (mkPtok 42 "u" 59 22 193) (Some (mkPtok 40 "," 59 24 194)))] (mkPtok 3 "}" 60 0 196)) (mkPtok 40 "," 60 2 197))); (mkFieldWithAttr (mkSpan (mkPtok 42 "len" 60 4 198) (mkPtok 40 "," 63 0 203)) [] (CheckSumField (mkSpan (mkPtok 42 "len" 60 4 198) (mkPtok 40 "," 63 0 203)) (mkChecksumFieldDecl (mkSpan (mkPtok 42 "len" 60 4 198) (mkPtok 40 "," 63 0 203)) None (mkPtok 42 "len" 60 4 198) (mkCalculatedFrom (mkSpan (mkPtok 5 "@calculatedFrom(" 60 8 199) (mkPtok 6 ")" 62 0 201)) (mkPtok 5 "@calculatedFrom(" 60 8 199) (mkPtok 31 """a\""b""" 61 0 200) (mkPtok 6 ")" 62 0 201)) None (mkPtok 40 "," 63 0 203)))); (mkFieldWithAttr (mkSpan (mkPtok 9 "@tag(" 63 2 204) (mkPtok 40 "," 67 14 214)) [(FATag (mkSpan (mkPtok 9 "@tag(" 63 2 204) (mkPtok 6 ")" 63 10 206)) (mkTagAttr (mkSpan (mkPtok 9 "@tag(" 63 2 204) (mkPtok 6 ")" 63 10 206)) (mkPtok 9 "@tag(" 63 2 204) (mkPtok 30 "42" 63 7 205) (mkPtok 6 ")" 63 10 206))); (FALengthOf (mkSpan (mkPtok 7 "@lengthOf(" 64 0 207) (mkPtok 6 ")" 64 17 209)) (mkLengthOf (mkSpan (mkPtok 7 "@lengthOf(" 64 0 207) (mkPtok 6 ")" 64 17 209)) (mkPtok 7 "@lengthOf(" 64 0 207) (mkPtok 42 "x_y_z" 64 11 208) (mkPtok 6 ")" 64 17 209)))] (ObjectField (mkSpan (mkPtok 42 "leftPad" 67 0 212) (mkPtok 40 "," 67 14 214)) None (mkPtok 42 "leftPad" 67 0 212) (Some (mkPtok 42 "chars" 67 8 213)) None (mkPtok 40 "," 67 14 214))); (mkFieldWithAttr (mkSpan (mkPtok 24 "i8" 68 0 216) (mkPtok 40 "," 70 6 221)) [] (LengthField (mkSpan (mkPtok 24 "i8" 68 0 216) (mkPtok 40 "," 70 6 221)) (mkLengthFieldDecl (mkSpan (mkPtok 24 "i8" 68 0 216) (mkPtok 40 "," 70 6 221)) (Some (TyBasic (mkSpan (mkPtok 24 "i8" 68 0 216) (mkPtok 24 "i8" 68 0 216)) (mkBasicType (mkSpan (mkPtok 24 "i8" 68 0 216) (mkPtok 24 "i8" 68 0 216)) (mkPtok 24 "i8" 68 0 216)))) (mkPtok 42 "options1" 68 3 217) (mkLengthOf (mkSpan (mkPtok 7 "@lengthOf(" 69 0 218) (mkPtok 6 ")" 70 4 220)) (mkPtok 7 "@lengthOf(" 69 0 218) (mkPtok 42 "i64_" 69 10 219) (mkPtok 6 ")" 70 4 220)) None (mkPtok 40 "," 70 6 221)))); (mkFieldWithAttr (mkSpan (mkPtok 36 "repeat" 71 0 222) (mkPtok 40 "," 73 2 225)) [] (ObjectField (mkSpan (mkPtok 36 "repeat" 71 0 222) (mkPtok 40 "," 73 2 225)) (Some (mkPtok 36 "repeat" 71 0 222)) (mkPtok 42 "matchKey" 72 0 223) None (Some (mkPtok 43 (string_of_bytes [96; 10; 96]%N) 72 9 224)) (mkPtok 40 "," 73 2 225))); (mkFieldWithAttr (mkSpan (mkPtok 42 "o" 73 4 226) (mkPtok 40 "," 73 34 230)) [] (CheckSumField (mkSpan (mkPtok 42 "o" 73 4 226) (mkPtok 40 "," 73 34 230)) (mkChecksumFieldDecl (mkSpan (mkPtok 42 "o" 73 4 226) (mkPtok 40 "," 73 34 230)) None (mkPtok 42 "o" 73 4 226) (mkCalculatedFrom (mkSpan (mkPtok 5 "@calculatedFrom(" 73 6 227) (mkPtok 6 ")" 73 32 229)) (mkPtok 5 "@calculatedFrom(" 73 6 227) (mkPtok 31 """`tick`""" 73 23 228) (mkPtok 6 ")" 73 32 229)) None (mkPtok 40 "," 73 34 230)))); (mkFieldWithAttr (mkSpan (mkPtok 7 "@lengthOf(" 74 4 231) (mkPtok 40 "," 85 11 275)) [(FALengthOf (mkSpan (mkPtok 7 "@lengthOf(" 74 4 231) (mkPtok 6 ")" 74 19 233)) (mkLengthOf (mkSpan (mkPtok 7 "@lengthOf(" 74 4 231) (mkPtok 6 ")" 74 19 233)) (mkPtok 7 "@lengthOf(" 74 4 231) (mkPtok 42 "len" 74 15 232) (mkPtok 6 ")" 74 19 233)))] (InerObjectField (mkSpan (mkPtok 42 "len" 74 21 234) (mkPtok 40 "," 85 11 275)) None (InerObjectDecl (mkSpan (mkPtok 42 "len" 74 21 234) (mkPtok 3 "}" 85 9 274)) (mkPtok 42 "len" 74 21 234) (mkPtok 2 "{" 75 0 235) [(MatchField (mkSpan (mkPtok 38 "match" 75 1 236) (mkPtok 40 "," 82 8 262)) (mkMatchFieldDecl (mkSpan (mkPtok 38 "match" 75 1 236) (mkPtok 3 "}" 82 6 261)) (mkPtok 38 "match" 75 1 236) (mkPtok 42 "float" 75 7 237) (mkPtok 17 "as" 75 13 238) (mkPtok 42 "rootA" 76 4 239) (mkPtok 2 "{" 76 10 240) [(mkMatchPair (mkSpan (mkPtok 18 "[" 77 0 241) (mkPtok 40 "," 82 4 260)) (MKList (mkKeyList (mkSpan (mkPtok 18 "[" 77 0 241) (mkPtok 13 "]" 81 0 257)) (mkPtok 18 "[" 77 0 241) (mkPtok 31 """x y""" 77 2 242) [((mkPtok 40 "," 77 9 243), (mkPtok 31 """a\""b""" 77 11 244)); ((mkPtok 40 "," 77 18 245), (mkPtok 30 "7" 77 19 246)); ((mkPtok 40 "," 77 21 247), (mkPtok 31 """""" 77 23 248)); ((mkPtok 40 "," 78 0 249), (mkPtok 31 (string_of_bytes [34; 195; 169; 116; 195; 169; 34]%N) 78 2 250)); ((mkPtok 40 "," 78 8 251), (mkPtok 30 "4294967296" 78 10 252)); ((mkPtok 40 "," 79 4 253), (mkPtok 31 """abc""" 80 4 254)); ((mkPtok 40 "," 80 10 255), (mkPtok 30 "65535" 80 12 256))] (mkPtok 13 "]" 81 0 257))) (mkPtok 39 ":" 81 1 258) (mkPtok 42 "float" 81 3 259) (Some (mkPtok 40 "," 82 4 260)))] (mkPtok 3 "}" 82 6 261)) (mkPtok 40 "," 82 8 262)); (MetaField (mkSpan (mkPtok 28 "f32" 82 10 263) (mkPtok 40 "," 83 11 265)) None (mkMetaDecl (mkSpan (mkPtok 28 "f32" 82 10 263) (mkPtok 40 "," 83 11 265)) (TyBasic (mkSpan (mkPtok 28 "f32" 82 10 263) (mkPtok 28 "f32" 82 10 263)) (mkBasicType (mkSpan (mkPtok 28 "f32" 82 10 263) (mkPtok 28 "f32" 82 10 263)) (mkPtok 28 "f32" 82 10 263))) (mkPtok 42 "Packet" 83 4 264) None (mkPtok 40 "," 83 11 265))); (MetaField (mkSpan (mkPtok 21 "u16" 84 0 266) (mkPtok 40 "," 84 7 268)) None (mkMetaDecl (mkSpan (mkPtok 21 "u16" 84 0 266) (mkPtok 40 "," 84 7 268)) (TyBasic (mkSpan (mkPtok 21 "u16" 84 0 266) (mkPtok 21 "u16" 84 0 266)) (mkBasicType (mkSpan (mkPtok 21 "u16" 84 0 266) (mkPtok 21 "u16" 84 0 266)) (mkPtok 21 "u16" 84 0 266))) (mkPtok 42 "a1" 84 4 267) None (mkPtok 40 "," 84 7 268))); (MetaField (mkSpan (mkPtok 14 "zchar[" 84 9 269) (mkPtok 40 "," 85 7 273)) None (mkMetaDecl (mkSpan (mkPtok 14 "zchar[" 84 9 269) (mkPtok 40 "," 85 7 273)) (TyFixed (mkSpan (mkPtok 14 "zchar[" 84 9 269) (mkPtok 13 "]" 84 22 271)) (mkFixedString (mkSpan (mkPtok 14 "zchar[" 84 9 269) (mkPtok 13 "]" 84 22 271)) (mkPtok 14 "zchar[" 84 9 269) (mkPtok 30 "65535" 84 16 270) (mkPtok 13 "]" 84 22 271))) (mkPtok 42 "stringy" 85 0 272) None (mkPtok 40 "," 85 7 273)))] (mkPtok 3 "}" 85 9 274)) (mkPtok 40 "," 85 11 275)))] (mkPtok 3 "}" 85 13 276))); (DPacket (mkPacketDef (mkSpan (mkPtok 34 "root" 85 15 277) (mkPtok 3 "}" 91 11 290)) (Some (mkPtok 34 "root" 85 15 277)) (mkPtok 35 "packet" 85 20 278) (mkPtok 42 "metadata" 86 4 279) (mkPtok 2 "{" 87 0 281) [(mkFieldWithAttr (mkSpan (mkPtok 9 "@tag(" 88 4 282) (mkPtok 40 "," 91 9 289)) [(FATag (mkSpan (mkPtok 9 "@tag(" 88 4 282) (mkPtok 6 ")" 89 4 284)) (mkTagAttr (mkSpan (mkPtok 9 "@tag(" 88 4 282) (mkPtok 6 ")" 89 4 284)) (mkPtok 9 "@tag(" 88 4 282) (mkPtok 30 "4294967296" 88 10 283) (mkPtok 6 ")" 89 4 284)))] (MetaField (mkSpan (mkPtok 15 "string" 90 0 286) (mkPtok 40 "," 91 9 289)) None (mkMetaDecl (mkSpan (mkPtok 15 "string" 90 0 286) (mkPtok 40 "," 91 9 289)) (TyDynamic (mkSpan (mkPtok 15 "string" 90 0 286) (mkPtok 15 "string" 90 0 286)) (mkDynamicString (mkSpan (mkPtok 15 "string" 90 0 286) (mkPtok 15 "string" 90 0 286)) (mkPtok 15 "string" 90 0 286))) (mkPtok 42 "u8x" 90 7 287) (Some (mkPtok 43 "`a\`" 91 4 288)) (mkPtok 40 "," 91 9 289))))] (mkPtok 3 "}" 91 11 290)))])).
-Eval vm_compute in ("<<<M759>>>" ++ check (runes_of_ascii "root packet options1 {
-    }	options { u
-    =  4294967296
-    As=
-""abc""  f32a = ' ' ; len // packet A { u8 x, }
-=char[] ; uint8x
-= true}
-")).
-Eval vm_compute in ("<<<M791>>>" ++ check (runes_of_ascii "packet float { @calculatedFrom(
-// @lengthOf(
-// a // b
-""abc"" ) u64 roots
-, repeat u {repeat A `a\` , As @lengthOf( len ) , uint16 falsey ,
-    leftPad @lengthOf(
-//x
-// c
-crc)
-    ,
-    } , zchar[007 ]
-    int
-`a\`
-    ,
-@calculatedFrom( ""x y"")
-char[] Logon `
-`// `tick` ""quote"" 'q'
-, @rightPad ( ' ' // a // b
-)@lengthOf(
-tag) @tag( 0123456789 ) match
-    rootA as Z9_{ 65535 :
-    chars ""1"" : Pad // packet A { u8 x, }
-, }, @tag(	65535 ) tag
-    // " ++ [27880; 37322]%N ++ runes_of_ascii "
-    { char[
-//
-// " ++ [27880; 37322]%N ++ runes_of_ascii "
-255]// @lengthOf(
-charz@lengthOf( len
-)`a\` ,uint16 i64_
-@lengthOf(string_
-//x
-//
-) , }
-    ,
-// c
-/// triple
-o o `// not a comment` , @calculatedFrom(
-""1"" ) repeat T `" ++ [28040; 24687; 31867; 22411]%N ++ runes_of_ascii "`	, } root packet crc
-{ repeat
-zchar[ 4294967296
-    ] u8x, match MetaDataX as
-string_
-{
-[""`tick`"" ,	""packet""	, 10
-, ""packet"",	""// no comment"" , """ ++ [233]%N ++ runes_of_ascii "t" ++ [233]%N ++ runes_of_ascii """ ,
-65535] : stringy
-// packet A { u8 x, }
-//
-,
-[
-    3 ] :	stringy, [""" ++ [28040; 24687]%N ++ runes_of_ascii """ , 3 ] : asx	, // " ++ [128512]%N ++ runes_of_ascii " emoji
-[ 7, // @lengthOf(
-00, // @lengthOf(
-""" ++ [28040; 24687]%N ++ runes_of_ascii """ , ""a	b"" , 0, 4294967296// @lengthOf(
-,255
-,  007 ] :As//
-,
-""1"" : x_y_z
-// `tick` ""quote"" 'q'
-// @lengthOf(
-, } , } MetaData
-    falsey { } packet o // c
-{ @lengthOf(	Packet/// triple
-)
-@lengthOf( Z9_ ) @leftPad (
-'\x00' ) repeat
-Pad// packet A { u8 x, }
-matchKey
-,}
-MetaData
-stringy {}
-")).
-Eval vm_compute in ("<<<M823>>>" ++ check (runes_of_ascii "
-MetaData string_ //	t
-{ stringy metadata
-    , // packet A { u8 x, }
-lengthOf int
-``,
-    f32a u8x	,
-u32//
-tag ,	falsey repeatCount ,
-    }
-")).
-Eval vm_compute in ("<<<M855>>>" ++ check (runes_of_ascii "packet Logon // `tick` ""quote"" 'q'
-{
-    @rightPad
-()
-repeat
-Z9_ , match i64_
-//x
-// @lengthOf(
-as len { 65535
-// " ++ [27880; 37322]%N ++ runes_of_ascii "
-// @lengthOf(
-:
-    MetaDataX
-, """ ++ [128512]%N ++ runes_of_ascii """: u128 , """ ++ [28040; 24687]%N ++ runes_of_ascii """ :lengthOf
-""a	b"" : o , [
-    255 // c
-]  : As , [""\n""] :
-// @lengthOf(
-// trailing space 
-o, } ,	@tag(
-//	t
-// trailing space 
-42)
-@tag( 1 ) //	t
-string_ @calculatedFrom( ""1"" ) ,
-    } root packet
-matchKey
-{ repeat u32
-MetaDataX ,
-    float32
-As	@lengthOf(
-charz	),
-a1 repeatCount `
-`	, } packet
-    msg_type
-    // trailing space 
-    {
-    }")).
-Eval vm_compute in ("<<<M887>>>" ++ check (runes_of_ascii "
-MetaData u8x {
-    i64_ u128`tab	here` ,char[]
-asx ,
-    u // packet A { u8 x, }
-BodyLength ,u64  uint8x ,
-    _x
-rootA //x
-,}
-    MetaData trueish { float64 asx// c
-, /// triple
-}")).
-Eval vm_compute in ("<<<M919>>>" ++ check (runes_of_ascii "MetaData _x{
-    body
-float
-, float64
-    x_y_z `tab	here` ,  char[00
-]
-o`a\`
-, Z9_	crc
-    `doc`
-,} packet options1 { @lengthOf( T )@lengthOf( chars  ) @rightPad
-(
-    ' '  ) string_ falsey ,
-    // packet A { u8 x, }
-    } MetaData Pad
-{ //x
-Foo Z9_
-    `crlf
-line` , x_y_z packetx	,
-    uint32 calculatedFrom , i64 falsey ,packetx As ``,  }")).
-Eval vm_compute in ("<<<M951>>>" ++ check (runes_of_ascii "
-packet packetx //	t
-{
-lengthOf
-    @lengthOf( T )
-    // trailing space 
-    `// not a comment`
-, char[ 42] Header `two words` ,} packet
-    Logon { repeat
-string i64_ `u8 x,`
-, @rightPad ( )match calculatedFrom //
-as
-stringy /// triple
-{ [ 0123456789 , // trailing space 
-7  ,
-""1""
-, 1
-, ""`tick`""	]
-:
-    zchar
-, 3 //	t
-:
-packetx
-    [
-    10,""CRC32"" ]:	x
-[7 ]  :
-    // `tick` ""quote"" 'q'
-    Foo
-,[ ""CRC32""
-,
-10 ,
-// " ++ [27880; 37322]%N ++ runes_of_ascii "
-// packet A { u8 x, }
-65535 ,
-// " ++ [27880; 37322]%N ++ runes_of_ascii "
-// a // b
-7 ,""{,}"" ] : A // @lengthOf(
-, 00 :rootA
-    , }
-, } options{
-}
-")).
-Eval vm_compute in ("<<<T951>>>" ++ terms [mkTok 35 "packet" 2 0 false; mkTok 42 "packetx" 2 7 false; mkTok 44 (string_of_bytes [47; 47; 9; 116]%N) 2 15 true; mkTok 2 "{" 3 0 false; mkTok 42 "lengthOf" 4 0 false; mkTok 7 "@lengthOf(" 5 4 false; mkTok 42 "T" 5 15 false; mkTok 6 ")" 5 17 false; mkTok 44 "// trailing space " 6 4 true; mkTok 43 "`// not a comment`" 7 4 false; mkTok 40 "," 8 0 false; mkTok 12 "char[" 8 2 false; mkTok 30 "42" 8 8 false; mkTok 13 "]" 8 10 false; mkTok 42 "Header" 8 12 false; mkTok 43 "`two words`" 8 19 false; mkTok 40 "," 8 31 false; mkTok 3 "}" 8 32 false; mkTok 35 "packet" 8 34 false; mkTok 42 "Logon" 9 4 false; mkTok 2 "{" 9 10 false; mkTok 36 "repeat" 9 12 false; mkTok 15 "string" 10 0 false; mkTok 42 "i64_" 10 7 false; mkTok 43 "`u8 x,`" 10 12 false; mkTok 40 "," 11 0 false; mkTok 32 "@rightPad" 11 2 false; mkTok 8 "(" 11 12 false; mkTok 6 ")" 11 14 false; mkTok 38 "match" 11 15 false; mkTok 42 "calculatedFrom" 11 21 false; mkTok 44 "//" 11 36 true; mkTok 17 "as" 12 0 false; mkTok 42 "stringy" 13 0 false; mkTok 44 "/// triple" 13 8 true; mkTok 2 "{" 14 0 false; mkTok 18 "[" 14 2 false; mkTok 30 "0123456789" 14 4 false; mkTok 40 "," 14 15 false; mkTok 44 "// trailing space " 14 17 true; mkTok 30 "7" 15 0 false; mkTok 40 "," 15 3 false; mkTok 31 """1""" 16 0 false; mkTok 40 "," 17 0 false; mkTok 30 "1" 17 2 false; mkTok 40 "," 18 0 false; mkTok 31 """`tick`""" 18 2 false; mkTok 13 "]" 18 11 false; mkTok 39 ":" 19 0 false; mkTok 42 "zchar" 20 4 false; mkTok 40 "," 21 0 false; mkTok 30 "3" 21 2 false; mkTok 44 (string_of_bytes [47; 47; 9; 116]%N) 21 4 true; mkTok 39 ":" 22 0 false; mkTok 42 "packetx" 23 0 false; mkTok 18 "[" 24 4 false; mkTok 30 "10" 25 4 false; mkTok 40 "," 25 6 false; mkTok 31 """CRC32""" 25 7 false; mkTok 13 "]" 25 15 false; mkTok 39 ":" 25 16 false; mkTok 42 "x" 25 18 false; mkTok 18 "[" 26 0 false; mkTok 30 "7" 26 1 false; mkTok 13 "]" 26 3 false; mkTok 39 ":" 26 6 false; mkTok 44 "// `tick` ""quote"" 'q'" 27 4 true; mkTok 42 "Foo" 28 4 false; mkTok 40 "," 29 0 false; mkTok 18 "[" 29 1 false; mkTok 31 """CRC32""" 29 3 false; mkTok 40 "," 30 0 false; mkTok 30 "10" 31 0 false; mkTok 40 "," 31 3 false; mkTok 44 (string_of_bytes [47; 47; 32; 230; 179; 168; 233; 135; 138]%N) 32 0 true; mkTok 44 "// packet A { u8 x, }" 33 0 true; mkTok 30 "65535" 34 0 false; mkTok 40 "," 34 6 false; mkTok 44 (string_of_bytes [47; 47; 32; 230; 179; 168; 233; 135; 138]%N) 35 0 true; mkTok 44 "// a // b" 36 0 true; mkTok 30 "7" 37 0 false; mkTok 40 "," 37 2 false; mkTok 31 """{,}""" 37 3 false; mkTok 13 "]" 37 9 false; mkTok 39 ":" 37 11 false; mkTok 42 "A" 37 13 false; mkTok 44 "// @lengthOf(" 37 15 true; mkTok 40 "," 38 0 false; mkTok 30 "00" 38 2 false; mkTok 39 ":" 38 5 false; mkTok 42 "rootA" 38 6 false; mkTok 40 "," 39 4 false; mkTok 3 "}" 39 6 false; mkTok 40 "," 40 0 false; mkTok 3 "}" 40 2 false; mkTok 1 "options" 40 4 false; mkTok 2 "{" 40 11 false; mkTok 3 "}" 41 0 false; mkTok 0 "<EOF>" 42 0 false] (mkPacket (mkPtok 35 "packet" 2 0 0) (Some (mkPtok 3 "}" 41 0 97)) [(DPacket (mkPacketDef (mkSpan (mkPtok 35 "packet" 2 0 0) (mkPtok 3 "}" 8 32 17)) None (mkPtok 35 "packet" 2 0 0) (mkPtok 42 "packetx" 2 7 1) (mkPtok 2 "{" 3 0 3) [(mkFieldWithAttr (mkSpan (mkPtok 42 "lengthOf" 4 0 4) (mkPtok 40 "," 8 0 10)) [] (LengthField (mkSpan (mkPtok 42 "lengthOf" 4 0 4) (mkPtok 40 "," 8 0 10)) (mkLengthFieldDecl (mkSpan (mkPtok 42 "lengthOf" 4 0 4) (mkPtok 40 "," 8 0 10)) None (mkPtok 42 "lengthOf" 4 0 4) (mkLengthOf (mkSpan (mkPtok 7 "@lengthOf(" 5 4 5) (mkPtok 6 ")" 5 17 7)) (mkPtok 7 "@lengthOf(" 5 4 5) (mkPtok 42 "T" 5 15 6) (mkPtok 6 ")" 5 17 7)) (Some (mkPtok 43 "`// not a comment`" 7 4 9)) (mkPtok 40 "," 8 0 10)))); (mkFieldWithAttr (mkSpan (mkPtok 12 "char[" 8 2 11) (mkPtok 40 "," 8 31 16)) [] (MetaField (mkSpan (mkPtok 12 "char[" 8 2 11) (mkPtok 40 "," 8 31 16)) None (mkMetaDecl (mkSpan (mkPtok 12 "char[" 8 2 11) (mkPtok 40 "," 8 31 16)) (TyFixed (mkSpan (mkPtok 12 "char[" 8 2 11) (mkPtok 13 "]" 8 10 13)) (mkFixedString (mkSpan (mkPtok 12 "char[" 8 2 11) (mkPtok 13 "]" 8 10 13)) (mkPtok 12 "char[" 8 2 11) (mkPtok 30 "42" 8 8 12) (mkPtok 13 "]" 8 10 13))) (mkPtok 42 "Header" 8 12 14) (Some (mkPtok 43 "`two words`" 8 19 15)) (mkPtok 40 "," 8 31 16))))] (mkPtok 3 "}" 8 32 17))); (DPacket (mkPacketDef (mkSpan (mkPtok 35 "packet" 8 34 18) (mkPtok 3 "}" 40 2 94)) None (mkPtok 35 "packet" 8 34 18) (mkPtok 42 "Logon" 9 4 19) (mkPtok 2 "{" 9 10 20) [(mkFieldWithAttr (mkSpan (mkPtok 36 "repeat" 9 12 21) (mkPtok 40 "," 11 0 25)) [] (MetaField (mkSpan (mkPtok 36 "repeat" 9 12 21) (mkPtok 40 "," 11 0 25)) (Some (mkPtok 36 "repeat" 9 12 21)) (mkMetaDecl (mkSpan (mkPtok 15 "string" 10 0 22) (mkPtok 40 "," 11 0 25)) (TyDynamic (mkSpan (mkPtok 15 "string" 10 0 22) (mkPtok 15 "string" 10 0 22)) (mkDynamicString (mkSpan (mkPtok 15 "string" 10 0 22) (mkPtok 15 "string" 10 0 22)) (mkPtok 15 "string" 10 0 22))) (mkPtok 42 "i64_" 10 7 23) (Some (mkPtok 43 "`u8 x,`" 10 12 24)) (mkPtok 40 "," 11 0 25)))); (mkFieldWithAttr (mkSpan (mkPtok 32 "@rightPad" 11 2 26) (mkPtok 40 "," 40 0 93)) [(FAPadding (mkSpan (mkPtok 32 "@rightPad" 11 2 26) (mkPtok 6 ")" 11 14 28)) (mkPaddingAttr (mkSpan (mkPtok 32 "@rightPad" 11 2 26) (mkPtok 6 ")" 11 14 28)) (mkPtok 32 "@rightPad" 11 2 26) (mkPtok 8 "(" 11 12 27) None (mkPtok 6 ")" 11 14 28)))] (MatchField (mkSpan (mkPtok 38 "match" 11 15 29) (mkPtok 40 "," 40 0 93)) (mkMatchFieldDecl (mkSpan (mkPtok 38 "match" 11 15 29) (mkPtok 3 "}" 39 6 92)) (mkPtok 38 "match" 11 15 29) (mkPtok 42 "calculatedFrom" 11 21 30) (mkPtok 17 "as" 12 0 32) (mkPtok 42 "stringy" 13 0 33) (mkPtok 2 "{" 14 0 35) [(mkMatchPair (mkSpan (mkPtok 18 "[" 14 2 36) (mkPtok 40 "," 21 0 50)) (MKList (mkKeyList (mkSpan (mkPtok 18 "[" 14 2 36) (mkPtok 13 "]" 18 11 47)) (mkPtok 18 "[" 14 2 36) (mkPtok 30 "0123456789" 14 4 37) [((mkPtok 40 "," 14 15 38), (mkPtok 30 "7" 15 0 40)); ((mkPtok 40 "," 15 3 41), (mkPtok 31 """1""" 16 0 42)); ((mkPtok 40 "," 17 0 43), (mkPtok 30 "1" 17 2 44)); ((mkPtok 40 "," 18 0 45), (mkPtok 31 """`tick`""" 18 2 46))] (mkPtok 13 "]" 18 11 47))) (mkPtok 39 ":" 19 0 48) (mkPtok 42 "zchar" 20 4 49) (Some (mkPtok 40 "," 21 0 50))); (mkMatchPair (mkSpan (mkPtok 30 "3" 21 2 51) (mkPtok 42 "packetx" 23 0 54)) (MKDigits (mkPtok 30 "3" 21 2 51)) (mkPtok 39 ":" 22 0 53) (mkPtok 42 "packetx" 23 0 54) None); (mkMatchPair (mkSpan (mkPtok 18 "[" 24 4 55) (mkPtok 42 "x" 25 18 61)) (MKList (mkKeyList (mkSpan (mkPtok 18 "[" 24 4 55) (mkPtok 13 "]" 25 15 59)) (mkPtok 18 "[" 24 4 55) (mkPtok 30 "10" 25 4 56) [((mkPtok 40 "," 25 6 57), (mkPtok 31 """CRC32""" 25 7 58))] (mkPtok 13 "]" 25 15 59))) (mkPtok 39 ":" 25 16 60) (mkPtok 42 "x" 25 18 61) None); (mkMatchPair (mkSpan (mkPtok 18 "[" 26 0 62) (mkPtok 40 "," 29 0 68)) (MKList (mkKeyList (mkSpan (mkPtok 18 "[" 26 0 62) (mkPtok 13 "]" 26 3 64)) (mkPtok 18 "[" 26 0 62) (mkPtok 30 "7" 26 1 63) [] (mkPtok 13 "]" 26 3 64))) (mkPtok 39 ":" 26 6 65) (mkPtok 42 "Foo" 28 4 67) (Some (mkPtok 40 "," 29 0 68))); (mkMatchPair (mkSpan (mkPtok 18 "[" 29 1 69) (mkPtok 40 "," 38 0 87)) (MKList (mkKeyList (mkSpan (mkPtok 18 "[" 29 1 69) (mkPtok 13 "]" 37 9 83)) (mkPtok 18 "[" 29 1 69) (mkPtok 31 """CRC32""" 29 3 70) [((mkPtok 40 "," 30 0 71), (mkPtok 30 "10" 31 0 72)); ((mkPtok 40 "," 31 3 73), (mkPtok 30 "65535" 34 0 76)); ((mkPtok 40 "," 34 6 77), (mkPtok 30 "7" 37 0 80)); ((mkPtok 40 "," 37 2 81), (mkPtok 31 """{,}""" 37 3 82))] (mkPtok 13 "]" 37 9 83))) (mkPtok 39 ":" 37 11 84) (mkPtok 42 "A" 37 13 85) (Some (mkPtok 40 "," 38 0 87))); (mkMatchPair (mkSpan (mkPtok 30 "00" 38 2 88) (mkPtok 40 "," 39 4 91)) (MKDigits (mkPtok 30 "00" 38 2 88)) (mkPtok 39 ":" 38 5 89) (mkPtok 42 "rootA" 38 6 90) (Some (mkPtok 40 "," 39 4 91)))] (mkPtok 3 "}" 39 6 92)) (mkPtok 40 "," 40 0 93)))] (mkPtok 3 "}" 40 2 94))); (DOption (mkOptionDef (mkSpan (mkPtok 1 "options" 40 4 95) (mkPtok 3 "}" 41 0 97)) (mkPtok 1 "options" 40 4 95) (mkPtok 2 "{" 40 11 96) [] (mkPtok 3 "}" 41 0 97)))])).
-Eval vm_compute in ("<<<M983>>>" ++ check (runes_of_ascii "
-options {	i8i8 = ""a\\"" }")).
-Eval vm_compute in ("<<<M1015>>>" ++ check (runes_of_ascii "packet
-i8i8 {	@tag( 65535 ) i8i8 ,  repeat
-u8 uint8x , zchar[7] u
-    // " ++ [27880; 37322]%N ++ runes_of_ascii "
-    ,
-    repeat
-    char[] Packet , @leftPad ( '\x00' )i64_
-    { x `line1
-line2` ,//x
-} , // a // b
-repeat Foo{	len{match // a // b
-u  as
-    _x { 42
-    :  tag , [
-""" ++ [233]%N ++ runes_of_ascii "t" ++ [233]%N ++ runes_of_ascii """	] : _x[ 7 , 4294967296] : Packet , } ,float64 o
-`it's`,int64
-    options1 ,//	t
-} ,
-} , @leftPad
-(
-    '\x00' )match x //
-as zchar{	255:
-    //
-    o, 255 : Logon /// triple
-,	0	: Header ,007
-    : msg_type ,[
-    // packet A { u8 x, }
-    ""\n"" ,// packet A { u8 x, }
-007
-// " ++ [27880; 37322]%N ++ runes_of_ascii "
-// a // b
-, ""1"" ,  255// a // b
-,4294967296 , 0 ,007
-    ] :
-    int , } , }// trailing space 
-packet
-As
-{ }
-
-")).
-Eval vm_compute in ("<<<M1047>>>" ++ check (runes_of_ascii "
-options
-{ BodyLength
-= zchar[ 0123456789 ] } options
-{
-asx = ""a\""b"" ;rootA =	char[] roots
-=""{,}"" ; int= ""it's"" // `tick` ""quote"" 'q'
-; }
-")).
-Eval vm_compute in ("<<<M1079>>>" ++ check (runes_of_ascii "  ")).
-Eval vm_compute in ("<<<M1111>>>" ++ check (runes_of_ascii "// packet A { u8 x, }
-MetaData MetaDataX {
-    u8 roots , }")).
-Eval vm_compute in ("<<<M1143>>>" ++ check (runes_of_ascii "options {
-    } packet As {f32 int @calculatedFrom(""{,}"")
-, u8 packetx ,u128 len, } packet options1 {}")).
-Eval vm_compute in ("<<<M1175>>>" ++ check (runes_of_ascii "packet	u8x /// triple
-{ @calculatedFrom( ""\" ++ [233]%N ++ runes_of_ascii """ ) zchar[
-255 ]
-A /// triple
-@calculatedFrom( ""a	b"" )
-    ,string MetaDataX @lengthOf( Pad  ) , f32a @calculatedFrom(
-""a\""b""
-    ) ,  zchar[
-4294967296 ] tag @calculatedFrom( """ ++ [28040; 24687]%N ++ runes_of_ascii """ // `tick` ""quote"" 'q'
-)
-,@tag( 0123456789 )
-    @lengthOf(  Header)int64 A `` ,
-char[]
-/// triple
-// packet A { u8 x, }
-x_y_z ,} packet	Logon {	}
-")).
-Eval vm_compute in ("<<<T1175>>>" ++ terms [mkTok 35 "packet" 1 0 false; mkTok 42 "u8x" 1 7 false; mkTok 44 "/// triple" 1 11 true; mkTok 2 "{" 2 0 false; mkTok 5 "@calculatedFrom(" 2 2 false; mkTok 31 (string_of_bytes [34; 92; 195; 169; 34]%N) 2 19 false; mkTok 6 ")" 2 24 false; mkTok 14 "zchar[" 2 26 false; mkTok 30 "255" 3 0 false; mkTok 13 "]" 3 4 false; mkTok 42 "A" 4 0 false; mkTok 44 "/// triple" 4 2 true; mkTok 5 "@calculatedFrom(" 5 0 false; mkTok 31 (string_of_bytes [34; 97; 9; 98; 34]%N) 5 17 false; mkTok 6 ")" 5 23 false; mkTok 40 "," 6 4 false; mkTok 15 "string" 6 5 false; mkTok 42 "MetaDataX" 6 12 false; mkTok 7 "@lengthOf(" 6 22 false; mkTok 42 "Pad" 6 33 false; mkTok 6 ")" 6 38 false; mkTok 40 "," 6 40 false; mkTok 42 "f32a" 6 42 false; mkTok 5 "@calculatedFrom(" 6 47 false; mkTok 31 """a\""b""" 7 0 false; mkTok 6 ")" 8 4 false; mkTok 40 "," 8 6 false; mkTok 14 "zchar[" 8 9 false; mkTok 30 "4294967296" 9 0 false; mkTok 13 "]" 9 11 false; mkTok 42 "tag" 9 13 false; mkTok 5 "@calculatedFrom(" 9 17 false; mkTok 31 (string_of_bytes [34; 230; 182; 136; 230; 129; 175; 34]%N) 9 34 false; mkTok 44 "// `tick` ""quote"" 'q'" 9 39 true; mkTok 6 ")" 10 0 false; mkTok 40 "," 11 0 false; mkTok 9 "@tag(" 11 1 false; mkTok 30 "0123456789" 11 7 false; mkTok 6 ")" 11 18 false; mkTok 7 "@lengthOf(" 12 4 false; mkTok 42 "Header" 12 16 false; mkTok 6 ")" 12 22 false; mkTok 27 "int64" 12 23 false; mkTok 42 "A" 12 29 false; mkTok 43 "``" 12 31 false; mkTok 40 "," 12 34 false; mkTok 16 "char[]" 13 0 false; mkTok 44 "/// triple" 14 0 true; mkTok 44 "// packet A { u8 x, }" 15 0 true; mkTok 42 "x_y_z" 16 0 false; mkTok 40 "," 16 6 false; mkTok 3 "}" 16 7 false; mkTok 35 "packet" 16 9 false; mkTok 42 "Logon" 16 16 false; mkTok 2 "{" 16 22 false; mkTok 3 "}" 16 24 false; mkTok 0 "<EOF>" 17 0 false] (mkPacket (mkPtok 35 "packet" 1 0 0) (Some (mkPtok 3 "}" 16 24 55)) [(DPacket (mkPacketDef (mkSpan (mkPtok 35 "packet" 1 0 0) (mkPtok 3 "}" 16 7 51)) None (mkPtok 35 "packet" 1 0 0) (mkPtok 42 "u8x" 1 7 1) (mkPtok 2 "{" 2 0 3) [(mkFieldWithAttr (mkSpan (mkPtok 5 "@calculatedFrom(" 2 2 4) (mkPtok 40 "," 6 4 15)) [(FACalculatedFrom (mkSpan (mkPtok 5 "@calculatedFrom(" 2 2 4) (mkPtok 6 ")" 2 24 6)) (mkCalculatedFrom (mkSpan (mkPtok 5 "@calculatedFrom(" 2 2 4) (mkPtok 6 ")" 2 24 6)) (mkPtok 5 "@calculatedFrom(" 2 2 4) (mkPtok 31 (string_of_bytes [34; 92; 195; 169; 34]%N) 2 19 5) (mkPtok 6 ")" 2 24 6)))] (CheckSumField (mkSpan (mkPtok 14 "zchar[" 2 26 7) (mkPtok 40 "," 6 4 15)) (mkChecksumFieldDecl (mkSpan (mkPtok 14 "zchar[" 2 26 7) (mkPtok 40 "," 6 4 15)) (Some (TyFixed (mkSpan (mkPtok 14 "zchar[" 2 26 7) (mkPtok 13 "]" 3 4 9)) (mkFixedString (mkSpan (mkPtok 14 "zchar[" 2 26 7) (mkPtok 13 "]" 3 4 9)) (mkPtok 14 "zchar[" 2 26 7) (mkPtok 30 "255" 3 0 8) (mkPtok 13 "]" 3 4 9)))) (mkPtok 42 "A" 4 0 10) (mkCalculatedFrom (mkSpan (mkPtok 5 "@calculatedFrom(" 5 0 12) (mkPtok 6 ")" 5 23 14)) (mkPtok 5 "@calculatedFrom(" 5 0 12) (mkPtok 31 (string_of_bytes [34; 97; 9; 98; 34]%N) 5 17 13) (mkPtok 6 ")" 5 23 14)) None (mkPtok 40 "," 6 4 15)))); (mkFieldWithAttr (mkSpan (mkPtok 15 "string" 6 5 16) (mkPtok 40 "," 6 40 21)) [] (LengthField (mkSpan (mkPtok 15 "string" 6 5 16) (mkPtok 40 "," 6 40 21)) (mkLengthFieldDecl (mkSpan (mkPtok 15 "string" 6 5 16) (mkPtok 40 "," 6 40 21)) (Some (TyDynamic (mkSpan (mkPtok 15 "string" 6 5 16) (mkPtok 15 "string" 6 5 16)) (mkDynamicString (mkSpan (mkPtok 15 "string" 6 5 16) (mkPtok 15 "string" 6 5 16)) (mkPtok 15 "string" 6 5 16)))) (mkPtok 42 "MetaDataX" 6 12 17) (mkLengthOf (mkSpan (mkPtok 7 "@lengthOf(" 6 22 18) (mkPtok 6 ")" 6 38 20)) (mkPtok 7 "@lengthOf(" 6 22 18) (mkPtok 42 "Pad" 6 33 19) (mkPtok 6 ")" 6 38 20)) None (mkPtok 40 "," 6 40 21)))); (mkFieldWithAttr (mkSpan (mkPtok 42 "f32a" 6 42 22) (mkPtok 40 "," 8 6 26)) [] (CheckSumField (mkSpan (mkPtok 42 "f32a" 6 42 22) (mkPtok 40 "," 8 6 26)) (mkChecksumFieldDecl (mkSpan (mkPtok 42 "f32a" 6 42 22) (mkPtok 40 "," 8 6 26)) None (mkPtok 42 "f32a" 6 42 22) (mkCalculatedFrom (mkSpan (mkPtok 5 "@calculatedFrom(" 6 47 23) (mkPtok 6 ")" 8 4 25)) (mkPtok 5 "@calculatedFrom(" 6 47 23) (mkPtok 31 """a\""b""" 7 0 24) (mkPtok 6 ")" 8 4 25)) None (mkPtok 40 "," 8 6 26)))); (mkFieldWithAttr (mkSpan (mkPtok 14 "zchar[" 8 9 27) (mkPtok 40 "," 11 0 35)) [] (CheckSumField (mkSpan (mkPtok 14 "zchar[" 8 9 27) (mkPtok 40 "," 11 0 35)) (mkChecksumFieldDecl (mkSpan (mkPtok 14 "zchar[" 8 9 27) (mkPtok 40 "," 11 0 35)) (Some (TyFixed (mkSpan (mkPtok 14 "zchar[" 8 9 27) (mkPtok 13 "]" 9 11 29)) (mkFixedString (mkSpan (mkPtok 14 "zchar[" 8 9 27) (mkPtok 13 "]" 9 11 29)) (mkPtok 14 "zchar[" 8 9 27) (mkPtok 30 "4294967296" 9 0 28) (mkPtok 13 "]" 9 11 29)))) (mkPtok 42 "tag" 9 13 30) (mkCalculatedFrom (mkSpan (mkPtok 5 "@calculatedFrom(" 9 17 31) (mkPtok 6 ")" 10 0 34)) (mkPtok 5 "@calculatedFrom(" 9 17 31) (mkPtok 31 (string_of_bytes [34; 230; 182; 136; 230; 129; 175; 34]%N) 9 34 32) (mkPtok 6 ")" 10 0 34)) None (mkPtok 40 "," 11 0 35)))); (mkFieldWithAttr (mkSpan (mkPtok 9 "@tag(" 11 1 36) (mkPtok 40 "," 12 34 45)) [(FATag (mkSpan (mkPtok 9 "@tag(" 11 1 36) (mkPtok 6 ")" 11 18 38)) (mkTagAttr (mkSpan (mkPtok 9 "@tag(" 11 1 36) (mkPtok 6 ")" 11 18 38)) (mkPtok 9 "@tag(" 11 1 36) (mkPtok 30 "0123456789" 11 7 37) (mkPtok 6 ")" 11 18 38))); (FALengthOf (mkSpan (mkPtok 7 "@lengthOf(" 12 4 39) (mkPtok 6 ")" 12 22 41)) (mkLengthOf (mkSpan (mkPtok 7 "@lengthOf(" 12 4 39) (mkPtok 6 ")" 12 22 41)) (mkPtok 7 "@lengthOf(" 12 4 39) (mkPtok 42 "Header" 12 16 40) (mkPtok 6 ")" 12 22 41)))] (MetaField (mkSpan (mkPtok 27 "int64" 12 23 42) (mkPtok 40 "," 12 34 45)) None (mkMetaDecl (mkSpan (mkPtok 27 "int64" 12 23 42) (mkPtok 40 "," 12 34 45)) (TyBasic (mkSpan (mkPtok 27 "int64" 12 23 42) (mkPtok 27 "int64" 12 23 42)) (mkBasicType (mkSpan (mkPtok 27 "int64" 12 23 42) (mkPtok 27 "int64" 12 23 42)) (mkPtok 27 "int64" 12 23 42))) (mkPtok 42 "A" 12 29 43) (Some (mkPtok 43 "``" 12 31 44)) (mkPtok 40 "," 12 34 45)))); (mkFieldWithAttr (mkSpan (mkPtok 16 "char[]" 13 0 46) (mkPtok 40 "," 16 6 50)) [] (MetaField (mkSpan (mkPtok 16 "char[]" 13 0 46) (mkPtok 40 "," 16 6 50)) None (mkMetaDecl (mkSpan (mkPtok 16 "char[]" 13 0 46) (mkPtok 40 "," 16 6 50)) (TyDynamic (mkSpan (mkPtok 16 "char[]" 13 0 46) (mkPtok 16 "char[]" 13 0 46)) (mkDynamicString (mkSpan (mkPtok 16 "char[]" 13 0 46) (mkPtok 16 "char[]" 13 0 46)) (mkPtok 16 "char[]" 13 0 46))) (mkPtok 42 "x_y_z" 16 0 49) None (mkPtok 40 "," 16 6 50))))] (mkPtok 3 "}" 16 7 51))); (DPacket (mkPacketDef (mkSpan (mkPtok 35 "packet" 16 9 52) (mkPtok 3 "}" 16 24 55)) None (mkPtok 35 "packet" 16 9 52) (mkPtok 42 "Logon" 16 16 53) (mkPtok 2 "{" 16 22 54) [] (mkPtok 3 "}" 16 24 55)))])).
-Eval vm_compute in ("<<<M1207>>>" ++ check (runes_of_ascii "MetaData
-tag
-    // `tick` ""quote"" 'q'
-    { u16
-    BodyLength , packetx
-f32a
-//
-// packet A { u8 x, }
-, } root packet	Packet {
-    char[ 42 ]
-    // c
-    A //x
-, } packet calculatedFrom { repeat rootA { char[ 0123456789
-    ] u128,}
-, }
-")).
-Eval vm_compute in ("<<<M1239>>>" ++ check (runes_of_ascii "// packet A { u8 x, }
-packet
-    Foo { }
-    packet i64_ {asx @lengthOf( a1 )`two words` , repeat
-i64_ {char[]u `crlf
-line`,char[
-    10
-    // @lengthOf(
-    ] metadata,
-    //
-    a1  {
-    repeat zchar[
-    1
-    ] len , char[ 00 // packet A { u8 x, }
-]Z9_@calculatedFrom( ""a\\"" ) // " ++ [27880; 37322]%N ++ runes_of_ascii "
-,	zchar[ 7 ] Header
-    @lengthOf(	x ) , repeat//
-pack,// @lengthOf(
-}  , // trailing space 
-}
-    //x
-    ,  match tag as u8x { ""{,}""
-    : zchar ,  1
-: metadata , """ ++ [233]%N ++ runes_of_ascii "t" ++ [233]%N ++ runes_of_ascii """
-    :
-a1 """ ++ [233]%N ++ runes_of_ascii "t" ++ [233]%N ++ runes_of_ascii """ : chars //
-,[ ""a\\""]  :crc	} ,
-    tag@calculatedFrom( """ ++ [128512]%N ++ runes_of_ascii """) , }
-//
-")).
-Eval vm_compute in ("<<<M1271>>>" ++ check (runes_of_ascii "
-options {leftPad
+Eval vm_compute in ("<<<M55>>>" ++ check (runes_of_ascii "options {
+leftPad
+=""x y""
+    T
     =
-""{,}""f32a = true
-trueish
-    = zchar[ 007]
-    ;	crc
-// " ++ [27880; 37322]%N ++ runes_of_ascii "
-// @lengthOf(
-= ""`tick`"" ;// c
-} //x
-root	packet
-    body { asx @lengthOf(	f32a // `tick` ""quote"" 'q'
-) `` , f64 body @lengthOf(
-int) , zchar[ 255] BodyLength , zchar[ 7	]
-    leftPad
+true ;
+    } options	{ _x=u8; } options  { u8x // `tick` ""quote"" 'q'
+= char[ 1 ]	;
+    // trailing space 
+    metadata
+    =float32 charz
+= false ;
+int = true
+} // a // b")).
+Eval vm_compute in ("<<<T55>>>" ++ terms [mkTok 1 "options" 1 0 false; mkTok 2 "{" 1 8 false; mkTok 42 "leftPad" 2 0 false; mkTok 4 "=" 3 0 false; mkTok 31 """x y""" 3 1 false; mkTok 42 "T" 4 4 false; mkTok 4 "=" 5 4 false; mkTok 10 "true" 6 0 false; mkTok 41 ";" 6 5 false; mkTok 3 "}" 7 4 false; mkTok 1 "options" 7 6 false; mkTok 2 "{" 7 14 false; mkTok 42 "_x" 7 16 false; mkTok 4 "=" 7 18 false; mkTok 20 "u8" 7 19 false; mkTok 41 ";" 7 21 false; mkTok 3 "}" 7 23 false; mkTok 1 "options" 7 25 false; mkTok 2 "{" 7 34 false; mkTok 42 "u8x" 7 36 false; mkTok 44 "// `tick` ""quote"" 'q'" 7 40 true; mkTok 4 "=" 8 0 false; mkTok 12 "char[" 8 2 false; mkTok 30 "1" 8 8 false; mkTok 13 "]" 8 10 false; mkTok 41 ";" 8 12 false; mkTok 44 "// trailing space " 9 4 true; mkTok 42 "metadata" 10 4 false; mkTok 4 "=" 11 4 false; mkTok 28 "float32" 11 5 false; mkTok 42 "charz" 11 13 false; mkTok 4 "=" 12 0 false; mkTok 11 "false" 12 2 false; mkTok 41 ";" 12 8 false; mkTok 42 "int" 13 0 false; mkTok 4 "=" 13 4 false; mkTok 10 "true" 13 6 false; mkTok 3 "}" 14 0 false; mkTok 44 "// a // b" 14 2 true; mkTok 0 "<EOF>" 14 11 false] (mkPacket (mkPtok 1 "options" 1 0 0) (Some (mkPtok 3 "}" 14 0 37)) [(DOption (mkOptionDef (mkSpan (mkPtok 1 "options" 1 0 0) (mkPtok 3 "}" 7 4 9)) (mkPtok 1 "options" 1 0 0) (mkPtok 2 "{" 1 8 1) [(mkOptionDecl (mkSpan (mkPtok 42 "leftPad" 2 0 2) (mkPtok 31 """x y""" 3 1 4)) (mkPtok 42 "leftPad" 2 0 2) (mkPtok 4 "=" 3 0 3) (VString (mkSpan (mkPtok 31 """x y""" 3 1 4) (mkPtok 31 """x y""" 3 1 4)) (mkPtok 31 """x y""" 3 1 4)) None); (mkOptionDecl (mkSpan (mkPtok 42 "T" 4 4 5) (mkPtok 41 ";" 6 5 8)) (mkPtok 42 "T" 4 4 5) (mkPtok 4 "=" 5 4 6) (VTrue (mkSpan (mkPtok 10 "true" 6 0 7) (mkPtok 10 "true" 6 0 7)) (mkPtok 10 "true" 6 0 7)) (Some (mkPtok 41 ";" 6 5 8)))] (mkPtok 3 "}" 7 4 9))); (DOption (mkOptionDef (mkSpan (mkPtok 1 "options" 7 6 10) (mkPtok 3 "}" 7 23 16)) (mkPtok 1 "options" 7 6 10) (mkPtok 2 "{" 7 14 11) [(mkOptionDecl (mkSpan (mkPtok 42 "_x" 7 16 12) (mkPtok 41 ";" 7 21 15)) (mkPtok 42 "_x" 7 16 12) (mkPtok 4 "=" 7 18 13) (VType (mkSpan (mkPtok 20 "u8" 7 19 14) (mkPtok 20 "u8" 7 19 14)) (TyBasic (mkSpan (mkPtok 20 "u8" 7 19 14) (mkPtok 20 "u8" 7 19 14)) (mkBasicType (mkSpan (mkPtok 20 "u8" 7 19 14) (mkPtok 20 "u8" 7 19 14)) (mkPtok 20 "u8" 7 19 14)))) (Some (mkPtok 41 ";" 7 21 15)))] (mkPtok 3 "}" 7 23 16))); (DOption (mkOptionDef (mkSpan (mkPtok 1 "options" 7 25 17) (mkPtok 3 "}" 14 0 37)) (mkPtok 1 "options" 7 25 17) (mkPtok 2 "{" 7 34 18) [(mkOptionDecl (mkSpan (mkPtok 42 "u8x" 7 36 19) (mkPtok 41 ";" 8 12 25)) (mkPtok 42 "u8x" 7 36 19) (mkPtok 4 "=" 8 0 21) (VType (mkSpan (mkPtok 12 "char[" 8 2 22) (mkPtok 13 "]" 8 10 24)) (TyFixed (mkSpan (mkPtok 12 "char[" 8 2 22) (mkPtok 13 "]" 8 10 24)) (mkFixedString (mkSpan (mkPtok 12 "char[" 8 2 22) (mkPtok 13 "]" 8 10 24)) (mkPtok 12 "char[" 8 2 22) (mkPtok 30 "1" 8 8 23) (mkPtok 13 "]" 8 10 24)))) (Some (mkPtok 41 ";" 8 12 25))); (mkOptionDecl (mkSpan (mkPtok 42 "metadata" 10 4 27) (mkPtok 28 "float32" 11 5 29)) (mkPtok 42 "metadata" 10 4 27) (mkPtok 4 "=" 11 4 28) (VType (mkSpan (mkPtok 28 "float32" 11 5 29) (mkPtok 28 "float32" 11 5 29)) (TyBasic (mkSpan (mkPtok 28 "float32" 11 5 29) (mkPtok 28 "float32" 11 5 29)) (mkBasicType (mkSpan (mkPtok 28 "float32" 11 5 29) (mkPtok 28 "float32" 11 5 29)) (mkPtok 28 "float32" 11 5 29)))) None); (mkOptionDecl (mkSpan (mkPtok 42 "charz" 11 13 30) (mkPtok 41 ";" 12 8 33)) (mkPtok 42 "charz" 11 13 30) (mkPtok 4 "=" 12 0 31) (VFalse (mkSpan (mkPtok 11 "false" 12 2 32) (mkPtok 11 "false" 12 2 32)) (mkPtok 11 "false" 12 2 32)) (Some (mkPtok 41 ";" 12 8 33))); (mkOptionDecl (mkSpan (mkPtok 42 "int" 13 0 34) (mkPtok 10 "true" 13 6 36)) (mkPtok 42 "int" 13 0 34) (mkPtok 4 "=" 13 4 35) (VTrue (mkSpan (mkPtok 10 "true" 13 6 36) (mkPtok 10 "true" 13 6 36)) (mkPtok 10 "true" 13 6 36)) None)] (mkPtok 3 "}" 14 0 37)))])).
+Eval vm_compute in ("<<<M87>>>" ++ check (runes_of_ascii "root
+    // @lengthOf(
+    packet falsey { // c
+repeat// " ++ [128512]%N ++ runes_of_ascii " emoji
+zchar[ 42	]  f32a ,
+matchKey@lengthOf( // packet A { u8 x, }
+x ) , // `tick` ""quote"" 'q'
+@calculatedFrom(""{,}""
+) @leftPad
+('\x00' ) //	t
+repeat	f32a , @rightPad ( '\x00'
+) T @lengthOf(	o ),
+    }")).
+Eval vm_compute in ("<<<M119>>>" ++ check (runes_of_ascii "options
+{Packet =char[ 7
 /// triple
+//
+] ;
+a1
+=""it's"" ;}MetaData charz {
+    As calculatedFrom , uint8 float
+    `{ , }`
+, charz msg_type
+    , }
+    MetaData i8i8
+{char[]// " ++ [128512]%N ++ runes_of_ascii " emoji
+x_y_z
+`say ""hi""`,
+}
+packet i64_	{ @tag(
+0123456789 )
+x_y_z@calculatedFrom( ""it's""	) ,@rightPad
+(  ' '	) @tag(007 ) leftPad {
+    // @lengthOf(
+    zchar[ 00 ] Pad, }	,int32
+    _x @lengthOf(BodyLength )
+,@calculatedFrom(""{,}"" )
+    float32 Foo ,rootA
+@lengthOf( charz) , f64 _x@calculatedFrom( ""{,}""  )	`a\`
+    , }")).
+Eval vm_compute in ("<<<M151>>>" ++ check (runes_of_ascii "//	t
+packet asx
+{ repeat i32 u8x ,
+    @calculatedFrom( ""it's""
+)
+    match uint8x as matchKey { 1  :
 // packet A { u8 x, }
-`line1
-line2`, @lengthOf(  asx )u128
-    @lengthOf(
-BodyLength )	`// not a comment`
+// " ++ [128512]%N ++ runes_of_ascii " emoji
+chars ,
+    // `tick` ""quote"" 'q'
+    [255 ]
+:
+    matchKey
+, ""a	b"":	pack ,
+    """" :	trueish
+}, @leftPad ( '\x00')
+char[]	A@calculatedFrom(""a\\""
+    ),
+    // trailing space 
+    match //	t
+MetaDataX as uint8x {
+    [ ""a	b""
+] : As  } , uint8x
+{ matchKey {int x_y_z
+    // packet A { u8 x, }
+    ,}
+    , //
+}// @lengthOf(
+, u8 Logon @lengthOf(  matchKey
+    ) , float64 msg_type
+@lengthOf( zchar ) ,float x_y_z , @rightPad (  '\x00')match	matchKey	as	lengthOf { [ """ ++ [233]%N ++ runes_of_ascii "t" ++ [233]%N ++ runes_of_ascii """
+// packet A { u8 x, }
+// 50% %s
+,	""{,}""	,3	,// @lengthOf(
+""\n""
+    , 0
+, ""1"" ,""x y"" ] : u
+, 10 : // 50% %s
+f32a  , 1: chars // @lengthOf(
+,42
+: Foo 65535: Header
+    ,["""" ] : //x
+body , } ,
+    //x
+    match
+metadata as trueish { """"
+:metadata ,""`tick`""
+    : float,	255 : x ,
+    } ,
+} packet trueish { @lengthOf( stringy ) zchar[ 7 ] x `crlf
+line` ,
+repeat MetaDataX { i16 Z9_ `two words` , },  @lengthOf( zchar//
+) match metadata as	a1 {
+    [ // " ++ [128512]%N ++ runes_of_ascii " emoji
+""CRC32"" ] : i8i8 ,""a	b""
+    :x_y_z ,[ ""1""
+,""abc"" ,007 , // `tick` ""quote"" 'q'
+4294967296 , 00	,
+""// no comment"" ,
+    // `tick` ""quote"" 'q'
+    ""a\""b""  ]	:
+chars , [ ""`tick`"" , ""\" ++ [233]%N ++ runes_of_ascii """ ,	""x y""
 ,
-    @lengthOf( As )
-char[ 42	] _x
-@lengthOf(  i8i8)`line1
-line2` , char[ 1 //	t
-]
-    // a // b
-    options1 @calculatedFrom(""packet"" )`say ""hi""`
-, }
-options
-{ leftPad= 007
-;
-charz =false repeatCount =
-    ""// no comment"" u// a // b
-= 0123456789 }
-")).
-Eval vm_compute in ("<<<M1303>>>" ++ check (runes_of_ascii "MetaData stringy{ zchar[ 007 ] body /// triple
-`tab	here` , }
-")).
-Eval vm_compute in ("<<<M1335>>>" ++ check (runes_of_ascii "options	{ falsey // " ++ [27880; 37322]%N ++ runes_of_ascii "
-=
-""\" ++ [233]%N ++ runes_of_ascii """	; lengthOf
-=
-0	;
+""a	b"" , ""a\""b""
+, ""`tick`""
+    //x
+    ,
+00	] : leftPad, 65535 : Z9_
+    // " ++ [128512]%N ++ runes_of_ascii " emoji
+    , } , @lengthOf(
+falsey )
+repeat
+    i8i8 ,@calculatedFrom( ""\n"" )// a // b
+char[ 42	] // `tick` ""quote"" 'q'
+charz  @calculatedFrom( """ ++ [128512]%N ++ runes_of_ascii """)
+    , repeat char[] stringy `tab	here`, Packet  @lengthOf( BodyLength )  `" ++ [28040; 24687; 31867; 22411]%N ++ runes_of_ascii "` ,
+string u128, i8 o
+// c
+// 50% %s
+`
+` , // 50% %s
+@leftPad (
+'0'
+    ) repeat
+string Header, } options{ crc =char[007
+] packetx=7 ;	} 	 ")).
+Eval vm_compute in ("<<<M183>>>" ++ check (runes_of_ascii "options {	metadata =false
+// packet A { u8 x, }
+// 50% %s
+options1 = f64 a1	= char[]
+    options1 =  zchar[	7 ]
+// @lengthOf(
+// trailing space 
+; } options{ string_ =7
+    // `tick` ""quote"" 'q'
+    ;
+MetaDataX =
+    ""a	b""
+int=
+false ; }")).
+Eval vm_compute in ("<<<M215>>>" ++ check (runes_of_ascii "packet i8i8  { string
+    // `tick` ""quote"" 'q'
+    string_ `crlf
+line`
+    , pack , As
+// trailing space 
+// trailing space 
+@calculatedFrom( ""a	b""
+    ) ,  f32 body
+`tab	here` , repeatCount
+@calculatedFrom( """ ++ [28040; 24687]%N ++ runes_of_ascii """), char[  255 ] packetx , @calculatedFrom(
+    ""\" ++ [233]%N ++ runes_of_ascii """ ) @calculatedFrom(  ""abc""  ) @rightPad ( ) // @lengthOf(
+x`two words` , @calculatedFrom( ""a	b"")i32 stringy
+    , @rightPad // trailing space 
+()
+    Header
+    `tab	here`	,
+} packet i64_ {
+@rightPad ( )
+    char[
+10 ]i8i8	, u {
+char[]
+    roots
+    @calculatedFrom(
+""a\\"" // trailing space 
+) `it's` , } , len charz , float64 Z9_, int64 asx
+@lengthOf(
+    stringy ) `doc` ,uint8 repeatCount , uint16 i64_ , }
+MetaData// c
+Header {
     // c
     }
-")).
-Eval vm_compute in ("<<<M1367>>>" ++ check (runes_of_ascii "packet float{	x // " ++ [128512]%N ++ runes_of_ascii " emoji
-{ u128 @calculatedFrom( ""it's"" ) `line1
-line2` , } ,  match
-    packetx as roots
-{ """"
-    :
-body ,
-    007 : // " ++ [128512]%N ++ runes_of_ascii " emoji
-MetaDataX 7 //
-:
-stringy , 00: u8x,
-1
-    : lengthOf
-    ,  } , }packet asx
-{ match x
-as  repeatCount
-// " ++ [27880; 37322]%N ++ runes_of_ascii "
-//	t
-{
-// packet A { u8 x, }
-// a // b
-0
-:  float ,
-    // " ++ [27880; 37322]%N ++ runes_of_ascii "
-    },
-    charz
-    ,@tag( 0 ) @calculatedFrom( ""\" ++ [233]%N ++ runes_of_ascii """ )
-    // @lengthOf(
-    @lengthOf( asx ) falsey
+    packet As // a // b
+{ match //	t
+uint8x as tag {[
+    ""CRC32"" ,
+""it's""  , 1
+    , ""{,}"" ,
+"""" ] // c
+: charz ,
+""""
     //
-    roots
-,
-repeat u32	BodyLength // packet A { u8 x, }
+    : asx } ,//x
+}
+    packet lengthOf
+{ string_
+@lengthOf(f32a// c
+) `say ""hi""`  ,
+    @leftPad// `tick` ""quote"" 'q'
+(//	t
+) char[] matchKey ,repeat
+    float32
+Packet `crlf
+line`, @tag( 255
+/// triple
+//	t
+) float { repeat
+x
+    {
+int , int16
+Packet@calculatedFrom(  """")
+    , } ,trueish { match calculatedFrom	as// @lengthOf(
+matchKey {  [
+10 ]  :Foo, ""\n""  :MetaDataX // `tick` ""quote"" 'q'
+,}
+, u16 options1
+// 50% %s
+// 50% %s
 `line1
-line2`, //	t
-@rightPad(
-'\x00'
-) repeat
-zchar
-{u64 x_y_z
-`line1
-line2` , }  , // c
-@lengthOf(
-i64_ )@lengthOf(Header
+line2`, } ,
+a1
+crc
+    `{ , }` ,repeat zchar `` ,
+}	,
+// 50% %s
+//	t
+@tag(// `tick` ""quote"" 'q'
+4294967296	)@tag( 007/// triple
 )
-@tag(1 )u8
-o	@calculatedFrom( // @lengthOf(
-""\n"") `doc`, } // trailing space ")).
+    @calculatedFrom(
+    """" )
+i16 _x ``, @leftPad( '0' ) repeat	uint16 roots
+    ,repeat stringy{Header{
+// @lengthOf(
+// " ++ [27880; 37322]%N ++ runes_of_ascii "
+i16 As @calculatedFrom( ""\" ++ [233]%N ++ runes_of_ascii """
+    // @lengthOf(
+    ) `` , x {	repeat zchar[ 007 ]
+    asx , match Packet as string_{
+007: chars , [ /// triple
+""\" ++ [233]%N ++ runes_of_ascii """ , 255 ,	""" ++ [28040; 24687]%N ++ runes_of_ascii """
+    , 42
+,00 ,""\" ++ [233]%N ++ runes_of_ascii """ ,""abc""
+    , 007
+    ]	:// " ++ [27880; 37322]%N ++ runes_of_ascii "
+leftPad ,42 : metadata [
+    """ ++ [28040; 24687]%N ++ runes_of_ascii """ , ""\n""//x
+]
+:
+T 3 :
+repeatCount ,	},
+char[	4294967296] MetaDataX
+,i64 f32a , } , } , repeat int32 msg_type,
+    // a // b
+    } , @lengthOf( charz
+) // " ++ [27880; 37322]%N ++ runes_of_ascii "
+trueish
+    // trailing space 
+    leftPad  `doc`
+    , @lengthOf( f32a) T u `` //x
+,	@leftPad (
+'\x00' )
+    u8 x_y_z@lengthOf(
+T ) `two words` ,}")).
+Eval vm_compute in ("<<<M247>>>" ++ check (@nil rune)).
+Eval vm_compute in ("<<<M279>>>" ++ check (runes_of_ascii "  packet
+stringy
+    {	@tag(  0 ) @calculatedFrom(
+    // 50% %s
+    ""1"") @calculatedFrom(
+"""")string chars
+    `a\` , @calculatedFrom(
+    """ ++ [28040; 24687]%N ++ runes_of_ascii """
+) asx metadata
+    `" ++ [233]%N ++ runes_of_ascii "`
+    , }")).
+Eval vm_compute in ("<<<T279>>>" ++ terms [mkTok 35 "packet" 1 2 false; mkTok 42 "stringy" 2 0 false; mkTok 2 "{" 3 4 false; mkTok 9 "@tag(" 3 6 false; mkTok 30 "0" 3 13 false; mkTok 6 ")" 3 15 false; mkTok 5 "@calculatedFrom(" 3 17 false; mkTok 44 "// 50% %s" 4 4 true; mkTok 31 """1""" 5 4 false; mkTok 6 ")" 5 7 false; mkTok 5 "@calculatedFrom(" 5 9 false; mkTok 31 """""" 6 0 false; mkTok 6 ")" 6 2 false; mkTok 15 "string" 6 3 false; mkTok 42 "chars" 6 10 false; mkTok 43 "`a\`" 7 4 false; mkTok 40 "," 7 9 false; mkTok 5 "@calculatedFrom(" 7 11 false; mkTok 31 (string_of_bytes [34; 230; 182; 136; 230; 129; 175; 34]%N) 8 4 false; mkTok 6 ")" 9 0 false; mkTok 42 "asx" 9 2 false; mkTok 42 "metadata" 9 6 false; mkTok 43 (string_of_bytes [96; 195; 169; 96]%N) 10 4 false; mkTok 40 "," 11 4 false; mkTok 3 "}" 11 6 false; mkTok 0 "<EOF>" 11 7 false] (mkPacket (mkPtok 35 "packet" 1 2 0) (Some (mkPtok 3 "}" 11 6 24)) [(DPacket (mkPacketDef (mkSpan (mkPtok 35 "packet" 1 2 0) (mkPtok 3 "}" 11 6 24)) None (mkPtok 35 "packet" 1 2 0) (mkPtok 42 "stringy" 2 0 1) (mkPtok 2 "{" 3 4 2) [(mkFieldWithAttr (mkSpan (mkPtok 9 "@tag(" 3 6 3) (mkPtok 40 "," 7 9 16)) [(FATag (mkSpan (mkPtok 9 "@tag(" 3 6 3) (mkPtok 6 ")" 3 15 5)) (mkTagAttr (mkSpan (mkPtok 9 "@tag(" 3 6 3) (mkPtok 6 ")" 3 15 5)) (mkPtok 9 "@tag(" 3 6 3) (mkPtok 30 "0" 3 13 4) (mkPtok 6 ")" 3 15 5))); (FACalculatedFrom (mkSpan (mkPtok 5 "@calculatedFrom(" 3 17 6) (mkPtok 6 ")" 5 7 9)) (mkCalculatedFrom (mkSpan (mkPtok 5 "@calculatedFrom(" 3 17 6) (mkPtok 6 ")" 5 7 9)) (mkPtok 5 "@calculatedFrom(" 3 17 6) (mkPtok 31 """1""" 5 4 8) (mkPtok 6 ")" 5 7 9))); (FACalculatedFrom (mkSpan (mkPtok 5 "@calculatedFrom(" 5 9 10) (mkPtok 6 ")" 6 2 12)) (mkCalculatedFrom (mkSpan (mkPtok 5 "@calculatedFrom(" 5 9 10) (mkPtok 6 ")" 6 2 12)) (mkPtok 5 "@calculatedFrom(" 5 9 10) (mkPtok 31 """""" 6 0 11) (mkPtok 6 ")" 6 2 12)))] (MetaField (mkSpan (mkPtok 15 "string" 6 3 13) (mkPtok 40 "," 7 9 16)) None (mkMetaDecl (mkSpan (mkPtok 15 "string" 6 3 13) (mkPtok 40 "," 7 9 16)) (TyDynamic (mkSpan (mkPtok 15 "string" 6 3 13) (mkPtok 15 "string" 6 3 13)) (mkDynamicString (mkSpan (mkPtok 15 "string" 6 3 13) (mkPtok 15 "string" 6 3 13)) (mkPtok 15 "string" 6 3 13))) (mkPtok 42 "chars" 6 10 14) (Some (mkPtok 43 "`a\`" 7 4 15)) (mkPtok 40 "," 7 9 16)))); (mkFieldWithAttr (mkSpan (mkPtok 5 "@calculatedFrom(" 7 11 17) (mkPtok 40 "," 11 4 23)) [(FACalculatedFrom (mkSpan (mkPtok 5 "@calculatedFrom(" 7 11 17) (mkPtok 6 ")" 9 0 19)) (mkCalculatedFrom (mkSpan (mkPtok 5 "@calculatedFrom(" 7 11 17) (mkPtok 6 ")" 9 0 19)) (mkPtok 5 "@calculatedFrom(" 7 11 17) (mkPtok 31 (string_of_bytes [34; 230; 182; 136; 230; 129; 175; 34]%N) 8 4 18) (mkPtok 6 ")" 9 0 19)))] (ObjectField (mkSpan (mkPtok 42 "asx" 9 2 20) (mkPtok 40 "," 11 4 23)) None (mkPtok 42 "asx" 9 2 20) (Some (mkPtok 42 "metadata" 9 6 21)) (Some (mkPtok 43 (string_of_bytes [96; 195; 169; 96]%N) 10 4 22)) (mkPtok 40 "," 11 4 23)))] (mkPtok 3 "}" 11 6 24)))])).
+Eval vm_compute in ("<<<M311>>>" ++ check (runes_of_ascii "root // `tick` ""quote"" 'q'
+packet crc // " ++ [27880; 37322]%N ++ runes_of_ascii "
+{ }
+// " ++ [27880; 37322]%N ++ runes_of_ascii "
+")).
+Eval vm_compute in ("<<<M343>>>" ++ check (runes_of_ascii "
+options { i64_
+    = 7 chars = true; stringy =
+//x
+/// triple
+'\x00' x_y_z = false	;
+}
+// " ++ [27880; 37322]%N ++ runes_of_ascii "
+")).
+Eval vm_compute in ("<<<M375>>>" ++ check (runes_of_ascii "packet
+// " ++ [128512]%N ++ runes_of_ascii " emoji
+//x
+leftPad {	} MetaData trueish  { i64_ roots// @lengthOf(
+,} root packet i8i8 { @leftPad ('0'
+) _x _x // " ++ [128512]%N ++ runes_of_ascii " emoji
+`` , // packet A { u8 x, }
+} // packet A { u8 x, }")).
+Eval vm_compute in ("<<<M407>>>" ++ check (runes_of_ascii "packet u8x
+{  }
+")).
+Eval vm_compute in ("<<<M439>>>" ++ check (runes_of_ascii "
+
+")).
+Eval vm_compute in ("<<<M471>>>" ++ check (runes_of_ascii "packet// trailing space 
+options1
+{ } // `tick` ""quote"" 'q'")).
+Eval vm_compute in ("<<<M503>>>" ++ check (runes_of_ascii "packet
+Logon {
+string Header `line1
+line2` ,@lengthOf( u )
+    char[] Z9_@calculatedFrom( ""x y"" ) , int @lengthOf( Packet
+    // " ++ [128512]%N ++ runes_of_ascii " emoji
+    )	,	char[ 0] tag  , // a // b
+match crc as
+    int { ["""", 10
+    ]:  pack , [ 42 ,007, 1 // c
+, ""\n"" , """ ++ [28040; 24687]%N ++ runes_of_ascii """]:options1 ,0123456789
+    // " ++ [128512]%N ++ runes_of_ascii " emoji
+    :
+// `tick` ""quote"" 'q'
+// " ++ [128512]%N ++ runes_of_ascii " emoji
+lengthOf
+// `tick` ""quote"" 'q'
+//x
+,  65535
+:
+matchKey
+    """ ++ [128512]%N ++ runes_of_ascii """ : As ,
+    ""\n""  : charz ,} , int8
+    i8i8
+    ,x_y_z @lengthOf( options1 ), //x
+}
+packet int { @lengthOf( BodyLength // @lengthOf(
+)
+    //x
+    @calculatedFrom( """"	)  @calculatedFrom(
+    // trailing space 
+    ""// no comment"")repeat char[]leftPad
+// " ++ [128512]%N ++ runes_of_ascii " emoji
+// " ++ [27880; 37322]%N ++ runes_of_ascii "
+`100% of %d`
+    ,
+MetaDataX `
+` ,
+// a // b
+// `tick` ""quote"" 'q'
+repeat i64
+// c
+// `tick` ""quote"" 'q'
+T
+    , //
+repeat float { repeat
+    zchar[ 1] len `// not a comment`  ,// " ++ [128512]%N ++ runes_of_ascii " emoji
+match	Logon
+    //	t
+    as len
+    { [
+    255 ]  : options1 , // trailing space 
+[
+""a\""b"" , ""\" ++ [233]%N ++ runes_of_ascii """ , 0123456789
+,0123456789	,
+// `tick` ""quote"" 'q'
+// c
+7
+]
+:options1
+// " ++ [27880; 37322]%N ++ runes_of_ascii "
+//
+,[ 4294967296 , ""a\""b"" ] : tag
+42 : T
+[
+4294967296,
+""`tick`""] : charz , [ 0 , """ ++ [233]%N ++ runes_of_ascii "t" ++ [233]%N ++ runes_of_ascii """ ] :
+len	}
+, repeat f64 zchar `say ""hi""`
+, repeat i64
+i64_ `// not a comment` , //	t
+} ,
+match u128 as Header	{
+""" ++ [128512]%N ++ runes_of_ascii """:
+x_y_z ""// no comment"" :
+A ,[
+    0
+] : int ,  }, @rightPad( ' ') pack ,}
+")).
+Eval vm_compute in ("<<<T503>>>" ++ terms [mkTok 35 "packet" 1 0 false; mkTok 42 "Logon" 2 0 false; mkTok 2 "{" 2 6 false; mkTok 15 "string" 3 0 false; mkTok 42 "Header" 3 7 false; mkTok 43 (string_of_bytes [96; 108; 105; 110; 101; 49; 10; 108; 105; 110; 101; 50; 96]%N) 3 14 false; mkTok 40 "," 4 7 false; mkTok 7 "@lengthOf(" 4 8 false; mkTok 42 "u" 4 19 false; mkTok 6 ")" 4 21 false; mkTok 16 "char[]" 5 4 false; mkTok 42 "Z9_" 5 11 false; mkTok 5 "@calculatedFrom(" 5 14 false; mkTok 31 """x y""" 5 31 false; mkTok 6 ")" 5 37 false; mkTok 40 "," 5 39 false; mkTok 42 "int" 5 41 false; mkTok 7 "@lengthOf(" 5 45 false; mkTok 42 "Packet" 5 56 false; mkTok 44 (string_of_bytes [47; 47; 32; 240; 159; 152; 128; 32; 101; 109; 111; 106; 105]%N) 6 4 true; mkTok 6 ")" 7 4 false; mkTok 40 "," 7 6 false; mkTok 12 "char[" 7 8 false; mkTok 30 "0" 7 14 false; mkTok 13 "]" 7 15 false; mkTok 42 "tag" 7 17 false; mkTok 40 "," 7 22 false; mkTok 44 "// a // b" 7 24 true; mkTok 38 "match" 8 0 false; mkTok 42 "crc" 8 6 false; mkTok 17 "as" 8 10 false; mkTok 42 "int" 9 4 false; mkTok 2 "{" 9 8 false; mkTok 18 "[" 9 10 false; mkTok 31 """""" 9 11 false; mkTok 40 "," 9 13 false; mkTok 30 "10" 9 15 false; mkTok 13 "]" 10 4 false; mkTok 39 ":" 10 5 false; mkTok 42 "pack" 10 8 false; mkTok 40 "," 10 13 false; mkTok 18 "[" 10 15 false; mkTok 30 "42" 10 17 false; mkTok 40 "," 10 20 false; mkTok 30 "007" 10 21 false; mkTok 40 "," 10 24 false; mkTok 30 "1" 10 26 false; mkTok 44 "// c" 10 28 true; mkTok 40 "," 11 0 false; mkTok 31 """\n""" 11 2 false; mkTok 40 "," 11 7 false; mkTok 31 (string_of_bytes [34; 230; 182; 136; 230; 129; 175; 34]%N) 11 9 false; mkTok 13 "]" 11 13 false; mkTok 39 ":" 11 14 false; mkTok 42 "options1" 11 15 false; mkTok 40 "," 11 24 false; mkTok 30 "0123456789" 11 25 false; mkTok 44 (string_of_bytes [47; 47; 32; 240; 159; 152; 128; 32; 101; 109; 111; 106; 105]%N) 12 4 true; mkTok 39 ":" 13 4 false; mkTok 44 "// `tick` ""quote"" 'q'" 14 0 true; mkTok 44 (string_of_bytes [47; 47; 32; 240; 159; 152; 128; 32; 101; 109; 111; 106; 105]%N) 15 0 true; mkTok 42 "lengthOf" 16 0 false; mkTok 44 "// `tick` ""quote"" 'q'" 17 0 true; mkTok 44 "//x" 18 0 true; mkTok 40 "," 19 0 false; mkTok 30 "65535" 19 3 false; mkTok 39 ":" 20 0 false; mkTok 42 "matchKey" 21 0 false; mkTok 31 (string_of_bytes [34; 240; 159; 152; 128; 34]%N) 22 4 false; mkTok 39 ":" 22 8 false; mkTok 42 "As" 22 10 false; mkTok 40 "," 22 13 false; mkTok 31 """\n""" 23 4 false; mkTok 39 ":" 23 10 false; mkTok 42 "charz" 23 12 false; mkTok 40 "," 23 18 false; mkTok 3 "}" 23 19 false; mkTok 40 "," 23 21 false; mkTok 24 "int8" 23 23 false; mkTok 42 "i8i8" 24 4 false; mkTok 40 "," 25 4 false; mkTok 42 "x_y_z" 25 5 false; mkTok 7 "@lengthOf(" 25 11 false; mkTok 42 "options1" 25 22 false; mkTok 6 ")" 25 31 false; mkTok 40 "," 25 32 false; mkTok 44 "//x" 25 34 true; mkTok 3 "}" 26 0 false; mkTok 35 "packet" 27 0 false; mkTok 42 "int" 27 7 false; mkTok 2 "{" 27 11 false; mkTok 7 "@lengthOf(" 27 13 false; mkTok 42 "BodyLength" 27 24 false; mkTok 44 "// @lengthOf(" 27 35 true; mkTok 6 ")" 28 0 false; mkTok 44 "//x" 29 4 true; mkTok 5 "@calculatedFrom(" 30 4 false; mkTok 31 """""" 30 21 false; mkTok 6 ")" 30 24 false; mkTok 5 "@calculatedFrom(" 30 27 false; mkTok 44 "// trailing space " 31 4 true; mkTok 31 """// no comment""" 32 4 false; mkTok 6 ")" 32 19 false; mkTok 36 "repeat" 32 20 false; mkTok 16 "char[]" 32 27 false; mkTok 42 "leftPad" 32 33 false; mkTok 44 (string_of_bytes [47; 47; 32; 240; 159; 152; 128; 32; 101; 109; 111; 106; 105]%N) 33 0 true; mkTok 44 (string_of_bytes [47; 47; 32; 230; 179; 168; 233; 135; 138]%N) 34 0 true; mkTok 43 "`100% of %d`" 35 0 false; mkTok 40 "," 36 4 false; mkTok 42 "MetaDataX" 37 0 false; mkTok 43 (string_of_bytes [96; 10; 96]%N) 37 10 false; mkTok 40 "," 38 2 false; mkTok 44 "// a // b" 39 0 true; mkTok 44 "// `tick` ""quote"" 'q'" 40 0 true; mkTok 36 "repeat" 41 0 false; mkTok 27 "i64" 41 7 false; mkTok 44 "// c" 42 0 true; mkTok 44 "// `tick` ""quote"" 'q'" 43 0 true; mkTok 42 "T" 44 0 false; mkTok 40 "," 45 4 false; mkTok 44 "//" 45 6 true; mkTok 36 "repeat" 46 0 false; mkTok 42 "float" 46 7 false; mkTok 2 "{" 46 13 false; mkTok 36 "repeat" 46 15 false; mkTok 14 "zchar[" 47 4 false; mkTok 30 "1" 47 11 false; mkTok 13 "]" 47 12 false; mkTok 42 "len" 47 14 false; mkTok 43 "`// not a comment`" 47 18 false; mkTok 40 "," 47 38 false; mkTok 44 (string_of_bytes [47; 47; 32; 240; 159; 152; 128; 32; 101; 109; 111; 106; 105]%N) 47 39 true; mkTok 38 "match" 48 0 false; mkTok 42 "Logon" 48 6 false; mkTok 44 (string_of_bytes [47; 47; 9; 116]%N) 49 4 true; mkTok 17 "as" 50 4 false; mkTok 42 "len" 50 7 false; mkTok 2 "{" 51 4 false; mkTok 18 "[" 51 6 false; mkTok 30 "255" 52 4 false; mkTok 13 "]" 52 8 false; mkTok 39 ":" 52 11 false; mkTok 42 "options1" 52 13 false; mkTok 40 "," 52 22 false; mkTok 44 "// trailing space " 52 24 true; mkTok 18 "[" 53 0 false; mkTok 31 """a\""b""" 54 0 false; mkTok 40 "," 54 7 false; mkTok 31 (string_of_bytes [34; 92; 195; 169; 34]%N) 54 9 false; mkTok 40 "," 54 14 false; mkTok 30 "0123456789" 54 16 false; mkTok 40 "," 55 0 false; mkTok 30 "0123456789" 55 1 false; mkTok 40 "," 55 12 false; mkTok 44 "// `tick` ""quote"" 'q'" 56 0 true; mkTok 44 "// c" 57 0 true; mkTok 30 "7" 58 0 false; mkTok 13 "]" 59 0 false; mkTok 39 ":" 60 0 false; mkTok 42 "options1" 60 1 false; mkTok 44 (string_of_bytes [47; 47; 32; 230; 179; 168; 233; 135; 138]%N) 61 0 true; mkTok 44 "//" 62 0 true; mkTok 40 "," 63 0 false; mkTok 18 "[" 63 1 false; mkTok 30 "4294967296" 63 3 false; mkTok 40 "," 63 14 false; mkTok 31 """a\""b""" 63 16 false; mkTok 13 "]" 63 23 false; mkTok 39 ":" 63 25 false; mkTok 42 "tag" 63 27 false; mkTok 30 "42" 64 0 false; mkTok 39 ":" 64 3 false; mkTok 42 "T" 64 5 false; mkTok 18 "[" 65 0 false; mkTok 30 "4294967296" 66 0 false; mkTok 40 "," 66 10 false; mkTok 31 """`tick`""" 67 0 false; mkTok 13 "]" 67 8 false; mkTok 39 ":" 67 10 false; mkTok 42 "charz" 67 12 false; mkTok 40 "," 67 18 false; mkTok 18 "[" 67 20 false; mkTok 30 "0" 67 22 false; mkTok 40 "," 67 24 false; mkTok 31 (string_of_bytes [34; 195; 169; 116; 195; 169; 34]%N) 67 26 false; mkTok 13 "]" 67 32 false; mkTok 39 ":" 67 34 false; mkTok 42 "len" 68 0 false; mkTok 3 "}" 68 4 false; mkTok 40 "," 69 0 false; mkTok 36 "repeat" 69 2 false; mkTok 29 "f64" 69 9 false; mkTok 42 "zchar" 69 13 false; mkTok 43 "`say ""hi""`" 69 19 false; mkTok 40 "," 70 0 false; mkTok 36 "repeat" 70 2 false; mkTok 27 "i64" 70 9 false; mkTok 42 "i64_" 71 0 false; mkTok 43 "`// not a comment`" 71 5 false; mkTok 40 "," 71 24 false; mkTok 44 (string_of_bytes [47; 47; 9; 116]%N) 71 26 true; mkTok 3 "}" 72 0 false; mkTok 40 "," 72 2 false; mkTok 38 "match" 73 0 false; mkTok 42 "u128" 73 6 false; mkTok 17 "as" 73 11 false; mkTok 42 "Header" 73 14 false; mkTok 2 "{" 73 21 false; mkTok 31 (string_of_bytes [34; 240; 159; 152; 128; 34]%N) 74 0 false; mkTok 39 ":" 74 3 false; mkTok 42 "x_y_z" 75 0 false; mkTok 31 """// no comment""" 75 6 false; mkTok 39 ":" 75 22 false; mkTok 42 "A" 76 0 false; mkTok 40 "," 76 2 false; mkTok 18 "[" 76 3 false; mkTok 30 "0" 77 4 false; mkTok 13 "]" 78 0 false; mkTok 39 ":" 78 2 false; mkTok 42 "int" 78 4 false; mkTok 40 "," 78 8 false; mkTok 3 "}" 78 11 false; mkTok 40 "," 78 12 false; mkTok 32 "@rightPad" 78 14 false; mkTok 8 "(" 78 23 false; mkTok 33 "' '" 78 25 false; mkTok 6 ")" 78 28 false; mkTok 42 "pack" 78 30 false; mkTok 40 "," 78 35 false; mkTok 3 "}" 78 36 false; mkTok 0 "<EOF>" 79 0 false] (mkPacket (mkPtok 35 "packet" 1 0 0) (Some (mkPtok 3 "}" 78 36 230)) [(DPacket (mkPacketDef (mkSpan (mkPtok 35 "packet" 1 0 0) (mkPtok 3 "}" 26 0 87)) None (mkPtok 35 "packet" 1 0 0) (mkPtok 42 "Logon" 2 0 1) (mkPtok 2 "{" 2 6 2) [(mkFieldWithAttr (mkSpan (mkPtok 15 "string" 3 0 3) (mkPtok 40 "," 4 7 6)) [] (MetaField (mkSpan (mkPtok 15 "string" 3 0 3) (mkPtok 40 "," 4 7 6)) None (mkMetaDecl (mkSpan (mkPtok 15 "string" 3 0 3) (mkPtok 40 "," 4 7 6)) (TyDynamic (mkSpan (mkPtok 15 "string" 3 0 3) (mkPtok 15 "string" 3 0 3)) (mkDynamicString (mkSpan (mkPtok 15 "string" 3 0 3) (mkPtok 15 "string" 3 0 3)) (mkPtok 15 "string" 3 0 3))) (mkPtok 42 "Header" 3 7 4) (Some (mkPtok 43 (string_of_bytes [96; 108; 105; 110; 101; 49; 10; 108; 105; 110; 101; 50; 96]%N) 3 14 5)) (mkPtok 40 "," 4 7 6)))); (mkFieldWithAttr (mkSpan (mkPtok 7 "@lengthOf(" 4 8 7) (mkPtok 40 "," 5 39 15)) [(FALengthOf (mkSpan (mkPtok 7 "@lengthOf(" 4 8 7) (mkPtok 6 ")" 4 21 9)) (mkLengthOf (mkSpan (mkPtok 7 "@lengthOf(" 4 8 7) (mkPtok 6 ")" 4 21 9)) (mkPtok 7 "@lengthOf(" 4 8 7) (mkPtok 42 "u" 4 19 8) (mkPtok 6 ")" 4 21 9)))] (CheckSumField (mkSpan (mkPtok 16 "char[]" 5 4 10) (mkPtok 40 "," 5 39 15)) (mkChecksumFieldDecl (mkSpan (mkPtok 16 "char[]" 5 4 10) (mkPtok 40 "," 5 39 15)) (Some (TyDynamic (mkSpan (mkPtok 16 "char[]" 5 4 10) (mkPtok 16 "char[]" 5 4 10)) (mkDynamicString (mkSpan (mkPtok 16 "char[]" 5 4 10) (mkPtok 16 "char[]" 5 4 10)) (mkPtok 16 "char[]" 5 4 10)))) (mkPtok 42 "Z9_" 5 11 11) (mkCalculatedFrom (mkSpan (mkPtok 5 "@calculatedFrom(" 5 14 12) (mkPtok 6 ")" 5 37 14)) (mkPtok 5 "@calculatedFrom(" 5 14 12) (mkPtok 31 """x y""" 5 31 13) (mkPtok 6 ")" 5 37 14)) None (mkPtok 40 "," 5 39 15)))); (mkFieldWithAttr (mkSpan (mkPtok 42 "int" 5 41 16) (mkPtok 40 "," 7 6 21)) [] (LengthField (mkSpan (mkPtok 42 "int" 5 41 16) (mkPtok 40 "," 7 6 21)) (mkLengthFieldDecl (mkSpan (mkPtok 42 "int" 5 41 16) (mkPtok 40 "," 7 6 21)) None (mkPtok 42 "int" 5 41 16) (mkLengthOf (mkSpan (mkPtok 7 "@lengthOf(" 5 45 17) (mkPtok 6 ")" 7 4 20)) (mkPtok 7 "@lengthOf(" 5 45 17) (mkPtok 42 "Packet" 5 56 18) (mkPtok 6 ")" 7 4 20)) None (mkPtok 40 "," 7 6 21)))); (mkFieldWithAttr (mkSpan (mkPtok 12 "char[" 7 8 22) (mkPtok 40 "," 7 22 26)) [] (MetaField (mkSpan (mkPtok 12 "char[" 7 8 22) (mkPtok 40 "," 7 22 26)) None (mkMetaDecl (mkSpan (mkPtok 12 "char[" 7 8 22) (mkPtok 40 "," 7 22 26)) (TyFixed (mkSpan (mkPtok 12 "char[" 7 8 22) (mkPtok 13 "]" 7 15 24)) (mkFixedString (mkSpan (mkPtok 12 "char[" 7 8 22) (mkPtok 13 "]" 7 15 24)) (mkPtok 12 "char[" 7 8 22) (mkPtok 30 "0" 7 14 23) (mkPtok 13 "]" 7 15 24))) (mkPtok 42 "tag" 7 17 25) None (mkPtok 40 "," 7 22 26)))); (mkFieldWithAttr (mkSpan (mkPtok 38 "match" 8 0 28) (mkPtok 40 "," 23 21 77)) [] (MatchField (mkSpan (mkPtok 38 "match" 8 0 28) (mkPtok 40 "," 23 21 77)) (mkMatchFieldDecl (mkSpan (mkPtok 38 "match" 8 0 28) (mkPtok 3 "}" 23 19 76)) (mkPtok 38 "match" 8 0 28) (mkPtok 42 "crc" 8 6 29) (mkPtok 17 "as" 8 10 30) (mkPtok 42 "int" 9 4 31) (mkPtok 2 "{" 9 8 32) [(mkMatchPair (mkSpan (mkPtok 18 "[" 9 10 33) (mkPtok 40 "," 10 13 40)) (MKList (mkKeyList (mkSpan (mkPtok 18 "[" 9 10 33) (mkPtok 13 "]" 10 4 37)) (mkPtok 18 "[" 9 10 33) (mkPtok 31 """""" 9 11 34) [((mkPtok 40 "," 9 13 35), (mkPtok 30 "10" 9 15 36))] (mkPtok 13 "]" 10 4 37))) (mkPtok 39 ":" 10 5 38) (mkPtok 42 "pack" 10 8 39) (Some (mkPtok 40 "," 10 13 40))); (mkMatchPair (mkSpan (mkPtok 18 "[" 10 15 41) (mkPtok 40 "," 11 24 55)) (MKList (mkKeyList (mkSpan (mkPtok 18 "[" 10 15 41) (mkPtok 13 "]" 11 13 52)) (mkPtok 18 "[" 10 15 41) (mkPtok 30 "42" 10 17 42) [((mkPtok 40 "," 10 20 43), (mkPtok 30 "007" 10 21 44)); ((mkPtok 40 "," 10 24 45), (mkPtok 30 "1" 10 26 46)); ((mkPtok 40 "," 11 0 48), (mkPtok 31 """\n""" 11 2 49)); ((mkPtok 40 "," 11 7 50), (mkPtok 31 (string_of_bytes [34; 230; 182; 136; 230; 129; 175; 34]%N) 11 9 51))] (mkPtok 13 "]" 11 13 52))) (mkPtok 39 ":" 11 14 53) (mkPtok 42 "options1" 11 15 54) (Some (mkPtok 40 "," 11 24 55))); (mkMatchPair (mkSpan (mkPtok 30 "0123456789" 11 25 56) (mkPtok 40 "," 19 0 64)) (MKDigits (mkPtok 30 "0123456789" 11 25 56)) (mkPtok 39 ":" 13 4 58) (mkPtok 42 "lengthOf" 16 0 61) (Some (mkPtok 40 "," 19 0 64))); (mkMatchPair (mkSpan (mkPtok 30 "65535" 19 3 65) (mkPtok 42 "matchKey" 21 0 67)) (MKDigits (mkPtok 30 "65535" 19 3 65)) (mkPtok 39 ":" 20 0 66) (mkPtok 42 "matchKey" 21 0 67) None); (mkMatchPair (mkSpan (mkPtok 31 (string_of_bytes [34; 240; 159; 152; 128; 34]%N) 22 4 68) (mkPtok 40 "," 22 13 71)) (MKString (mkPtok 31 (string_of_bytes [34; 240; 159; 152; 128; 34]%N) 22 4 68)) (mkPtok 39 ":" 22 8 69) (mkPtok 42 "As" 22 10 70) (Some (mkPtok 40 "," 22 13 71))); (mkMatchPair (mkSpan (mkPtok 31 """\n""" 23 4 72) (mkPtok 40 "," 23 18 75)) (MKString (mkPtok 31 """\n""" 23 4 72)) (mkPtok 39 ":" 23 10 73) (mkPtok 42 "charz" 23 12 74) (Some (mkPtok 40 "," 23 18 75)))] (mkPtok 3 "}" 23 19 76)) (mkPtok 40 "," 23 21 77))); (mkFieldWithAttr (mkSpan (mkPtok 24 "int8" 23 23 78) (mkPtok 40 "," 25 4 80)) [] (MetaField (mkSpan (mkPtok 24 "int8" 23 23 78) (mkPtok 40 "," 25 4 80)) None (mkMetaDecl (mkSpan (mkPtok 24 "int8" 23 23 78) (mkPtok 40 "," 25 4 80)) (TyBasic (mkSpan (mkPtok 24 "int8" 23 23 78) (mkPtok 24 "int8" 23 23 78)) (mkBasicType (mkSpan (mkPtok 24 "int8" 23 23 78) (mkPtok 24 "int8" 23 23 78)) (mkPtok 24 "int8" 23 23 78))) (mkPtok 42 "i8i8" 24 4 79) None (mkPtok 40 "," 25 4 80)))); (mkFieldWithAttr (mkSpan (mkPtok 42 "x_y_z" 25 5 81) (mkPtok 40 "," 25 32 85)) [] (LengthField (mkSpan (mkPtok 42 "x_y_z" 25 5 81) (mkPtok 40 "," 25 32 85)) (mkLengthFieldDecl (mkSpan (mkPtok 42 "x_y_z" 25 5 81) (mkPtok 40 "," 25 32 85)) None (mkPtok 42 "x_y_z" 25 5 81) (mkLengthOf (mkSpan (mkPtok 7 "@lengthOf(" 25 11 82) (mkPtok 6 ")" 25 31 84)) (mkPtok 7 "@lengthOf(" 25 11 82) (mkPtok 42 "options1" 25 22 83) (mkPtok 6 ")" 25 31 84)) None (mkPtok 40 "," 25 32 85))))] (mkPtok 3 "}" 26 0 87))); (DPacket (mkPacketDef (mkSpan (mkPtok 35 "packet" 27 0 88) (mkPtok 3 "}" 78 36 230)) None (mkPtok 35 "packet" 27 0 88) (mkPtok 42 "int" 27 7 89) (mkPtok 2 "{" 27 11 90) [(mkFieldWithAttr (mkSpan (mkPtok 7 "@lengthOf(" 27 13 91) (mkPtok 40 "," 36 4 109)) [(FALengthOf (mkSpan (mkPtok 7 "@lengthOf(" 27 13 91) (mkPtok 6 ")" 28 0 94)) (mkLengthOf (mkSpan (mkPtok 7 "@lengthOf(" 27 13 91) (mkPtok 6 ")" 28 0 94)) (mkPtok 7 "@lengthOf(" 27 13 91) (mkPtok 42 "BodyLength" 27 24 92) (mkPtok 6 ")" 28 0 94))); (FACalculatedFrom (mkSpan (mkPtok 5 "@calculatedFrom(" 30 4 96) (mkPtok 6 ")" 30 24 98)) (mkCalculatedFrom (mkSpan (mkPtok 5 "@calculatedFrom(" 30 4 96) (mkPtok 6 ")" 30 24 98)) (mkPtok 5 "@calculatedFrom(" 30 4 96) (mkPtok 31 """""" 30 21 97) (mkPtok 6 ")" 30 24 98))); (FACalculatedFrom (mkSpan (mkPtok 5 "@calculatedFrom(" 30 27 99) (mkPtok 6 ")" 32 19 102)) (mkCalculatedFrom (mkSpan (mkPtok 5 "@calculatedFrom(" 30 27 99) (mkPtok 6 ")" 32 19 102)) (mkPtok 5 "@calculatedFrom(" 30 27 99) (mkPtok 31 """// no comment""" 32 4 101) (mkPtok 6 ")" 32 19 102)))] (MetaField (mkSpan (mkPtok 36 "repeat" 32 20 103) (mkPtok 40 "," 36 4 109)) (Some (mkPtok 36 "repeat" 32 20 103)) (mkMetaDecl (mkSpan (mkPtok 16 "char[]" 32 27 104) (mkPtok 40 "," 36 4 109)) (TyDynamic (mkSpan (mkPtok 16 "char[]" 32 27 104) (mkPtok 16 "char[]" 32 27 104)) (mkDynamicString (mkSpan (mkPtok 16 "char[]" 32 27 104) (mkPtok 16 "char[]" 32 27 104)) (mkPtok 16 "char[]" 32 27 104))) (mkPtok 42 "leftPad" 32 33 105) (Some (mkPtok 43 "`100% of %d`" 35 0 108)) (mkPtok 40 "," 36 4 109)))); (mkFieldWithAttr (mkSpan (mkPtok 42 "MetaDataX" 37 0 110) (mkPtok 40 "," 38 2 112)) [] (ObjectField (mkSpan (mkPtok 42 "MetaDataX" 37 0 110) (mkPtok 40 "," 38 2 112)) None (mkPtok 42 "MetaDataX" 37 0 110) None (Some (mkPtok 43 (string_of_bytes [96; 10; 96]%N) 37 10 111)) (mkPtok 40 "," 38 2 112))); (mkFieldWithAttr (mkSpan (mkPtok 36 "repeat" 41 0 115) (mkPtok 40 "," 45 4 120)) [] (MetaField (mkSpan (mkPtok 36 "repeat" 41 0 115) (mkPtok 40 "," 45 4 120)) (Some (mkPtok 36 "repeat" 41 0 115)) (mkMetaDecl (mkSpan (mkPtok 27 "i64" 41 7 116) (mkPtok 40 "," 45 4 120)) (TyBasic (mkSpan (mkPtok 27 "i64" 41 7 116) (mkPtok 27 "i64" 41 7 116)) (mkBasicType (mkSpan (mkPtok 27 "i64" 41 7 116) (mkPtok 27 "i64" 41 7 116)) (mkPtok 27 "i64" 41 7 116))) (mkPtok 42 "T" 44 0 119) None (mkPtok 40 "," 45 4 120)))); (mkFieldWithAttr (mkSpan (mkPtok 36 "repeat" 46 0 122) (mkPtok 40 "," 72 2 203)) [] (InerObjectField (mkSpan (mkPtok 36 "repeat" 46 0 122) (mkPtok 40 "," 72 2 203)) (Some (mkPtok 36 "repeat" 46 0 122)) (InerObjectDecl (mkSpan (mkPtok 42 "float" 46 7 123) (mkPtok 3 "}" 72 0 202)) (mkPtok 42 "float" 46 7 123) (mkPtok 2 "{" 46 13 124) [(MetaField (mkSpan (mkPtok 36 "repeat" 46 15 125) (mkPtok 40 "," 47 38 131)) (Some (mkPtok 36 "repeat" 46 15 125)) (mkMetaDecl (mkSpan (mkPtok 14 "zchar[" 47 4 126) (mkPtok 40 "," 47 38 131)) (TyFixed (mkSpan (mkPtok 14 "zchar[" 47 4 126) (mkPtok 13 "]" 47 12 128)) (mkFixedString (mkSpan (mkPtok 14 "zchar[" 47 4 126) (mkPtok 13 "]" 47 12 128)) (mkPtok 14 "zchar[" 47 4 126) (mkPtok 30 "1" 47 11 127) (mkPtok 13 "]" 47 12 128))) (mkPtok 42 "len" 47 14 129) (Some (mkPtok 43 "`// not a comment`" 47 18 130)) (mkPtok 40 "," 47 38 131))); (MatchField (mkSpan (mkPtok 38 "match" 48 0 133) (mkPtok 40 "," 69 0 190)) (mkMatchFieldDecl (mkSpan (mkPtok 38 "match" 48 0 133) (mkPtok 3 "}" 68 4 189)) (mkPtok 38 "match" 48 0 133) (mkPtok 42 "Logon" 48 6 134) (mkPtok 17 "as" 50 4 136) (mkPtok 42 "len" 50 7 137) (mkPtok 2 "{" 51 4 138) [(mkMatchPair (mkSpan (mkPtok 18 "[" 51 6 139) (mkPtok 40 "," 52 22 144)) (MKList (mkKeyList (mkSpan (mkPtok 18 "[" 51 6 139) (mkPtok 13 "]" 52 8 141)) (mkPtok 18 "[" 51 6 139) (mkPtok 30 "255" 52 4 140) [] (mkPtok 13 "]" 52 8 141))) (mkPtok 39 ":" 52 11 142) (mkPtok 42 "options1" 52 13 143) (Some (mkPtok 40 "," 52 22 144))); (mkMatchPair (mkSpan (mkPtok 18 "[" 53 0 146) (mkPtok 40 "," 63 0 163)) (MKList (mkKeyList (mkSpan (mkPtok 18 "[" 53 0 146) (mkPtok 13 "]" 59 0 158)) (mkPtok 18 "[" 53 0 146) (mkPtok 31 """a\""b""" 54 0 147) [((mkPtok 40 "," 54 7 148), (mkPtok 31 (string_of_bytes [34; 92; 195; 169; 34]%N) 54 9 149)); ((mkPtok 40 "," 54 14 150), (mkPtok 30 "0123456789" 54 16 151)); ((mkPtok 40 "," 55 0 152), (mkPtok 30 "0123456789" 55 1 153)); ((mkPtok 40 "," 55 12 154), (mkPtok 30 "7" 58 0 157))] (mkPtok 13 "]" 59 0 158))) (mkPtok 39 ":" 60 0 159) (mkPtok 42 "options1" 60 1 160) (Some (mkPtok 40 "," 63 0 163))); (mkMatchPair (mkSpan (mkPtok 18 "[" 63 1 164) (mkPtok 42 "tag" 63 27 170)) (MKList (mkKeyList (mkSpan (mkPtok 18 "[" 63 1 164) (mkPtok 13 "]" 63 23 168)) (mkPtok 18 "[" 63 1 164) (mkPtok 30 "4294967296" 63 3 165) [((mkPtok 40 "," 63 14 166), (mkPtok 31 """a\""b""" 63 16 167))] (mkPtok 13 "]" 63 23 168))) (mkPtok 39 ":" 63 25 169) (mkPtok 42 "tag" 63 27 170) None); (mkMatchPair (mkSpan (mkPtok 30 "42" 64 0 171) (mkPtok 42 "T" 64 5 173)) (MKDigits (mkPtok 30 "42" 64 0 171)) (mkPtok 39 ":" 64 3 172) (mkPtok 42 "T" 64 5 173) None); (mkMatchPair (mkSpan (mkPtok 18 "[" 65 0 174) (mkPtok 40 "," 67 18 181)) (MKList (mkKeyList (mkSpan (mkPtok 18 "[" 65 0 174) (mkPtok 13 "]" 67 8 178)) (mkPtok 18 "[" 65 0 174) (mkPtok 30 "4294967296" 66 0 175) [((mkPtok 40 "," 66 10 176), (mkPtok 31 """`tick`""" 67 0 177))] (mkPtok 13 "]" 67 8 178))) (mkPtok 39 ":" 67 10 179) (mkPtok 42 "charz" 67 12 180) (Some (mkPtok 40 "," 67 18 181))); (mkMatchPair (mkSpan (mkPtok 18 "[" 67 20 182) (mkPtok 42 "len" 68 0 188)) (MKList (mkKeyList (mkSpan (mkPtok 18 "[" 67 20 182) (mkPtok 13 "]" 67 32 186)) (mkPtok 18 "[" 67 20 182) (mkPtok 30 "0" 67 22 183) [((mkPtok 40 "," 67 24 184), (mkPtok 31 (string_of_bytes [34; 195; 169; 116; 195; 169; 34]%N) 67 26 185))] (mkPtok 13 "]" 67 32 186))) (mkPtok 39 ":" 67 34 187) (mkPtok 42 "len" 68 0 188) None)] (mkPtok 3 "}" 68 4 189)) (mkPtok 40 "," 69 0 190)); (MetaField (mkSpan (mkPtok 36 "repeat" 69 2 191) (mkPtok 40 "," 70 0 195)) (Some (mkPtok 36 "repeat" 69 2 191)) (mkMetaDecl (mkSpan (mkPtok 29 "f64" 69 9 192) (mkPtok 40 "," 70 0 195)) (TyBasic (mkSpan (mkPtok 29 "f64" 69 9 192) (mkPtok 29 "f64" 69 9 192)) (mkBasicType (mkSpan (mkPtok 29 "f64" 69 9 192) (mkPtok 29 "f64" 69 9 192)) (mkPtok 29 "f64" 69 9 192))) (mkPtok 42 "zchar" 69 13 193) (Some (mkPtok 43 "`say ""hi""`" 69 19 194)) (mkPtok 40 "," 70 0 195))); (MetaField (mkSpan (mkPtok 36 "repeat" 70 2 196) (mkPtok 40 "," 71 24 200)) (Some (mkPtok 36 "repeat" 70 2 196)) (mkMetaDecl (mkSpan (mkPtok 27 "i64" 70 9 197) (mkPtok 40 "," 71 24 200)) (TyBasic (mkSpan (mkPtok 27 "i64" 70 9 197) (mkPtok 27 "i64" 70 9 197)) (mkBasicType (mkSpan (mkPtok 27 "i64" 70 9 197) (mkPtok 27 "i64" 70 9 197)) (mkPtok 27 "i64" 70 9 197))) (mkPtok 42 "i64_" 71 0 198) (Some (mkPtok 43 "`// not a comment`" 71 5 199)) (mkPtok 40 "," 71 24 200)))] (mkPtok 3 "}" 72 0 202)) (mkPtok 40 "," 72 2 203))); (mkFieldWithAttr (mkSpan (mkPtok 38 "match" 73 0 204) (mkPtok 40 "," 78 12 223)) [] (MatchField (mkSpan (mkPtok 38 "match" 73 0 204) (mkPtok 40 "," 78 12 223)) (mkMatchFieldDecl (mkSpan (mkPtok 38 "match" 73 0 204) (mkPtok 3 "}" 78 11 222)) (mkPtok 38 "match" 73 0 204) (mkPtok 42 "u128" 73 6 205) (mkPtok 17 "as" 73 11 206) (mkPtok 42 "Header" 73 14 207) (mkPtok 2 "{" 73 21 208) [(mkMatchPair (mkSpan (mkPtok 31 (string_of_bytes [34; 240; 159; 152; 128; 34]%N) 74 0 209) (mkPtok 42 "x_y_z" 75 0 211)) (MKString (mkPtok 31 (string_of_bytes [34; 240; 159; 152; 128; 34]%N) 74 0 209)) (mkPtok 39 ":" 74 3 210) (mkPtok 42 "x_y_z" 75 0 211) None); (mkMatchPair (mkSpan (mkPtok 31 """// no comment""" 75 6 212) (mkPtok 40 "," 76 2 215)) (MKString (mkPtok 31 """// no comment""" 75 6 212)) (mkPtok 39 ":" 75 22 213) (mkPtok 42 "A" 76 0 214) (Some (mkPtok 40 "," 76 2 215))); (mkMatchPair (mkSpan (mkPtok 18 "[" 76 3 216) (mkPtok 40 "," 78 8 221)) (MKList (mkKeyList (mkSpan (mkPtok 18 "[" 76 3 216) (mkPtok 13 "]" 78 0 218)) (mkPtok 18 "[" 76 3 216) (mkPtok 30 "0" 77 4 217) [] (mkPtok 13 "]" 78 0 218))) (mkPtok 39 ":" 78 2 219) (mkPtok 42 "int" 78 4 220) (Some (mkPtok 40 "," 78 8 221)))] (mkPtok 3 "}" 78 11 222)) (mkPtok 40 "," 78 12 223))); (mkFieldWithAttr (mkSpan (mkPtok 32 "@rightPad" 78 14 224) (mkPtok 40 "," 78 35 229)) [(FAPadding (mkSpan (mkPtok 32 "@rightPad" 78 14 224) (mkPtok 6 ")" 78 28 227)) (mkPaddingAttr (mkSpan (mkPtok 32 "@rightPad" 78 14 224) (mkPtok 6 ")" 78 28 227)) (mkPtok 32 "@rightPad" 78 14 224) (mkPtok 8 "(" 78 23 225) (Some (mkPtok 33 "' '" 78 25 226)) (mkPtok 6 ")" 78 28 227)))] (ObjectField (mkSpan (mkPtok 42 "pack" 78 30 228) (mkPtok 40 "," 78 35 229)) None (mkPtok 42 "pack" 78 30 228) None None (mkPtok 40 "," 78 35 229)))] (mkPtok 3 "}" 78 36 230)))])).
+Eval vm_compute in ("<<<M535>>>" ++ check (runes_of_ascii "root
+    packet
+    string_ {
+@lengthOf(
+    falsey )@tag( // @lengthOf(
+42 ) match repeatCount	as Z9_ {
+""{,}"" :
+    roots // 50% %s
+, 255
+: As ,[65535
+, 0
+    ]
+:
+    // a // b
+    T
+} ,
+    /// triple
+    repeat i8 repeatCount`" ++ [28040; 24687; 31867; 22411]%N ++ runes_of_ascii "` , }
+options{ As =
+zchar[
+    255	]
+;}
+    // trailing space 
+    packet // trailing space 
+leftPad { @lengthOf( lengthOf ) Foo  { x msg_type ,
+msg_type/// triple
+`it's`,u16  crc @lengthOf( f32a) `
+` ,
+} // trailing space 
+,
+    u stringy
+    ,packetx`u8 x,` , @leftPad
+() @calculatedFrom(""abc"" ) @tag(
+65535 ) BodyLength { zchar[1 ] Logon,} , match As as matchKey{42 : // `tick` ""quote"" 'q'
+Z9_
+    , //	t
+[ ""it's"" ]
+    // trailing space 
+    :
+    calculatedFrom 255: roots,""abc"": u8x
+, """" : i8i8 4294967296
+    : packetx
+,},} root packet  A{ char[10 ] x_y_z
+, }")).
+Eval vm_compute in ("<<<M567>>>" ++ check (runes_of_ascii "MetaData repeatCount
+{ char[
+    // packet A { u8 x, }
+    4294967296 ] chars `// not a comment` , }
+")).
+Eval vm_compute in ("<<<M599>>>" ++ check (runes_of_ascii "options { }packet u128// trailing space 
+{ }
+")).
+Eval vm_compute in ("<<<M631>>>" ++ check (runes_of_ascii "MetaData body { char[ 10
+    ]
+// packet A { u8 x, }
+// " ++ [128512]%N ++ runes_of_ascii " emoji
+Packet
+    , Foo	lengthOf
+, x_y_z a1	`// not a comment`
+    , }options
+{ repeatCount =
+' ' ; }
+")).
+Eval vm_compute in ("<<<M663>>>" ++ check (runes_of_ascii "packet MetaDataX { }
+    MetaData crc {
+    tag MetaDataX,
+    // `tick` ""quote"" 'q'
+    char[
+65535 ] trueish , string	crc , // a // b
+zchar[7 ] MetaDataX,
+/// triple
+// " ++ [27880; 37322]%N ++ runes_of_ascii "
+}
+")).
+Eval vm_compute in ("<<<M695>>>" ++ check (runes_of_ascii "root	packet  string_  {
+    }
+MetaData tag {
+BodyLength
+    // 50% %s
+    _x , zchar[0 ]
+    //x
+    A// a // b
+`tab	here` ,//
+Packet lengthOf `u8 x,` , string
+//
+// `tick` ""quote"" 'q'
+charz
+`u8 x,` ,
+string A
+, char[
+    255 ] uint8x `// not a comment`
+, }
+")).
+Eval vm_compute in ("<<<M727>>>" ++ check (runes_of_ascii "options {x // c
+= ""1"" }
+// c
+")).
+Eval vm_compute in ("<<<T727>>>" ++ terms [mkTok 1 "options" 1 0 false; mkTok 2 "{" 1 8 false; mkTok 42 "x" 1 9 false; mkTok 44 "// c" 1 11 true; mkTok 4 "=" 2 0 false; mkTok 31 """1""" 2 2 false; mkTok 3 "}" 2 6 false; mkTok 44 "// c" 3 0 true; mkTok 0 "<EOF>" 4 0 false] (mkPacket (mkPtok 1 "options" 1 0 0) (Some (mkPtok 3 "}" 2 6 6)) [(DOption (mkOptionDef (mkSpan (mkPtok 1 "options" 1 0 0) (mkPtok 3 "}" 2 6 6)) (mkPtok 1 "options" 1 0 0) (mkPtok 2 "{" 1 8 1) [(mkOptionDecl (mkSpan (mkPtok 42 "x" 1 9 2) (mkPtok 31 """1""" 2 2 5)) (mkPtok 42 "x" 1 9 2) (mkPtok 4 "=" 2 0 4) (VString (mkSpan (mkPtok 31 """1""" 2 2 5) (mkPtok 31 """1""" 2 2 5)) (mkPtok 31 """1""" 2 2 5)) None)] (mkPtok 3 "}" 2 6 6)))])).
+Eval vm_compute in ("<<<M759>>>" ++ check (runes_of_ascii "MetaData float { u64 Logon ,
+    float32 Z9_ `` ,
+i16
+    Pad	`" ++ [28040; 24687; 31867; 22411]%N ++ runes_of_ascii "` ,
+Z9_ body // trailing space 
+, uint64 calculatedFrom
+,	}
+MetaData
+falsey
+    { char[]
+    trueish , }	root packet	rootA  {}
+")).
+Eval vm_compute in ("<<<M791>>>" ++ check (runes_of_ascii "
+packet  tag
+{ @tag(
+10) string T , @calculatedFrom( ""it's"" ) u8 body, repeat
+rootA ,Z9_ , }packet As {}
+")).
+Eval vm_compute in ("<<<M823>>>" ++ check (runes_of_ascii "MetaData
+    x{	int32 int // a // b
+`line1
+line2` , } packet o
+{  u32 charz, char[
+1] x_y_z	`
+`
+    ,//	t
+len lengthOf,
+@lengthOf( charz )
+    i16 body`crlf
+line` ,}")).
+Eval vm_compute in ("<<<M855>>>" ++ check (runes_of_ascii "packet	leftPad
+    { @tag( //	t
+10
+)
+    uint64 calculatedFrom
+``
+, body  , uint8 zchar ,i8i8 ,// trailing space 
+}
+")).
+Eval vm_compute in ("<<<M887>>>" ++ check (runes_of_ascii "
+//x
+")).
+Eval vm_compute in ("<<<M919>>>" ++ check (@nil rune)).
+Eval vm_compute in ("<<<M951>>>" ++ check (runes_of_ascii "// " ++ [128512]%N ++ runes_of_ascii " emoji
+options { u128=  ' ';
+    Header =
+string
+    }
+options { zchar
+=
+//
+// @lengthOf(
+char
+    u128 =
+    int8
+;
+    int =
+    false ;}
+")).
+Eval vm_compute in ("<<<T951>>>" ++ terms [mkTok 44 (string_of_bytes [47; 47; 32; 240; 159; 152; 128; 32; 101; 109; 111; 106; 105]%N) 1 0 true; mkTok 1 "options" 2 0 false; mkTok 2 "{" 2 8 false; mkTok 42 "u128" 2 10 false; mkTok 4 "=" 2 14 false; mkTok 33 "' '" 2 17 false; mkTok 41 ";" 2 20 false; mkTok 42 "Header" 3 4 false; mkTok 4 "=" 3 11 false; mkTok 15 "string" 4 0 false; mkTok 3 "}" 5 4 false; mkTok 1 "options" 6 0 false; mkTok 2 "{" 6 8 false; mkTok 42 "zchar" 6 10 false; mkTok 4 "=" 7 0 false; mkTok 44 "//" 8 0 true; mkTok 44 "// @lengthOf(" 9 0 true; mkTok 19 "char" 10 0 false; mkTok 42 "u128" 11 4 false; mkTok 4 "=" 11 9 false; mkTok 24 "int8" 12 4 false; mkTok 41 ";" 13 0 false; mkTok 42 "int" 14 4 false; mkTok 4 "=" 14 8 false; mkTok 11 "false" 15 4 false; mkTok 41 ";" 15 10 false; mkTok 3 "}" 15 11 false; mkTok 0 "<EOF>" 16 0 false] (mkPacket (mkPtok 1 "options" 2 0 1) (Some (mkPtok 3 "}" 15 11 26)) [(DOption (mkOptionDef (mkSpan (mkPtok 1 "options" 2 0 1) (mkPtok 3 "}" 5 4 10)) (mkPtok 1 "options" 2 0 1) (mkPtok 2 "{" 2 8 2) [(mkOptionDecl (mkSpan (mkPtok 42 "u128" 2 10 3) (mkPtok 41 ";" 2 20 6)) (mkPtok 42 "u128" 2 10 3) (mkPtok 4 "=" 2 14 4) (VPaddingChar (mkSpan (mkPtok 33 "' '" 2 17 5) (mkPtok 33 "' '" 2 17 5)) (mkPtok 33 "' '" 2 17 5)) (Some (mkPtok 41 ";" 2 20 6))); (mkOptionDecl (mkSpan (mkPtok 42 "Header" 3 4 7) (mkPtok 15 "string" 4 0 9)) (mkPtok 42 "Header" 3 4 7) (mkPtok 4 "=" 3 11 8) (VType (mkSpan (mkPtok 15 "string" 4 0 9) (mkPtok 15 "string" 4 0 9)) (TyDynamic (mkSpan (mkPtok 15 "string" 4 0 9) (mkPtok 15 "string" 4 0 9)) (mkDynamicString (mkSpan (mkPtok 15 "string" 4 0 9) (mkPtok 15 "string" 4 0 9)) (mkPtok 15 "string" 4 0 9)))) None)] (mkPtok 3 "}" 5 4 10))); (DOption (mkOptionDef (mkSpan (mkPtok 1 "options" 6 0 11) (mkPtok 3 "}" 15 11 26)) (mkPtok 1 "options" 6 0 11) (mkPtok 2 "{" 6 8 12) [(mkOptionDecl (mkSpan (mkPtok 42 "zchar" 6 10 13) (mkPtok 19 "char" 10 0 17)) (mkPtok 42 "zchar" 6 10 13) (mkPtok 4 "=" 7 0 14) (VType (mkSpan (mkPtok 19 "char" 10 0 17) (mkPtok 19 "char" 10 0 17)) (TyBasic (mkSpan (mkPtok 19 "char" 10 0 17) (mkPtok 19 "char" 10 0 17)) (mkBasicType (mkSpan (mkPtok 19 "char" 10 0 17) (mkPtok 19 "char" 10 0 17)) (mkPtok 19 "char" 10 0 17)))) None); (mkOptionDecl (mkSpan (mkPtok 42 "u128" 11 4 18) (mkPtok 41 ";" 13 0 21)) (mkPtok 42 "u128" 11 4 18) (mkPtok 4 "=" 11 9 19) (VType (mkSpan (mkPtok 24 "int8" 12 4 20) (mkPtok 24 "int8" 12 4 20)) (TyBasic (mkSpan (mkPtok 24 "int8" 12 4 20) (mkPtok 24 "int8" 12 4 20)) (mkBasicType (mkSpan (mkPtok 24 "int8" 12 4 20) (mkPtok 24 "int8" 12 4 20)) (mkPtok 24 "int8" 12 4 20)))) (Some (mkPtok 41 ";" 13 0 21))); (mkOptionDecl (mkSpan (mkPtok 42 "int" 14 4 22) (mkPtok 41 ";" 15 10 25)) (mkPtok 42 "int" 14 4 22) (mkPtok 4 "=" 14 8 23) (VFalse (mkSpan (mkPtok 11 "false" 15 4 24) (mkPtok 11 "false" 15 4 24)) (mkPtok 11 "false" 15 4 24)) (Some (mkPtok 41 ";" 15 10 25)))] (mkPtok 3 "}" 15 11 26)))])).
+Eval vm_compute in ("<<<M983>>>" ++ check (runes_of_ascii "root packet  uint8x { match
+roots
+    as a1 {
+    ""a\\"" : int } , stringy pack
+    , string_ @lengthOf(
+msg_type ) `100% of %d`, repeat f32 x_y_z // `tick` ""quote"" 'q'
+`it's`
+, zchar[
+7
+    ] lengthOf
+    @lengthOf(int ) , }  options {} packet Logon {
+char[] _x `" ++ [28040; 24687; 31867; 22411]%N ++ runes_of_ascii "` ,
+char[7 ] matchKey ,
+@rightPad (
+    '0' ) char[
+3 ]
+len , Foo
+    //	t
+    @calculatedFrom( ""a	b""),// packet A { u8 x, }
+} // `tick` ""quote"" 'q'
+options { } root packet a1 { uint64 stringy  ,@tag(
+10
+    )
+    match a1 as // 50% %s
+BodyLength{[ 10,	4294967296
+,1 ]	:zchar , }, @rightPad(
+)string string_ @lengthOf(
+    // 50% %s
+    x_y_z ) /// triple
+`two words` , char[] T , @leftPad
+( '0' ) string_{
+/// triple
+//x
+match matchKey as crc { [
+    // " ++ [128512]%N ++ runes_of_ascii " emoji
+    ""\" ++ [233]%N ++ runes_of_ascii """,
+3 , // packet A { u8 x, }
+""x y""  ] :
+calculatedFrom , }
+    ,
+u128 Packet `{ , }` // " ++ [128512]%N ++ runes_of_ascii " emoji
+,float o , Packet@calculatedFrom(
+""{,}""
+//	t
+// a // b
+) ,
+/// triple
+//	t
+}
+, }")).
+Eval vm_compute in ("<<<M1015>>>" ++ check (runes_of_ascii "options { packetx =
+    //	t
+    '\x00' ; }	packet A{ }
+    root packet a1 {
+// packet A { u8 x, }
+//x
+} root  packet float
+{
+//	t
+// @lengthOf(
+string
+    len @calculatedFrom( ""{,}"" ) `crlf
+line` ,
+    body
+    @lengthOf( msg_type	) //x
+`a\` ,
+    @leftPad
+()  f64  uint8x , packetx	,
+@calculatedFrom( ""\n"")
+    /// triple
+    repeat char[] leftPad ,
+    f64 trueish `{ , }`
+    ,
+int32 zchar//x
+, repeat
+    zchar[3]
+Packet`say ""hi""` //	t
+,u32 charz @lengthOf(	x
+    ) ,Z9_
+    // `tick` ""quote"" 'q'
+    , }
+//x
+")).
+Eval vm_compute in ("<<<M1047>>>" ++ check (runes_of_ascii "MetaData u128 {
+int64
+a1`// not a comment` ,
+}root	packet
+string_{	@tag( 42 ) match zchar as
+msg_type { 10 : int
+} , @calculatedFrom( """ ++ [233]%N ++ runes_of_ascii "t" ++ [233]%N ++ runes_of_ascii """)
+char[]  string_  , repeat char[7] string_/// triple
+, @lengthOf( float) //
+repeat
+int x_y_z , }
+packet
+//	t
+// @lengthOf(
+As {
+    //	t
+    lengthOf @calculatedFrom(  ""CRC32"" )`two words`  , }
+")).
+Eval vm_compute in ("<<<M1079>>>" ++ check (runes_of_ascii "packet len
+{
+T@lengthOf( lengthOf )
+    ,
+} packet
+T {// `tick` ""quote"" 'q'
+repeat zchar[
+7 ] body ,	}")).
+Eval vm_compute in ("<<<M1111>>>" ++ check (runes_of_ascii "MetaData rootA {
+    // `tick` ""quote"" 'q'
+    }
+")).
+Eval vm_compute in ("<<<M1143>>>" ++ check (runes_of_ascii "packet packetx { @leftPad (
+    ) u32 x_y_z `u8 x,` // @lengthOf(
+,
+}packet
+zchar { repeat char[
+0123456789
+] u8x	, T // packet A { u8 x, }
+@lengthOf( stringy
+)`
+`
+, repeat u128{ match MetaDataX as
+_x  {	[ 1 ] : Logon,0123456789 : Foo
+//
+// @lengthOf(
+, [
+""`tick`"" , ""CRC32""]
+    : uint8x [ ""{,}"" ,
+    ""a\""b"" , 42 , 42
+    , ""`tick`""
+,	42]
+    : // 50% %s
+leftPad ,
+}, }
+,
+rootA // @lengthOf(
+uint8x`a\`
+, } MetaData lengthOf {
+    uint32 // 50% %s
+msg_type `" ++ [28040; 24687; 31867; 22411]%N ++ runes_of_ascii "` , u16 Pad //	t
+`it's` , zchar[ 007 ]
+    // packet A { u8 x, }
+    charz `crlf
+line`,
+    u128 /// triple
+len , BodyLength asx
+    `tab	here`,
+Packet Header ,}
+
+")).
+Eval vm_compute in ("<<<M1175>>>" ++ check (runes_of_ascii "packet uint8x { @calculatedFrom( ""a	b"" ) zchar[
+42 ]Header
+@calculatedFrom( ""1"" )
+    ,
+    zchar[
+10 ] f32a
+    ,@calculatedFrom(
+""it's"" )f64 // trailing space 
+i8i8 , @tag(
+    /// triple
+    0123456789 )
+repeat int8 u128
+    ,
+    string
+crc ,
+    //	t
+    @tag(
+    // a // b
+    1 ) @calculatedFrom(	""a	b""
+    ) @lengthOf(
+    // trailing space 
+    Packet	)
+    o `" ++ [233]%N ++ runes_of_ascii "`
+,
+    i64  i64_
+, zchar[ // c
+4294967296// 50% %s
+]len , string_ , // " ++ [27880; 37322]%N ++ runes_of_ascii "
+repeat int16 matchKey , }	options {
+crc	= '\x00'// c
+} options  { packetx
+    = ""it's"";
+    // @lengthOf(
+    charz =
+    true	options1
+    =
+""a\\""
+;
+leftPad =true uint8x
+=string	;
+// a // b
+// c
+} options
+    {
+Packet
+    =
+//
+// " ++ [27880; 37322]%N ++ runes_of_ascii "
+""1"" // packet A { u8 x, }
+}
+    /// triple
+    packet /// triple
+u128{// " ++ [27880; 37322]%N ++ runes_of_ascii "
+@tag( 3 )@tag( 42 ) BodyLength
+    @lengthOf(
+Foo ) `tab	here`
+,
+char[ 007 ] a1 `two words`,repeat
+x_y_z	falsey `u8 x,` ,u16 options1 ,zchar[ 10 ] _x ,
+match i8i8 as options1 {
+3 : msg_type 65535:
+Pad , }
+    // a // b
+    , }
+")).
+Eval vm_compute in ("<<<T1175>>>" ++ terms [mkTok 35 "packet" 1 0 false; mkTok 42 "uint8x" 1 7 false; mkTok 2 "{" 1 14 false; mkTok 5 "@calculatedFrom(" 1 16 false; mkTok 31 (string_of_bytes [34; 97; 9; 98; 34]%N) 1 33 false; mkTok 6 ")" 1 39 false; mkTok 14 "zchar[" 1 41 false; mkTok 30 "42" 2 0 false; mkTok 13 "]" 2 3 false; mkTok 42 "Header" 2 4 false; mkTok 5 "@calculatedFrom(" 3 0 false; mkTok 31 """1""" 3 17 false; mkTok 6 ")" 3 21 false; mkTok 40 "," 4 4 false; mkTok 14 "zchar[" 5 4 false; mkTok 30 "10" 6 0 false; mkTok 13 "]" 6 3 false; mkTok 42 "f32a" 6 5 false; mkTok 40 "," 7 4 false; mkTok 5 "@calculatedFrom(" 7 5 false; mkTok 31 """it's""" 8 0 false; mkTok 6 ")" 8 7 false; mkTok 29 "f64" 8 8 false; mkTok 44 "// trailing space " 8 12 true; mkTok 42 "i8i8" 9 0 false; mkTok 40 "," 9 5 false; mkTok 9 "@tag(" 9 7 false; mkTok 44 "/// triple" 10 4 true; mkTok 30 "0123456789" 11 4 false; mkTok 6 ")" 11 15 false; mkTok 36 "repeat" 12 0 false; mkTok 24 "int8" 12 7 false; mkTok 42 "u128" 12 12 false; mkTok 40 "," 13 4 false; mkTok 15 "string" 14 4 false; mkTok 42 "crc" 15 0 false; mkTok 40 "," 15 4 false; mkTok 44 (string_of_bytes [47; 47; 9; 116]%N) 16 4 true; mkTok 9 "@tag(" 17 4 false; mkTok 44 "// a // b" 18 4 true; mkTok 30 "1" 19 4 false; mkTok 6 ")" 19 6 false; mkTok 5 "@calculatedFrom(" 19 8 false; mkTok 31 (string_of_bytes [34; 97; 9; 98; 34]%N) 19 25 false; mkTok 6 ")" 20 4 false; mkTok 7 "@lengthOf(" 20 6 false; mkTok 44 "// trailing space " 21 4 true; mkTok 42 "Packet" 22 4 false; mkTok 6 ")" 22 11 false; mkTok 42 "o" 23 4 false; mkTok 43 (string_of_bytes [96; 195; 169; 96]%N) 23 6 false; mkTok 40 "," 24 0 false; mkTok 27 "i64" 25 4 false; mkTok 42 "i64_" 25 9 false; mkTok 40 "," 26 0 false; mkTok 14 "zchar[" 26 2 false; mkTok 44 "// c" 26 9 true; mkTok 30 "4294967296" 27 0 false; mkTok 44 "// 50% %s" 27 10 true; mkTok 13 "]" 28 0 false; mkTok 42 "len" 28 1 false; mkTok 40 "," 28 5 false; mkTok 42 "string_" 28 7 false; mkTok 40 "," 28 15 false; mkTok 44 (string_of_bytes [47; 47; 32; 230; 179; 168; 233; 135; 138]%N) 28 17 true; mkTok 36 "repeat" 29 0 false; mkTok 25 "int16" 29 7 false; mkTok 42 "matchKey" 29 13 false; mkTok 40 "," 29 22 false; mkTok 3 "}" 29 24 false; mkTok 1 "options" 29 26 false; mkTok 2 "{" 29 34 false; mkTok 42 "crc" 30 0 false; mkTok 4 "=" 30 4 false; mkTok 33 "'\x00'" 30 6 false; mkTok 44 "// c" 30 12 true; mkTok 3 "}" 31 0 false; mkTok 1 "options" 31 2 false; mkTok 2 "{" 31 11 false; mkTok 42 "packetx" 31 13 false; mkTok 4 "=" 32 4 false; mkTok 31 """it's""" 32 6 false; mkTok 41 ";" 32 12 false; mkTok 44 "// @lengthOf(" 33 4 true; mkTok 42 "charz" 34 4 false; mkTok 4 "=" 34 10 false; mkTok 10 "true" 35 4 false; mkTok 42 "options1" 35 9 false; mkTok 4 "=" 36 4 false; mkTok 31 """a\\""" 37 0 false; mkTok 41 ";" 38 0 false; mkTok 42 "leftPad" 39 0 false; mkTok 4 "=" 39 8 false; mkTok 10 "true" 39 9 false; mkTok 42 "uint8x" 39 14 false; mkTok 4 "=" 40 0 false; mkTok 15 "string" 40 1 false; mkTok 41 ";" 40 8 false; mkTok 44 "// a // b" 41 0 true; mkTok 44 "// c" 42 0 true; mkTok 3 "}" 43 0 false; mkTok 1 "options" 43 2 false; mkTok 2 "{" 44 4 false; mkTok 42 "Packet" 45 0 false; mkTok 4 "=" 46 4 false; mkTok 44 "//" 47 0 true; mkTok 44 (string_of_bytes [47; 47; 32; 230; 179; 168; 233; 135; 138]%N) 48 0 true; mkTok 31 """1""" 49 0 false; mkTok 44 "// packet A { u8 x, }" 49 4 true; mkTok 3 "}" 50 0 false; mkTok 44 "/// triple" 51 4 true; mkTok 35 "packet" 52 4 false; mkTok 44 "/// triple" 52 11 true; mkTok 42 "u128" 53 0 false; mkTok 2 "{" 53 4 false; mkTok 44 (string_of_bytes [47; 47; 32; 230; 179; 168; 233; 135; 138]%N) 53 5 true; mkTok 9 "@tag(" 54 0 false; mkTok 30 "3" 54 6 false; mkTok 6 ")" 54 8 false; mkTok 9 "@tag(" 54 9 false; mkTok 30 "42" 54 15 false; mkTok 6 ")" 54 18 false; mkTok 42 "BodyLength" 54 20 false; mkTok 7 "@lengthOf(" 55 4 false; mkTok 42 "Foo" 56 0 false; mkTok 6 ")" 56 4 false; mkTok 43 (string_of_bytes [96; 116; 97; 98; 9; 104; 101; 114; 101; 96]%N) 56 6 false; mkTok 40 "," 57 0 false; mkTok 12 "char[" 58 0 false; mkTok 30 "007" 58 6 false; mkTok 13 "]" 58 10 false; mkTok 42 "a1" 58 12 false; mkTok 43 "`two words`" 58 15 false; mkTok 40 "," 58 26 false; mkTok 36 "repeat" 58 27 false; mkTok 42 "x_y_z" 59 0 false; mkTok 42 "falsey" 59 6 false; mkTok 43 "`u8 x,`" 59 13 false; mkTok 40 "," 59 21 false; mkTok 21 "u16" 59 22 false; mkTok 42 "options1" 59 26 false; mkTok 40 "," 59 35 false; mkTok 14 "zchar[" 59 36 false; mkTok 30 "10" 59 43 false; mkTok 13 "]" 59 46 false; mkTok 42 "_x" 59 48 false; mkTok 40 "," 59 51 false; mkTok 38 "match" 60 0 false; mkTok 42 "i8i8" 60 6 false; mkTok 17 "as" 60 11 false; mkTok 42 "options1" 60 14 false; mkTok 2 "{" 60 23 false; mkTok 30 "3" 61 0 false; mkTok 39 ":" 61 2 false; mkTok 42 "msg_type" 61 4 false; mkTok 30 "65535" 61 13 false; mkTok 39 ":" 61 18 false; mkTok 42 "Pad" 62 0 false; mkTok 40 "," 62 4 false; mkTok 3 "}" 62 6 false; mkTok 44 "// a // b" 63 4 true; mkTok 40 "," 64 4 false; mkTok 3 "}" 64 6 false; mkTok 0 "<EOF>" 65 0 false] (mkPacket (mkPtok 35 "packet" 1 0 0) (Some (mkPtok 3 "}" 64 6 162)) [(DPacket (mkPacketDef (mkSpan (mkPtok 35 "packet" 1 0 0) (mkPtok 3 "}" 29 24 69)) None (mkPtok 35 "packet" 1 0 0) (mkPtok 42 "uint8x" 1 7 1) (mkPtok 2 "{" 1 14 2) [(mkFieldWithAttr (mkSpan (mkPtok 5 "@calculatedFrom(" 1 16 3) (mkPtok 40 "," 4 4 13)) [(FACalculatedFrom (mkSpan (mkPtok 5 "@calculatedFrom(" 1 16 3) (mkPtok 6 ")" 1 39 5)) (mkCalculatedFrom (mkSpan (mkPtok 5 "@calculatedFrom(" 1 16 3) (mkPtok 6 ")" 1 39 5)) (mkPtok 5 "@calculatedFrom(" 1 16 3) (mkPtok 31 (string_of_bytes [34; 97; 9; 98; 34]%N) 1 33 4) (mkPtok 6 ")" 1 39 5)))] (CheckSumField (mkSpan (mkPtok 14 "zchar[" 1 41 6) (mkPtok 40 "," 4 4 13)) (mkChecksumFieldDecl (mkSpan (mkPtok 14 "zchar[" 1 41 6) (mkPtok 40 "," 4 4 13)) (Some (TyFixed (mkSpan (mkPtok 14 "zchar[" 1 41 6) (mkPtok 13 "]" 2 3 8)) (mkFixedString (mkSpan (mkPtok 14 "zchar[" 1 41 6) (mkPtok 13 "]" 2 3 8)) (mkPtok 14 "zchar[" 1 41 6) (mkPtok 30 "42" 2 0 7) (mkPtok 13 "]" 2 3 8)))) (mkPtok 42 "Header" 2 4 9) (mkCalculatedFrom (mkSpan (mkPtok 5 "@calculatedFrom(" 3 0 10) (mkPtok 6 ")" 3 21 12)) (mkPtok 5 "@calculatedFrom(" 3 0 10) (mkPtok 31 """1""" 3 17 11) (mkPtok 6 ")" 3 21 12)) None (mkPtok 40 "," 4 4 13)))); (mkFieldWithAttr (mkSpan (mkPtok 14 "zchar[" 5 4 14) (mkPtok 40 "," 7 4 18)) [] (MetaField (mkSpan (mkPtok 14 "zchar[" 5 4 14) (mkPtok 40 "," 7 4 18)) None (mkMetaDecl (mkSpan (mkPtok 14 "zchar[" 5 4 14) (mkPtok 40 "," 7 4 18)) (TyFixed (mkSpan (mkPtok 14 "zchar[" 5 4 14) (mkPtok 13 "]" 6 3 16)) (mkFixedString (mkSpan (mkPtok 14 "zchar[" 5 4 14) (mkPtok 13 "]" 6 3 16)) (mkPtok 14 "zchar[" 5 4 14) (mkPtok 30 "10" 6 0 15) (mkPtok 13 "]" 6 3 16))) (mkPtok 42 "f32a" 6 5 17) None (mkPtok 40 "," 7 4 18)))); (mkFieldWithAttr (mkSpan (mkPtok 5 "@calculatedFrom(" 7 5 19) (mkPtok 40 "," 9 5 25)) [(FACalculatedFrom (mkSpan (mkPtok 5 "@calculatedFrom(" 7 5 19) (mkPtok 6 ")" 8 7 21)) (mkCalculatedFrom (mkSpan (mkPtok 5 "@calculatedFrom(" 7 5 19) (mkPtok 6 ")" 8 7 21)) (mkPtok 5 "@calculatedFrom(" 7 5 19) (mkPtok 31 """it's""" 8 0 20) (mkPtok 6 ")" 8 7 21)))] (MetaField (mkSpan (mkPtok 29 "f64" 8 8 22) (mkPtok 40 "," 9 5 25)) None (mkMetaDecl (mkSpan (mkPtok 29 "f64" 8 8 22) (mkPtok 40 "," 9 5 25)) (TyBasic (mkSpan (mkPtok 29 "f64" 8 8 22) (mkPtok 29 "f64" 8 8 22)) (mkBasicType (mkSpan (mkPtok 29 "f64" 8 8 22) (mkPtok 29 "f64" 8 8 22)) (mkPtok 29 "f64" 8 8 22))) (mkPtok 42 "i8i8" 9 0 24) None (mkPtok 40 "," 9 5 25)))); (mkFieldWithAttr (mkSpan (mkPtok 9 "@tag(" 9 7 26) (mkPtok 40 "," 13 4 33)) [(FATag (mkSpan (mkPtok 9 "@tag(" 9 7 26) (mkPtok 6 ")" 11 15 29)) (mkTagAttr (mkSpan (mkPtok 9 "@tag(" 9 7 26) (mkPtok 6 ")" 11 15 29)) (mkPtok 9 "@tag(" 9 7 26) (mkPtok 30 "0123456789" 11 4 28) (mkPtok 6 ")" 11 15 29)))] (MetaField (mkSpan (mkPtok 36 "repeat" 12 0 30) (mkPtok 40 "," 13 4 33)) (Some (mkPtok 36 "repeat" 12 0 30)) (mkMetaDecl (mkSpan (mkPtok 24 "int8" 12 7 31) (mkPtok 40 "," 13 4 33)) (TyBasic (mkSpan (mkPtok 24 "int8" 12 7 31) (mkPtok 24 "int8" 12 7 31)) (mkBasicType (mkSpan (mkPtok 24 "int8" 12 7 31) (mkPtok 24 "int8" 12 7 31)) (mkPtok 24 "int8" 12 7 31))) (mkPtok 42 "u128" 12 12 32) None (mkPtok 40 "," 13 4 33)))); (mkFieldWithAttr (mkSpan (mkPtok 15 "string" 14 4 34) (mkPtok 40 "," 15 4 36)) [] (MetaField (mkSpan (mkPtok 15 "string" 14 4 34) (mkPtok 40 "," 15 4 36)) None (mkMetaDecl (mkSpan (mkPtok 15 "string" 14 4 34) (mkPtok 40 "," 15 4 36)) (TyDynamic (mkSpan (mkPtok 15 "string" 14 4 34) (mkPtok 15 "string" 14 4 34)) (mkDynamicString (mkSpan (mkPtok 15 "string" 14 4 34) (mkPtok 15 "string" 14 4 34)) (mkPtok 15 "string" 14 4 34))) (mkPtok 42 "crc" 15 0 35) None (mkPtok 40 "," 15 4 36)))); (mkFieldWithAttr (mkSpan (mkPtok 9 "@tag(" 17 4 38) (mkPtok 40 "," 24 0 51)) [(FATag (mkSpan (mkPtok 9 "@tag(" 17 4 38) (mkPtok 6 ")" 19 6 41)) (mkTagAttr (mkSpan (mkPtok 9 "@tag(" 17 4 38) (mkPtok 6 ")" 19 6 41)) (mkPtok 9 "@tag(" 17 4 38) (mkPtok 30 "1" 19 4 40) (mkPtok 6 ")" 19 6 41))); (FACalculatedFrom (mkSpan (mkPtok 5 "@calculatedFrom(" 19 8 42) (mkPtok 6 ")" 20 4 44)) (mkCalculatedFrom (mkSpan (mkPtok 5 "@calculatedFrom(" 19 8 42) (mkPtok 6 ")" 20 4 44)) (mkPtok 5 "@calculatedFrom(" 19 8 42) (mkPtok 31 (string_of_bytes [34; 97; 9; 98; 34]%N) 19 25 43) (mkPtok 6 ")" 20 4 44))); (FALengthOf (mkSpan (mkPtok 7 "@lengthOf(" 20 6 45) (mkPtok 6 ")" 22 11 48)) (mkLengthOf (mkSpan (mkPtok 7 "@lengthOf(" 20 6 45) (mkPtok 6 ")" 22 11 48)) (mkPtok 7 "@lengthOf(" 20 6 45) (mkPtok 42 "Packet" 22 4 47) (mkPtok 6 ")" 22 11 48)))] (ObjectField (mkSpan (mkPtok 42 "o" 23 4 49) (mkPtok 40 "," 24 0 51)) None (mkPtok 42 "o" 23 4 49) None (Some (mkPtok 43 (string_of_bytes [96; 195; 169; 96]%N) 23 6 50)) (mkPtok 40 "," 24 0 51))); (mkFieldWithAttr (mkSpan (mkPtok 27 "i64" 25 4 52) (mkPtok 40 "," 26 0 54)) [] (MetaField (mkSpan (mkPtok 27 "i64" 25 4 52) (mkPtok 40 "," 26 0 54)) None (mkMetaDecl (mkSpan (mkPtok 27 "i64" 25 4 52) (mkPtok 40 "," 26 0 54)) (TyBasic (mkSpan (mkPtok 27 "i64" 25 4 52) (mkPtok 27 "i64" 25 4 52)) (mkBasicType (mkSpan (mkPtok 27 "i64" 25 4 52) (mkPtok 27 "i64" 25 4 52)) (mkPtok 27 "i64" 25 4 52))) (mkPtok 42 "i64_" 25 9 53) None (mkPtok 40 "," 26 0 54)))); (mkFieldWithAttr (mkSpan (mkPtok 14 "zchar[" 26 2 55) (mkPtok 40 "," 28 5 61)) [] (MetaField (mkSpan (mkPtok 14 "zchar[" 26 2 55) (mkPtok 40 "," 28 5 61)) None (mkMetaDecl (mkSpan (mkPtok 14 "zchar[" 26 2 55) (mkPtok 40 "," 28 5 61)) (TyFixed (mkSpan (mkPtok 14 "zchar[" 26 2 55) (mkPtok 13 "]" 28 0 59)) (mkFixedString (mkSpan (mkPtok 14 "zchar[" 26 2 55) (mkPtok 13 "]" 28 0 59)) (mkPtok 14 "zchar[" 26 2 55) (mkPtok 30 "4294967296" 27 0 57) (mkPtok 13 "]" 28 0 59))) (mkPtok 42 "len" 28 1 60) None (mkPtok 40 "," 28 5 61)))); (mkFieldWithAttr (mkSpan (mkPtok 42 "string_" 28 7 62) (mkPtok 40 "," 28 15 63)) [] (ObjectField (mkSpan (mkPtok 42 "string_" 28 7 62) (mkPtok 40 "," 28 15 63)) None (mkPtok 42 "string_" 28 7 62) None None (mkPtok 40 "," 28 15 63))); (mkFieldWithAttr (mkSpan (mkPtok 36 "repeat" 29 0 65) (mkPtok 40 "," 29 22 68)) [] (MetaField (mkSpan (mkPtok 36 "repeat" 29 0 65) (mkPtok 40 "," 29 22 68)) (Some (mkPtok 36 "repeat" 29 0 65)) (mkMetaDecl (mkSpan (mkPtok 25 "int16" 29 7 66) (mkPtok 40 "," 29 22 68)) (TyBasic (mkSpan (mkPtok 25 "int16" 29 7 66) (mkPtok 25 "int16" 29 7 66)) (mkBasicType (mkSpan (mkPtok 25 "int16" 29 7 66) (mkPtok 25 "int16" 29 7 66)) (mkPtok 25 "int16" 29 7 66))) (mkPtok 42 "matchKey" 29 13 67) None (mkPtok 40 "," 29 22 68))))] (mkPtok 3 "}" 29 24 69))); (DOption (mkOptionDef (mkSpan (mkPtok 1 "options" 29 26 70) (mkPtok 3 "}" 31 0 76)) (mkPtok 1 "options" 29 26 70) (mkPtok 2 "{" 29 34 71) [(mkOptionDecl (mkSpan (mkPtok 42 "crc" 30 0 72) (mkPtok 33 "'\x00'" 30 6 74)) (mkPtok 42 "crc" 30 0 72) (mkPtok 4 "=" 30 4 73) (VPaddingChar (mkSpan (mkPtok 33 "'\x00'" 30 6 74) (mkPtok 33 "'\x00'" 30 6 74)) (mkPtok 33 "'\x00'" 30 6 74)) None)] (mkPtok 3 "}" 31 0 76))); (DOption (mkOptionDef (mkSpan (mkPtok 1 "options" 31 2 77) (mkPtok 3 "}" 43 0 100)) (mkPtok 1 "options" 31 2 77) (mkPtok 2 "{" 31 11 78) [(mkOptionDecl (mkSpan (mkPtok 42 "packetx" 31 13 79) (mkPtok 41 ";" 32 12 82)) (mkPtok 42 "packetx" 31 13 79) (mkPtok 4 "=" 32 4 80) (VString (mkSpan (mkPtok 31 """it's""" 32 6 81) (mkPtok 31 """it's""" 32 6 81)) (mkPtok 31 """it's""" 32 6 81)) (Some (mkPtok 41 ";" 32 12 82))); (mkOptionDecl (mkSpan (mkPtok 42 "charz" 34 4 84) (mkPtok 10 "true" 35 4 86)) (mkPtok 42 "charz" 34 4 84) (mkPtok 4 "=" 34 10 85) (VTrue (mkSpan (mkPtok 10 "true" 35 4 86) (mkPtok 10 "true" 35 4 86)) (mkPtok 10 "true" 35 4 86)) None); (mkOptionDecl (mkSpan (mkPtok 42 "options1" 35 9 87) (mkPtok 41 ";" 38 0 90)) (mkPtok 42 "options1" 35 9 87) (mkPtok 4 "=" 36 4 88) (VString (mkSpan (mkPtok 31 """a\\""" 37 0 89) (mkPtok 31 """a\\""" 37 0 89)) (mkPtok 31 """a\\""" 37 0 89)) (Some (mkPtok 41 ";" 38 0 90))); (mkOptionDecl (mkSpan (mkPtok 42 "leftPad" 39 0 91) (mkPtok 10 "true" 39 9 93)) (mkPtok 42 "leftPad" 39 0 91) (mkPtok 4 "=" 39 8 92) (VTrue (mkSpan (mkPtok 10 "true" 39 9 93) (mkPtok 10 "true" 39 9 93)) (mkPtok 10 "true" 39 9 93)) None); (mkOptionDecl (mkSpan (mkPtok 42 "uint8x" 39 14 94) (mkPtok 41 ";" 40 8 97)) (mkPtok 42 "uint8x" 39 14 94) (mkPtok 4 "=" 40 0 95) (VType (mkSpan (mkPtok 15 "string" 40 1 96) (mkPtok 15 "string" 40 1 96)) (TyDynamic (mkSpan (mkPtok 15 "string" 40 1 96) (mkPtok 15 "string" 40 1 96)) (mkDynamicString (mkSpan (mkPtok 15 "string" 40 1 96) (mkPtok 15 "string" 40 1 96)) (mkPtok 15 "string" 40 1 96)))) (Some (mkPtok 41 ";" 40 8 97)))] (mkPtok 3 "}" 43 0 100))); (DOption (mkOptionDef (mkSpan (mkPtok 1 "options" 43 2 101) (mkPtok 3 "}" 50 0 109)) (mkPtok 1 "options" 43 2 101) (mkPtok 2 "{" 44 4 102) [(mkOptionDecl (mkSpan (mkPtok 42 "Packet" 45 0 103) (mkPtok 31 """1""" 49 0 107)) (mkPtok 42 "Packet" 45 0 103) (mkPtok 4 "=" 46 4 104) (VString (mkSpan (mkPtok 31 """1""" 49 0 107) (mkPtok 31 """1""" 49 0 107)) (mkPtok 31 """1""" 49 0 107)) None)] (mkPtok 3 "}" 50 0 109))); (DPacket (mkPacketDef (mkSpan (mkPtok 35 "packet" 52 4 111) (mkPtok 3 "}" 64 6 162)) None (mkPtok 35 "packet" 52 4 111) (mkPtok 42 "u128" 53 0 113) (mkPtok 2 "{" 53 4 114) [(mkFieldWithAttr (mkSpan (mkPtok 9 "@tag(" 54 0 116) (mkPtok 40 "," 57 0 127)) [(FATag (mkSpan (mkPtok 9 "@tag(" 54 0 116) (mkPtok 6 ")" 54 8 118)) (mkTagAttr (mkSpan (mkPtok 9 "@tag(" 54 0 116) (mkPtok 6 ")" 54 8 118)) (mkPtok 9 "@tag(" 54 0 116) (mkPtok 30 "3" 54 6 117) (mkPtok 6 ")" 54 8 118))); (FATag (mkSpan (mkPtok 9 "@tag(" 54 9 119) (mkPtok 6 ")" 54 18 121)) (mkTagAttr (mkSpan (mkPtok 9 "@tag(" 54 9 119) (mkPtok 6 ")" 54 18 121)) (mkPtok 9 "@tag(" 54 9 119) (mkPtok 30 "42" 54 15 120) (mkPtok 6 ")" 54 18 121)))] (LengthField (mkSpan (mkPtok 42 "BodyLength" 54 20 122) (mkPtok 40 "," 57 0 127)) (mkLengthFieldDecl (mkSpan (mkPtok 42 "BodyLength" 54 20 122) (mkPtok 40 "," 57 0 127)) None (mkPtok 42 "BodyLength" 54 20 122) (mkLengthOf (mkSpan (mkPtok 7 "@lengthOf(" 55 4 123) (mkPtok 6 ")" 56 4 125)) (mkPtok 7 "@lengthOf(" 55 4 123) (mkPtok 42 "Foo" 56 0 124) (mkPtok 6 ")" 56 4 125)) (Some (mkPtok 43 (string_of_bytes [96; 116; 97; 98; 9; 104; 101; 114; 101; 96]%N) 56 6 126)) (mkPtok 40 "," 57 0 127)))); (mkFieldWithAttr (mkSpan (mkPtok 12 "char[" 58 0 128) (mkPtok 40 "," 58 26 133)) [] (MetaField (mkSpan (mkPtok 12 "char[" 58 0 128) (mkPtok 40 "," 58 26 133)) None (mkMetaDecl (mkSpan (mkPtok 12 "char[" 58 0 128) (mkPtok 40 "," 58 26 133)) (TyFixed (mkSpan (mkPtok 12 "char[" 58 0 128) (mkPtok 13 "]" 58 10 130)) (mkFixedString (mkSpan (mkPtok 12 "char[" 58 0 128) (mkPtok 13 "]" 58 10 130)) (mkPtok 12 "char[" 58 0 128) (mkPtok 30 "007" 58 6 129) (mkPtok 13 "]" 58 10 130))) (mkPtok 42 "a1" 58 12 131) (Some (mkPtok 43 "`two words`" 58 15 132)) (mkPtok 40 "," 58 26 133)))); (mkFieldWithAttr (mkSpan (mkPtok 36 "repeat" 58 27 134) (mkPtok 40 "," 59 21 138)) [] (ObjectField (mkSpan (mkPtok 36 "repeat" 58 27 134) (mkPtok 40 "," 59 21 138)) (Some (mkPtok 36 "repeat" 58 27 134)) (mkPtok 42 "x_y_z" 59 0 135) (Some (mkPtok 42 "falsey" 59 6 136)) (Some (mkPtok 43 "`u8 x,`" 59 13 137)) (mkPtok 40 "," 59 21 138))); (mkFieldWithAttr (mkSpan (mkPtok 21 "u16" 59 22 139) (mkPtok 40 "," 59 35 141)) [] (MetaField (mkSpan (mkPtok 21 "u16" 59 22 139) (mkPtok 40 "," 59 35 141)) None (mkMetaDecl (mkSpan (mkPtok 21 "u16" 59 22 139) (mkPtok 40 "," 59 35 141)) (TyBasic (mkSpan (mkPtok 21 "u16" 59 22 139) (mkPtok 21 "u16" 59 22 139)) (mkBasicType (mkSpan (mkPtok 21 "u16" 59 22 139) (mkPtok 21 "u16" 59 22 139)) (mkPtok 21 "u16" 59 22 139))) (mkPtok 42 "options1" 59 26 140) None (mkPtok 40 "," 59 35 141)))); (mkFieldWithAttr (mkSpan (mkPtok 14 "zchar[" 59 36 142) (mkPtok 40 "," 59 51 146)) [] (MetaField (mkSpan (mkPtok 14 "zchar[" 59 36 142) (mkPtok 40 "," 59 51 146)) None (mkMetaDecl (mkSpan (mkPtok 14 "zchar[" 59 36 142) (mkPtok 40 "," 59 51 146)) (TyFixed (mkSpan (mkPtok 14 "zchar[" 59 36 142) (mkPtok 13 "]" 59 46 144)) (mkFixedString (mkSpan (mkPtok 14 "zchar[" 59 36 142) (mkPtok 13 "]" 59 46 144)) (mkPtok 14 "zchar[" 59 36 142) (mkPtok 30 "10" 59 43 143) (mkPtok 13 "]" 59 46 144))) (mkPtok 42 "_x" 59 48 145) None (mkPtok 40 "," 59 51 146)))); (mkFieldWithAttr (mkSpan (mkPtok 38 "match" 60 0 147) (mkPtok 40 "," 64 4 161)) [] (MatchField (mkSpan (mkPtok 38 "match" 60 0 147) (mkPtok 40 "," 64 4 161)) (mkMatchFieldDecl (mkSpan (mkPtok 38 "match" 60 0 147) (mkPtok 3 "}" 62 6 159)) (mkPtok 38 "match" 60 0 147) (mkPtok 42 "i8i8" 60 6 148) (mkPtok 17 "as" 60 11 149) (mkPtok 42 "options1" 60 14 150) (mkPtok 2 "{" 60 23 151) [(mkMatchPair (mkSpan (mkPtok 30 "3" 61 0 152) (mkPtok 42 "msg_type" 61 4 154)) (MKDigits (mkPtok 30 "3" 61 0 152)) (mkPtok 39 ":" 61 2 153) (mkPtok 42 "msg_type" 61 4 154) None); (mkMatchPair (mkSpan (mkPtok 30 "65535" 61 13 155) (mkPtok 40 "," 62 4 158)) (MKDigits (mkPtok 30 "65535" 61 13 155)) (mkPtok 39 ":" 61 18 156) (mkPtok 42 "Pad" 62 0 157) (Some (mkPtok 40 "," 62 4 158)))] (mkPtok 3 "}" 62 6 159)) (mkPtok 40 "," 64 4 161)))] (mkPtok 3 "}" 64 6 162)))])).
+Eval vm_compute in ("<<<M1207>>>" ++ check (runes_of_ascii "MetaData	_x// " ++ [27880; 37322]%N ++ runes_of_ascii "
+{// @lengthOf(
+} options
+{i64_ = ' ' ;calculatedFrom	= 00 uint8x
+=	i16;
+leftPad = '0'
+    }  packet
+// " ++ [128512]%N ++ runes_of_ascii " emoji
+// " ++ [128512]%N ++ runes_of_ascii " emoji
+As {
+@lengthOf(_x)@tag(
+007 ) @calculatedFrom( """ ++ [233]%N ++ runes_of_ascii "t" ++ [233]%N ++ runes_of_ascii """
+    ) zchar[
+0]f32a // trailing space 
+@calculatedFrom( ""1"")
+    `a\` ,
+} // " ++ [128512]%N ++ runes_of_ascii " emoji")).
+Eval vm_compute in ("<<<M1239>>>" ++ check (runes_of_ascii "  MetaData len {
+    u32
+    Pad`two words`// packet A { u8 x, }
+, } // c")).
+Eval vm_compute in ("<<<M1271>>>" ++ check (runes_of_ascii "root packet MetaDataX {
+/// triple
+//
+repeat f64 chars
+`// not a comment` , @tag( 4294967296 ) Pad
+,
+    u8  body,// `tick` ""quote"" 'q'
+u // c
+@lengthOf( i8i8	) `line1
+line2` , /// triple
+@lengthOf(
+int)
+@lengthOf(
+    pack )u ,	@tag(00)	repeat// a // b
+f32 crc `tab	here`
+    ,match body as
+    i64_ { // c
+0
+    : A ,
+    7 :a1 ,
+} , @calculatedFrom( ""`tick`"" )	@calculatedFrom( //x
+""a	b"" )	char[
+65535 ] asx
+@calculatedFrom(""" ++ [233]%N ++ runes_of_ascii "t" ++ [233]%N ++ runes_of_ascii """)`two words` // " ++ [128512]%N ++ runes_of_ascii " emoji
+, }
+")).
+Eval vm_compute in ("<<<M1303>>>" ++ check (runes_of_ascii "// trailing space 
+packet i8i8 //x
+{ @leftPad (
+'\x00'
+) @tag( 007)i32 _x
+`tab	here` ,
+    @tag( 00
+    )
+    repeat a1`" ++ [28040; 24687; 31867; 22411]%N ++ runes_of_ascii "` , _x /// triple
+`it's` // " ++ [27880; 37322]%N ++ runes_of_ascii "
+,// " ++ [128512]%N ++ runes_of_ascii " emoji
+@leftPad ( ' '
+    ) @calculatedFrom(
+    ""\n""
+) @leftPad ( '0'	) repeat f64 a1 , match _x as repeatCount { 3 :
+stringy, [	""abc""
+] :	u8x , 42 : packetx
+    ,""{,}"":charz
+    00:matchKey //	t
+,
+    } //
+,match crc as
+options1{ 65535
+    // packet A { u8 x, }
+    : x
+, 10 // " ++ [27880; 37322]%N ++ runes_of_ascii "
+:	_x
+//
+//
+, [ """ ++ [233]%N ++ runes_of_ascii "t" ++ [233]%N ++ runes_of_ascii """ , // @lengthOf(
+""{,}""	] :chars ,  } , // trailing space 
+x_y_z { i16	Packet , repeat chars `doc` , repeat u32	trueish,
+float // a // b
+o , }
+, repeat
+    int8 Packet, @lengthOf( // a // b
+leftPad // packet A { u8 x, }
+) repeat // packet A { u8 x, }
+rootA
+, int64
+    float // packet A { u8 x, }
+, }
+    root packet rootA{ char[ 00 ]len @calculatedFrom(""packet"" )
+, u32 float
+@calculatedFrom( """ ++ [233]%N ++ runes_of_ascii "t" ++ [233]%N ++ runes_of_ascii """ // c
+), } packet falsey{
+    x_y_z	@calculatedFrom( ""{,}"" ) `100% of %d` ,} packet Pad { @tag( 4294967296) u8
+int
+, }
+")).
+Eval vm_compute in ("<<<M1335>>>" ++ check (runes_of_ascii "root// @lengthOf(
+packet tag{ }
+packet //
+MetaDataX  { lengthOf T ,@lengthOf(
+roots )
+@lengthOf( MetaDataX
+) int32 Packet , @rightPad
+    ( ' ' ) i8i8 {	char Packet @lengthOf( crc )`{ , }` , }
+// trailing space 
+// @lengthOf(
+,
+    //	t
+    @calculatedFrom(	"""" ) repeat zchar[ 255
+]i64_
+,}
+")).
+Eval vm_compute in ("<<<M1367>>>" ++ check (runes_of_ascii "
+options
+    {
+    Logon
+= char[] ;
+    falsey
+// " ++ [27880; 37322]%N ++ runes_of_ascii "
+// 50% %s
+= false ; leftPad
+=	f32
+    }
+")).
 Eval vm_compute in ("<<<M1399>>>" ++ check (runes_of_ascii "
 
 ")).
 Eval vm_compute in ("<<<T1399>>>" ++ terms [mkTok 0 "<EOF>" 3 0 false] (mkPacket (mkPtok 0 "<EOF>" 3 0 0) None [])).
-Eval vm_compute in ("<<<M1431>>>" ++ check (runes_of_ascii "packet
-    options1 { repeat
-zchar[ 7
-]
-i8i8 ,_x { zchar[ 65535 ]i8i8 @lengthOf( uint8x ) ,match x_y_z as lengthOf
-    { //x
-[ 00// " ++ [27880; 37322]%N ++ runes_of_ascii "
-, 1// " ++ [27880; 37322]%N ++ runes_of_ascii "
-, 10 ,  ""\" ++ [233]%N ++ runes_of_ascii """ , 42 , 00
-] : Pad, [4294967296 ] : asx
-    0123456789:
-x_y_z ,
-}// trailing space 
-, zchar[
-0]float
-    ,}
-    , int16
-    T @lengthOf( charz ) `` , }MetaData pack {int64 //	t
-chars
-,  }")).
-Eval vm_compute in ("<<<M1463>>>" ++ check (runes_of_ascii "MetaData As { char[]calculatedFrom
-,x a1 , int16 //	t
-matchKey `two words` ,
-    }
-")).
-Eval vm_compute in ("<<<M1495>>>" ++ check (runes_of_ascii "options {Foo// trailing space 
-= // c
-""abc"" ; }
-")).
-Eval vm_compute in ("<<<M1527>>>" ++ check (runes_of_ascii "packet
+Eval vm_compute in ("<<<M1431>>>" ++ check (runes_of_ascii "root packet
+tag
+    //
+    {@calculatedFrom( """" ) string
+    i64_ @lengthOf( a1  ) , } MetaData u8x
+    {BodyLength
+    packetx
+`" ++ [28040; 24687; 31867; 22411]%N ++ runes_of_ascii "`,repeatCount//x
+tag, zchar[
+007 ] Foo, }options{ falsey=
+' ' x
+    = ""1""
+    roots //
+= u64 ;
+packetx
+=' ' ;
 // " ++ [27880; 37322]%N ++ runes_of_ascii "
-// packet A { u8 x, }
-f32a {  zchar[ 255]A	@lengthOf(// " ++ [128512]%N ++ runes_of_ascii " emoji
-calculatedFrom ) `{ , }`  , @calculatedFrom(
-""it's"" )
-string_ trueish `u8 x,` , } packet i64_ {
-@rightPad (
-' ' ) @rightPad
-()	f32// " ++ [128512]%N ++ runes_of_ascii " emoji
-T ,	int16
-u `a\` ,
-// trailing space 
 //	t
-string leftPad	,}
-")).
-Eval vm_compute in ("<<<M1559>>>" ++ check (runes_of_ascii "packet u8x{ u64 metadata`u8 x,`
-,@tag( 65535
-)
-asx MetaDataX
-    // a // b
-    ,
-zchar[
-42 ] o
-`// not a comment`	, repeat x len,
-@tag( 00
-) leftPad Packet `two words`,
-    // `tick` ""quote"" 'q'
-    } // @lengthOf(")).
-Eval vm_compute in ("<<<M1591>>>" ++ check (runes_of_ascii "MetaData rootA
-{//
-}
-")).
-Eval vm_compute in ("<<<M1623>>>" ++ check (runes_of_ascii "packet
-stringy
-{  i8
-    Foo@calculatedFrom( ""x y""
-    ) ,@rightPad('0'
-) @calculatedFrom( ""a\\"" )	@calculatedFrom( """")repeat a1
-{// packet A { u8 x, }
-uint64
-    body /// triple
-@calculatedFrom(""{,}""// @lengthOf(
-)// a // b
-, zchar[65535 ]tag `line1
-line2`,
-} , }root packet
-    Header
-    { zchar[ 4294967296 ]Foo,char[10] zchar
-@lengthOf(
-u128 )`it's` , @tag(3 )
-    zchar[ 65535 ] // " ++ [128512]%N ++ runes_of_ascii " emoji
-u@lengthOf(u )
-, }
-")).
-Eval vm_compute in ("<<<T1623>>>" ++ terms [mkTok 35 "packet" 1 0 false; mkTok 42 "stringy" 2 0 false; mkTok 2 "{" 3 0 false; mkTok 24 "i8" 3 3 false; mkTok 42 "Foo" 4 4 false; mkTok 5 "@calculatedFrom(" 4 7 false; mkTok 31 """x y""" 4 24 false; mkTok 6 ")" 5 4 false; mkTok 40 "," 5 6 false; mkTok 32 "@rightPad" 5 7 false; mkTok 8 "(" 5 16 false; mkTok 33 "'0'" 5 17 false; mkTok 6 ")" 6 0 false; mkTok 5 "@calculatedFrom(" 6 2 false; mkTok 31 """a\\""" 6 19 false; mkTok 6 ")" 6 25 false; mkTok 5 "@calculatedFrom(" 6 27 false; mkTok 31 """""" 6 44 false; mkTok 6 ")" 6 46 false; mkTok 36 "repeat" 6 47 false; mkTok 42 "a1" 6 54 false; mkTok 2 "{" 7 0 false; mkTok 44 "// packet A { u8 x, }" 7 1 true; mkTok 23 "uint64" 8 0 false; mkTok 42 "body" 9 4 false; mkTok 44 "/// triple" 9 9 true; mkTok 5 "@calculatedFrom(" 10 0 false; mkTok 31 """{,}""" 10 16 false; mkTok 44 "// @lengthOf(" 10 21 true; mkTok 6 ")" 11 0 false; mkTok 44 "// a // b" 11 1 true; mkTok 40 "," 12 0 false; mkTok 14 "zchar[" 12 2 false; mkTok 30 "65535" 12 8 false; mkTok 13 "]" 12 14 false; mkTok 42 "tag" 12 15 false; mkTok 43 (string_of_bytes [96; 108; 105; 110; 101; 49; 10; 108; 105; 110; 101; 50; 96]%N) 12 19 false; mkTok 40 "," 13 6 false; mkTok 3 "}" 14 0 false; mkTok 40 "," 14 2 false; mkTok 3 "}" 14 4 false; mkTok 34 "root" 14 5 false; mkTok 35 "packet" 14 10 false; mkTok 42 "Header" 15 4 false; mkTok 2 "{" 16 4 false; mkTok 14 "zchar[" 16 6 false; mkTok 30 "4294967296" 16 13 false; mkTok 13 "]" 16 24 false; mkTok 42 "Foo" 16 25 false; mkTok 40 "," 16 28 false; mkTok 12 "char[" 16 29 false; mkTok 30 "10" 16 34 false; mkTok 13 "]" 16 36 false; mkTok 42 "zchar" 16 38 false; mkTok 7 "@lengthOf(" 17 0 false; mkTok 42 "u128" 18 0 false; mkTok 6 ")" 18 5 false; mkTok 43 "`it's`" 18 6 false; mkTok 40 "," 18 13 false; mkTok 9 "@tag(" 18 15 false; mkTok 30 "3" 18 20 false; mkTok 6 ")" 18 22 false; mkTok 14 "zchar[" 19 4 false; mkTok 30 "65535" 19 11 false; mkTok 13 "]" 19 17 false; mkTok 44 (string_of_bytes [47; 47; 32; 240; 159; 152; 128; 32; 101; 109; 111; 106; 105]%N) 19 19 true; mkTok 42 "u" 20 0 false; mkTok 7 "@lengthOf(" 20 1 false; mkTok 42 "u" 20 11 false; mkTok 6 ")" 20 13 false; mkTok 40 "," 21 0 false; mkTok 3 "}" 21 2 false; mkTok 0 "<EOF>" 22 0 false] (mkPacket (mkPtok 35 "packet" 1 0 0) (Some (mkPtok 3 "}" 21 2 71)) [(DPacket (mkPacketDef (mkSpan (mkPtok 35 "packet" 1 0 0) (mkPtok 3 "}" 14 4 40)) None (mkPtok 35 "packet" 1 0 0) (mkPtok 42 "stringy" 2 0 1) (mkPtok 2 "{" 3 0 2) [(mkFieldWithAttr (mkSpan (mkPtok 24 "i8" 3 3 3) (mkPtok 40 "," 5 6 8)) [] (CheckSumField (mkSpan (mkPtok 24 "i8" 3 3 3) (mkPtok 40 "," 5 6 8)) (mkChecksumFieldDecl (mkSpan (mkPtok 24 "i8" 3 3 3) (mkPtok 40 "," 5 6 8)) (Some (TyBasic (mkSpan (mkPtok 24 "i8" 3 3 3) (mkPtok 24 "i8" 3 3 3)) (mkBasicType (mkSpan (mkPtok 24 "i8" 3 3 3) (mkPtok 24 "i8" 3 3 3)) (mkPtok 24 "i8" 3 3 3)))) (mkPtok 42 "Foo" 4 4 4) (mkCalculatedFrom (mkSpan (mkPtok 5 "@calculatedFrom(" 4 7 5) (mkPtok 6 ")" 5 4 7)) (mkPtok 5 "@calculatedFrom(" 4 7 5) (mkPtok 31 """x y""" 4 24 6) (mkPtok 6 ")" 5 4 7)) None (mkPtok 40 "," 5 6 8)))); (mkFieldWithAttr (mkSpan (mkPtok 32 "@rightPad" 5 7 9) (mkPtok 40 "," 14 2 39)) [(FAPadding (mkSpan (mkPtok 32 "@rightPad" 5 7 9) (mkPtok 6 ")" 6 0 12)) (mkPaddingAttr (mkSpan (mkPtok 32 "@rightPad" 5 7 9) (mkPtok 6 ")" 6 0 12)) (mkPtok 32 "@rightPad" 5 7 9) (mkPtok 8 "(" 5 16 10) (Some (mkPtok 33 "'0'" 5 17 11)) (mkPtok 6 ")" 6 0 12))); (FACalculatedFrom (mkSpan (mkPtok 5 "@calculatedFrom(" 6 2 13) (mkPtok 6 ")" 6 25 15)) (mkCalculatedFrom (mkSpan (mkPtok 5 "@calculatedFrom(" 6 2 13) (mkPtok 6 ")" 6 25 15)) (mkPtok 5 "@calculatedFrom(" 6 2 13) (mkPtok 31 """a\\""" 6 19 14) (mkPtok 6 ")" 6 25 15))); (FACalculatedFrom (mkSpan (mkPtok 5 "@calculatedFrom(" 6 27 16) (mkPtok 6 ")" 6 46 18)) (mkCalculatedFrom (mkSpan (mkPtok 5 "@calculatedFrom(" 6 27 16) (mkPtok 6 ")" 6 46 18)) (mkPtok 5 "@calculatedFrom(" 6 27 16) (mkPtok 31 """""" 6 44 17) (mkPtok 6 ")" 6 46 18)))] (InerObjectField (mkSpan (mkPtok 36 "repeat" 6 47 19) (mkPtok 40 "," 14 2 39)) (Some (mkPtok 36 "repeat" 6 47 19)) (InerObjectDecl (mkSpan (mkPtok 42 "a1" 6 54 20) (mkPtok 3 "}" 14 0 38)) (mkPtok 42 "a1" 6 54 20) (mkPtok 2 "{" 7 0 21) [(CheckSumField (mkSpan (mkPtok 23 "uint64" 8 0 23) (mkPtok 40 "," 12 0 31)) (mkChecksumFieldDecl (mkSpan (mkPtok 23 "uint64" 8 0 23) (mkPtok 40 "," 12 0 31)) (Some (TyBasic (mkSpan (mkPtok 23 "uint64" 8 0 23) (mkPtok 23 "uint64" 8 0 23)) (mkBasicType (mkSpan (mkPtok 23 "uint64" 8 0 23) (mkPtok 23 "uint64" 8 0 23)) (mkPtok 23 "uint64" 8 0 23)))) (mkPtok 42 "body" 9 4 24) (mkCalculatedFrom (mkSpan (mkPtok 5 "@calculatedFrom(" 10 0 26) (mkPtok 6 ")" 11 0 29)) (mkPtok 5 "@calculatedFrom(" 10 0 26) (mkPtok 31 """{,}""" 10 16 27) (mkPtok 6 ")" 11 0 29)) None (mkPtok 40 "," 12 0 31))); (MetaField (mkSpan (mkPtok 14 "zchar[" 12 2 32) (mkPtok 40 "," 13 6 37)) None (mkMetaDecl (mkSpan (mkPtok 14 "zchar[" 12 2 32) (mkPtok 40 "," 13 6 37)) (TyFixed (mkSpan (mkPtok 14 "zchar[" 12 2 32) (mkPtok 13 "]" 12 14 34)) (mkFixedString (mkSpan (mkPtok 14 "zchar[" 12 2 32) (mkPtok 13 "]" 12 14 34)) (mkPtok 14 "zchar[" 12 2 32) (mkPtok 30 "65535" 12 8 33) (mkPtok 13 "]" 12 14 34))) (mkPtok 42 "tag" 12 15 35) (Some (mkPtok 43 (string_of_bytes [96; 108; 105; 110; 101; 49; 10; 108; 105; 110; 101; 50; 96]%N) 12 19 36)) (mkPtok 40 "," 13 6 37)))] (mkPtok 3 "}" 14 0 38)) (mkPtok 40 "," 14 2 39)))] (mkPtok 3 "}" 14 4 40))); (DPacket (mkPacketDef (mkSpan (mkPtok 34 "root" 14 5 41) (mkPtok 3 "}" 21 2 71)) (Some (mkPtok 34 "root" 14 5 41)) (mkPtok 35 "packet" 14 10 42) (mkPtok 42 "Header" 15 4 43) (mkPtok 2 "{" 16 4 44) [(mkFieldWithAttr (mkSpan (mkPtok 14 "zchar[" 16 6 45) (mkPtok 40 "," 16 28 49)) [] (MetaField (mkSpan (mkPtok 14 "zchar[" 16 6 45) (mkPtok 40 "," 16 28 49)) None (mkMetaDecl (mkSpan (mkPtok 14 "zchar[" 16 6 45) (mkPtok 40 "," 16 28 49)) (TyFixed (mkSpan (mkPtok 14 "zchar[" 16 6 45) (mkPtok 13 "]" 16 24 47)) (mkFixedString (mkSpan (mkPtok 14 "zchar[" 16 6 45) (mkPtok 13 "]" 16 24 47)) (mkPtok 14 "zchar[" 16 6 45) (mkPtok 30 "4294967296" 16 13 46) (mkPtok 13 "]" 16 24 47))) (mkPtok 42 "Foo" 16 25 48) None (mkPtok 40 "," 16 28 49)))); (mkFieldWithAttr (mkSpan (mkPtok 12 "char[" 16 29 50) (mkPtok 40 "," 18 13 58)) [] (LengthField (mkSpan (mkPtok 12 "char[" 16 29 50) (mkPtok 40 "," 18 13 58)) (mkLengthFieldDecl (mkSpan (mkPtok 12 "char[" 16 29 50) (mkPtok 40 "," 18 13 58)) (Some (TyFixed (mkSpan (mkPtok 12 "char[" 16 29 50) (mkPtok 13 "]" 16 36 52)) (mkFixedString (mkSpan (mkPtok 12 "char[" 16 29 50) (mkPtok 13 "]" 16 36 52)) (mkPtok 12 "char[" 16 29 50) (mkPtok 30 "10" 16 34 51) (mkPtok 13 "]" 16 36 52)))) (mkPtok 42 "zchar" 16 38 53) (mkLengthOf (mkSpan (mkPtok 7 "@lengthOf(" 17 0 54) (mkPtok 6 ")" 18 5 56)) (mkPtok 7 "@lengthOf(" 17 0 54) (mkPtok 42 "u128" 18 0 55) (mkPtok 6 ")" 18 5 56)) (Some (mkPtok 43 "`it's`" 18 6 57)) (mkPtok 40 "," 18 13 58)))); (mkFieldWithAttr (mkSpan (mkPtok 9 "@tag(" 18 15 59) (mkPtok 40 "," 21 0 70)) [(FATag (mkSpan (mkPtok 9 "@tag(" 18 15 59) (mkPtok 6 ")" 18 22 61)) (mkTagAttr (mkSpan (mkPtok 9 "@tag(" 18 15 59) (mkPtok 6 ")" 18 22 61)) (mkPtok 9 "@tag(" 18 15 59) (mkPtok 30 "3" 18 20 60) (mkPtok 6 ")" 18 22 61)))] (LengthField (mkSpan (mkPtok 14 "zchar[" 19 4 62) (mkPtok 40 "," 21 0 70)) (mkLengthFieldDecl (mkSpan (mkPtok 14 "zchar[" 19 4 62) (mkPtok 40 "," 21 0 70)) (Some (TyFixed (mkSpan (mkPtok 14 "zchar[" 19 4 62) (mkPtok 13 "]" 19 17 64)) (mkFixedString (mkSpan (mkPtok 14 "zchar[" 19 4 62) (mkPtok 13 "]" 19 17 64)) (mkPtok 14 "zchar[" 19 4 62) (mkPtok 30 "65535" 19 11 63) (mkPtok 13 "]" 19 17 64)))) (mkPtok 42 "u" 20 0 66) (mkLengthOf (mkSpan (mkPtok 7 "@lengthOf(" 20 1 67) (mkPtok 6 ")" 20 13 69)) (mkPtok 7 "@lengthOf(" 20 1 67) (mkPtok 42 "u" 20 11 68) (mkPtok 6 ")" 20 13 69)) None (mkPtok 40 "," 21 0 70))))] (mkPtok 3 "}" 21 2 71)))])).
-Eval vm_compute in ("<<<M1655>>>" ++ check (runes_of_ascii "
-packet A
-    {
-// packet A { u8 x, }
+}")).
+Eval vm_compute in ("<<<M1463>>>" ++ check (runes_of_ascii "packet crc {int8  msg_type  @lengthOf( BodyLength ) `" ++ [28040; 24687; 31867; 22411]%N ++ runes_of_ascii "` ,
+// " ++ [128512]%N ++ runes_of_ascii " emoji
 //x
-} options{ } // @lengthOf(
-packet u  {
-@calculatedFrom(// " ++ [27880; 37322]%N ++ runes_of_ascii "
-""it's"") match
-/// triple
-//x
-packetx/// triple
-as chars{	255 : Packet
-[	""x y"",
-""1"" ]: Z9_,
-} // `tick` ""quote"" 'q'
-, @rightPad (
-' ' ) i8 chars , i32 calculatedFrom@lengthOf( x ) `it's`
-, //
-@tag( 0
+} options { T
+=i8 matchKey=
+""" ++ [128512]%N ++ runes_of_ascii """ roots=
+    ' ' ;
+} packet
+Header { @calculatedFrom( ""x y"" // trailing space 
+)@tag(
+    0123456789 //	t
+)// 50% %s
+float32 matchKey`crlf
+line`	,  string
+    body , repeat o
+crc , match matchKey as x { [ 42
+    ]:charz, [""a	b"", """ ++ [233]%N ++ runes_of_ascii "t" ++ [233]%N ++ runes_of_ascii """ ,0 , 7 , 00 ,65535, ""packet"" ]: x_y_z  ,
+    4294967296 :
+// @lengthOf(
+// 50% %s
+_x ,7  : msg_type//x
+, 007 :
+Pad , }
+, } packet x { repeat
+string Logon`
+`
+, @tag( 007) f64 repeatCount@lengthOf(
+uint8x ), Z9_{ repeat leftPad A,} , @leftPad( )
+_x Pad ,
+@tag( 00// @lengthOf(
 )
-    a1 { repeat string_  u`it's`, matchKey
-    @calculatedFrom( ""1"" ), },  rootA {
-    // `tick` ""quote"" 'q'
-    packetx@calculatedFrom(
-""a\""b""
-    )
-`crlf
+    match asx
+    as len { ""a\""b"" : lengthOf //	t
+, } , uint8x `crlf
 line`
 ,
-string// " ++ [128512]%N ++ runes_of_ascii " emoji
-float ,  u128
-    _x
-,// trailing space 
-u64 zchar ,  } , @leftPad ( '\x00') @lengthOf( leftPad )
-// a // b
-// `tick` ""quote"" 'q'
-a1
+    zchar[ 7
+    ] Pad // `tick` ""quote"" 'q'
+, @rightPad
+('0' ) string packetx
+// " ++ [128512]%N ++ runes_of_ascii " emoji
+// " ++ [128512]%N ++ runes_of_ascii " emoji
 @calculatedFrom(
-    ""a\""b"" )`doc` ,}packet lengthOf{ @calculatedFrom(	""packet""
-) char[] tag , char[ 42] tag
-    @calculatedFrom( ""a\\""  ) , repeat options1{ As {uint32 u @calculatedFrom(
-    """ ++ [233]%N ++ runes_of_ascii "t" ++ [233]%N ++ runes_of_ascii """ ) , },  trueish stringy ,	repeat	asx
-{ i64_ Foo
-`" ++ [28040; 24687; 31867; 22411]%N ++ runes_of_ascii "` ,
-}
-    , } ,// trailing space 
-float64 a1 @lengthOf( msg_type )//
-, //
-MetaDataX string_ , }
-MetaData Header //	t
-{pack x_y_z, } // c")).
-Eval vm_compute in ("<<<M1687>>>" ++ check (runes_of_ascii "
+    ""it's"" )
+`tab	here`, repeat stringy { zchar[
+1	]	crc
+    `" ++ [28040; 24687; 31867; 22411]%N ++ runes_of_ascii "` ,
+o _x
+    `line1
+line2`, } ,}")).
+Eval vm_compute in ("<<<M1495>>>" ++ check (runes_of_ascii "
 ")).
-Eval vm_compute in ("<<<M1719>>>" ++ check (runes_of_ascii "
-MetaData u128
-    { }
-    // a // b
-    packet
-options1 { @rightPad
-    (// trailing space 
-)
-@leftPad ( ) match As as tag
-    {	""{,}""
-    // c
-    :a1  , }
-, string
-body @calculatedFrom( ""it's"" ) `tab	here`, @calculatedFrom( ""\" ++ [233]%N ++ runes_of_ascii """ ) //x
-@lengthOf( body )@lengthOf(	options1
-) f64  u8x , }
+Eval vm_compute in ("<<<M1527>>>" ++ check (runes_of_ascii "options
+    { BodyLength = //	t
+u16	Header =
+    // " ++ [27880; 37322]%N ++ runes_of_ascii "
+    f64 ;
+    u128= true ;  } // 50% %s
+options {
+// a // b
 //	t
-// trailing space 
-root
-    packet roots{@lengthOf( packetx )u16 As @calculatedFrom(
-    """ ++ [128512]%N ++ runes_of_ascii """ ), char[
-    007 ]
-    tag /// triple
-, float , }
-")).
-Eval vm_compute in ("<<<M1751>>>" ++ check (runes_of_ascii "// a // b
-packet
-float
-    { }")).
-Eval vm_compute in ("<<<M1783>>>" ++ check (runes_of_ascii "
+body =int32// " ++ [128512]%N ++ runes_of_ascii " emoji
+} root packet Logon
+{
+/// triple
+// 50% %s
+@calculatedFrom(	""a	b""
+    // " ++ [27880; 37322]%N ++ runes_of_ascii "
+    )
+@lengthOf( // @lengthOf(
+_x)  @tag(1 ) leftPad
+`it's`,
+// packet A { u8 x, }
+// " ++ [27880; 37322]%N ++ runes_of_ascii "
+uint16 // 50% %s
+int ,
+}")).
+Eval vm_compute in ("<<<M1559>>>" ++ check (runes_of_ascii "
+packet BodyLength {	@leftPad (
+' '
+) repeat
+    a1 `line1
+line2`, repeat string // c
+zchar // 50% %s
+,} MetaData options1 { // c
+} // a // b")).
+Eval vm_compute in ("<<<M1591>>>" ++ check (@nil rune)).
+Eval vm_compute in ("<<<M1623>>>" ++ check (runes_of_ascii "
 
 ")).
-Eval vm_compute in ("<<<M1815>>>" ++ check (runes_of_ascii "root packet metadata
-    // a // b
-    { repeat
-char[]	crc `" ++ [233]%N ++ runes_of_ascii "` ,i8 crc , // c
-@calculatedFrom(/// triple
-""a\""b"" ) _x
-{
-    //	t
-    crc
-uint8x, Logon repeatCount
-    , }  ,
-@tag( 3 )
-    repeat
-    float64 len`tab	here`	,} packet crc {
-f32a Z9_
-    `it's`,@calculatedFrom(
-""a	b"" )
-    i64
-x_y_z @calculatedFrom( ""\" ++ [233]%N ++ runes_of_ascii """ ) ,
-i16 x_y_z `say ""hi""` ,
-} packet Header
-    {// " ++ [27880; 37322]%N ++ runes_of_ascii "
-u _x //	t
-`it's`
-,
-@rightPad
-    // " ++ [27880; 37322]%N ++ runes_of_ascii "
-    ('0' ) uint64 packetx	`doc` , }")).
-Eval vm_compute in ("<<<M1847>>>" ++ check (runes_of_ascii "// trailing space 
-MetaData msg_type // `tick` ""quote"" 'q'
-{ body	crc`two words` , }
-    packet  stringy {match x_y_z as rootA// trailing space 
-{0 : string_ [ """ ++ [233]%N ++ runes_of_ascii "t" ++ [233]%N ++ runes_of_ascii """ , ""x y""
-    // c
-    ,
-""\" ++ [233]%N ++ runes_of_ascii """	, ""// no comment"" ] // trailing space 
-:
-    x_y_z ,// packet A { u8 x, }
-[ 1  ,
-    255 // trailing space 
-,
-    /// triple
-    """ ++ [128512]%N ++ runes_of_ascii """,
-""x y"" ] :a1
-    ""// no comment""
-:
-    MetaDataX 42 :calculatedFrom ,
-0123456789: BodyLength } , }
-options  { body	=char[]} MetaData len
+Eval vm_compute in ("<<<T1623>>>" ++ terms [mkTok 0 "<EOF>" 3 0 false] (mkPacket (mkPtok 0 "<EOF>" 3 0 0) None [])).
+Eval vm_compute in ("<<<M1655>>>" ++ check (runes_of_ascii "
+packet
+// a // b
+/// triple
+Foo {
+    repeat	char[] string_
     //
-    { Pad BodyLength  , // @lengthOf(
-Foo trueish`` , i64_	T `a\` ,  zchar[ 007 ]// a // b
-T
-    `line1
-line2` ,	zchar[
-007 ]i64_
-`// not a comment` ,
-} // packet A { u8 x, }")).
-Eval vm_compute in ("<<<T1847>>>" ++ terms [mkTok 44 "// trailing space " 1 0 true; mkTok 37 "MetaData" 2 0 false; mkTok 42 "msg_type" 2 9 false; mkTok 44 "// `tick` ""quote"" 'q'" 2 18 true; mkTok 2 "{" 3 0 false; mkTok 42 "body" 3 2 false; mkTok 42 "crc" 3 7 false; mkTok 43 "`two words`" 3 10 false; mkTok 40 "," 3 22 false; mkTok 3 "}" 3 24 false; mkTok 35 "packet" 4 4 false; mkTok 42 "stringy" 4 12 false; mkTok 2 "{" 4 20 false; mkTok 38 "match" 4 21 false; mkTok 42 "x_y_z" 4 27 false; mkTok 17 "as" 4 33 false; mkTok 42 "rootA" 4 36 false; mkTok 44 "// trailing space " 4 41 true; mkTok 2 "{" 5 0 false; mkTok 30 "0" 5 1 false; mkTok 39 ":" 5 3 false; mkTok 42 "string_" 5 5 false; mkTok 18 "[" 5 13 false; mkTok 31 (string_of_bytes [34; 195; 169; 116; 195; 169; 34]%N) 5 15 false; mkTok 40 "," 5 21 false; mkTok 31 """x y""" 5 23 false; mkTok 44 "// c" 6 4 true; mkTok 40 "," 7 4 false; mkTok 31 (string_of_bytes [34; 92; 195; 169; 34]%N) 8 0 false; mkTok 40 "," 8 5 false; mkTok 31 """// no comment""" 8 7 false; mkTok 13 "]" 8 23 false; mkTok 44 "// trailing space " 8 25 true; mkTok 39 ":" 9 0 false; mkTok 42 "x_y_z" 10 4 false; mkTok 40 "," 10 10 false; mkTok 44 "// packet A { u8 x, }" 10 11 true; mkTok 18 "[" 11 0 false; mkTok 30 "1" 11 2 false; mkTok 40 "," 11 5 false; mkTok 30 "255" 12 4 false; mkTok 44 "// trailing space " 12 8 true; mkTok 40 "," 13 0 false; mkTok 44 "/// triple" 14 4 true; mkTok 31 (string_of_bytes [34; 240; 159; 152; 128; 34]%N) 15 4 false; mkTok 40 "," 15 7 false; mkTok 31 """x y""" 16 0 false; mkTok 13 "]" 16 6 false; mkTok 39 ":" 16 8 false; mkTok 42 "a1" 16 9 false; mkTok 31 """// no comment""" 17 4 false; mkTok 39 ":" 18 0 false; mkTok 42 "MetaDataX" 19 4 false; mkTok 30 "42" 19 14 false; mkTok 39 ":" 19 17 false; mkTok 42 "calculatedFrom" 19 18 false; mkTok 40 "," 19 33 false; mkTok 30 "0123456789" 20 0 false; mkTok 39 ":" 20 10 false; mkTok 42 "BodyLength" 20 12 false; mkTok 3 "}" 20 23 false; mkTok 40 "," 20 25 false; mkTok 3 "}" 20 27 false; mkTok 1 "options" 21 0 false; mkTok 2 "{" 21 9 false; mkTok 42 "body" 21 11 false; mkTok 4 "=" 21 16 false; mkTok 16 "char[]" 21 17 false; mkTok 3 "}" 21 23 false; mkTok 37 "MetaData" 21 25 false; mkTok 42 "len" 21 34 false; mkTok 44 "//" 22 4 true; mkTok 2 "{" 23 4 false; mkTok 42 "Pad" 23 6 false; mkTok 42 "BodyLength" 23 10 false; mkTok 40 "," 23 22 false; mkTok 44 "// @lengthOf(" 23 24 true; mkTok 42 "Foo" 24 0 false; mkTok 42 "trueish" 24 4 false; mkTok 43 "``" 24 11 false; mkTok 40 "," 24 14 false; mkTok 42 "i64_" 24 16 false; mkTok 42 "T" 24 21 false; mkTok 43 "`a\`" 24 23 false; mkTok 40 "," 24 28 false; mkTok 14 "zchar[" 24 31 false; mkTok 30 "007" 24 38 false; mkTok 13 "]" 24 42 false; mkTok 44 "// a // b" 24 43 true; mkTok 42 "T" 25 0 false; mkTok 43 (string_of_bytes [96; 108; 105; 110; 101; 49; 10; 108; 105; 110; 101; 50; 96]%N) 26 4 false; mkTok 40 "," 27 7 false; mkTok 14 "zchar[" 27 9 false; mkTok 30 "007" 28 0 false; mkTok 13 "]" 28 4 false; mkTok 42 "i64_" 28 5 false; mkTok 43 "`// not a comment`" 29 0 false; mkTok 40 "," 29 19 false; mkTok 3 "}" 30 0 false; mkTok 44 "// packet A { u8 x, }" 30 2 true; mkTok 0 "<EOF>" 30 23 false] (mkPacket (mkPtok 37 "MetaData" 2 0 1) (Some (mkPtok 3 "}" 30 0 98)) [(DMeta (mkMetaDef (mkSpan (mkPtok 37 "MetaData" 2 0 1) (mkPtok 3 "}" 3 24 9)) (mkPtok 37 "MetaData" 2 0 1) (mkPtok 42 "msg_type" 2 9 2) (mkPtok 2 "{" 3 0 4) [(MIRef (mkRefMetaDecl (mkSpan (mkPtok 42 "body" 3 2 5) (mkPtok 40 "," 3 22 8)) (mkPtok 42 "body" 3 2 5) (mkPtok 42 "crc" 3 7 6) (Some (mkPtok 43 "`two words`" 3 10 7)) (mkPtok 40 "," 3 22 8)))] (mkPtok 3 "}" 3 24 9))); (DPacket (mkPacketDef (mkSpan (mkPtok 35 "packet" 4 4 10) (mkPtok 3 "}" 20 27 62)) None (mkPtok 35 "packet" 4 4 10) (mkPtok 42 "stringy" 4 12 11) (mkPtok 2 "{" 4 20 12) [(mkFieldWithAttr (mkSpan (mkPtok 38 "match" 4 21 13) (mkPtok 40 "," 20 25 61)) [] (MatchField (mkSpan (mkPtok 38 "match" 4 21 13) (mkPtok 40 "," 20 25 61)) (mkMatchFieldDecl (mkSpan (mkPtok 38 "match" 4 21 13) (mkPtok 3 "}" 20 23 60)) (mkPtok 38 "match" 4 21 13) (mkPtok 42 "x_y_z" 4 27 14) (mkPtok 17 "as" 4 33 15) (mkPtok 42 "rootA" 4 36 16) (mkPtok 2 "{" 5 0 18) [(mkMatchPair (mkSpan (mkPtok 30 "0" 5 1 19) (mkPtok 42 "string_" 5 5 21)) (MKDigits (mkPtok 30 "0" 5 1 19)) (mkPtok 39 ":" 5 3 20) (mkPtok 42 "string_" 5 5 21) None); (mkMatchPair (mkSpan (mkPtok 18 "[" 5 13 22) (mkPtok 40 "," 10 10 35)) (MKList (mkKeyList (mkSpan (mkPtok 18 "[" 5 13 22) (mkPtok 13 "]" 8 23 31)) (mkPtok 18 "[" 5 13 22) (mkPtok 31 (string_of_bytes [34; 195; 169; 116; 195; 169; 34]%N) 5 15 23) [((mkPtok 40 "," 5 21 24), (mkPtok 31 """x y""" 5 23 25)); ((mkPtok 40 "," 7 4 27), (mkPtok 31 (string_of_bytes [34; 92; 195; 169; 34]%N) 8 0 28)); ((mkPtok 40 "," 8 5 29), (mkPtok 31 """// no comment""" 8 7 30))] (mkPtok 13 "]" 8 23 31))) (mkPtok 39 ":" 9 0 33) (mkPtok 42 "x_y_z" 10 4 34) (Some (mkPtok 40 "," 10 10 35))); (mkMatchPair (mkSpan (mkPtok 18 "[" 11 0 37) (mkPtok 42 "a1" 16 9 49)) (MKList (mkKeyList (mkSpan (mkPtok 18 "[" 11 0 37) (mkPtok 13 "]" 16 6 47)) (mkPtok 18 "[" 11 0 37) (mkPtok 30 "1" 11 2 38) [((mkPtok 40 "," 11 5 39), (mkPtok 30 "255" 12 4 40)); ((mkPtok 40 "," 13 0 42), (mkPtok 31 (string_of_bytes [34; 240; 159; 152; 128; 34]%N) 15 4 44)); ((mkPtok 40 "," 15 7 45), (mkPtok 31 """x y""" 16 0 46))] (mkPtok 13 "]" 16 6 47))) (mkPtok 39 ":" 16 8 48) (mkPtok 42 "a1" 16 9 49) None); (mkMatchPair (mkSpan (mkPtok 31 """// no comment""" 17 4 50) (mkPtok 42 "MetaDataX" 19 4 52)) (MKString (mkPtok 31 """// no comment""" 17 4 50)) (mkPtok 39 ":" 18 0 51) (mkPtok 42 "MetaDataX" 19 4 52) None); (mkMatchPair (mkSpan (mkPtok 30 "42" 19 14 53) (mkPtok 40 "," 19 33 56)) (MKDigits (mkPtok 30 "42" 19 14 53)) (mkPtok 39 ":" 19 17 54) (mkPtok 42 "calculatedFrom" 19 18 55) (Some (mkPtok 40 "," 19 33 56))); (mkMatchPair (mkSpan (mkPtok 30 "0123456789" 20 0 57) (mkPtok 42 "BodyLength" 20 12 59)) (MKDigits (mkPtok 30 "0123456789" 20 0 57)) (mkPtok 39 ":" 20 10 58) (mkPtok 42 "BodyLength" 20 12 59) None)] (mkPtok 3 "}" 20 23 60)) (mkPtok 40 "," 20 25 61)))] (mkPtok 3 "}" 20 27 62))); (DOption (mkOptionDef (mkSpan (mkPtok 1 "options" 21 0 63) (mkPtok 3 "}" 21 23 68)) (mkPtok 1 "options" 21 0 63) (mkPtok 2 "{" 21 9 64) [(mkOptionDecl (mkSpan (mkPtok 42 "body" 21 11 65) (mkPtok 16 "char[]" 21 17 67)) (mkPtok 42 "body" 21 11 65) (mkPtok 4 "=" 21 16 66) (VType (mkSpan (mkPtok 16 "char[]" 21 17 67) (mkPtok 16 "char[]" 21 17 67)) (TyDynamic (mkSpan (mkPtok 16 "char[]" 21 17 67) (mkPtok 16 "char[]" 21 17 67)) (mkDynamicString (mkSpan (mkPtok 16 "char[]" 21 17 67) (mkPtok 16 "char[]" 21 17 67)) (mkPtok 16 "char[]" 21 17 67)))) None)] (mkPtok 3 "}" 21 23 68))); (DMeta (mkMetaDef (mkSpan (mkPtok 37 "MetaData" 21 25 69) (mkPtok 3 "}" 30 0 98)) (mkPtok 37 "MetaData" 21 25 69) (mkPtok 42 "len" 21 34 70) (mkPtok 2 "{" 23 4 72) [(MIRef (mkRefMetaDecl (mkSpan (mkPtok 42 "Pad" 23 6 73) (mkPtok 40 "," 23 22 75)) (mkPtok 42 "Pad" 23 6 73) (mkPtok 42 "BodyLength" 23 10 74) None (mkPtok 40 "," 23 22 75))); (MIRef (mkRefMetaDecl (mkSpan (mkPtok 42 "Foo" 24 0 77) (mkPtok 40 "," 24 14 80)) (mkPtok 42 "Foo" 24 0 77) (mkPtok 42 "trueish" 24 4 78) (Some (mkPtok 43 "``" 24 11 79)) (mkPtok 40 "," 24 14 80))); (MIRef (mkRefMetaDecl (mkSpan (mkPtok 42 "i64_" 24 16 81) (mkPtok 40 "," 24 28 84)) (mkPtok 42 "i64_" 24 16 81) (mkPtok 42 "T" 24 21 82) (Some (mkPtok 43 "`a\`" 24 23 83)) (mkPtok 40 "," 24 28 84))); (MIDecl (mkMetaDecl (mkSpan (mkPtok 14 "zchar[" 24 31 85) (mkPtok 40 "," 27 7 91)) (TyFixed (mkSpan (mkPtok 14 "zchar[" 24 31 85) (mkPtok 13 "]" 24 42 87)) (mkFixedString (mkSpan (mkPtok 14 "zchar[" 24 31 85) (mkPtok 13 "]" 24 42 87)) (mkPtok 14 "zchar[" 24 31 85) (mkPtok 30 "007" 24 38 86) (mkPtok 13 "]" 24 42 87))) (mkPtok 42 "T" 25 0 89) (Some (mkPtok 43 (string_of_bytes [96; 108; 105; 110; 101; 49; 10; 108; 105; 110; 101; 50; 96]%N) 26 4 90)) (mkPtok 40 "," 27 7 91))); (MIDecl (mkMetaDecl (mkSpan (mkPtok 14 "zchar[" 27 9 92) (mkPtok 40 "," 29 19 97)) (TyFixed (mkSpan (mkPtok 14 "zchar[" 27 9 92) (mkPtok 13 "]" 28 4 94)) (mkFixedString (mkSpan (mkPtok 14 "zchar[" 27 9 92) (mkPtok 13 "]" 28 4 94)) (mkPtok 14 "zchar[" 27 9 92) (mkPtok 30 "007" 28 0 93) (mkPtok 13 "]" 28 4 94))) (mkPtok 42 "i64_" 28 5 95) (Some (mkPtok 43 "`// not a comment`" 29 0 96)) (mkPtok 40 "," 29 19 97)))] (mkPtok 3 "}" 30 0 98)))])).
-Eval vm_compute in ("<<<M1879>>>" ++ check (runes_of_ascii "MetaData options1 {
-uint8x Logon
-`u8 x,`
-//x
-//
-, } packet pack
-// @lengthOf(
+    ,}")).
+Eval vm_compute in ("<<<M1687>>>" ++ check (runes_of_ascii "packet _x { @leftPad// c
+( '0' ) crc ,  chars
+    , }
+packet chars { match
+    // @lengthOf(
+    stringy	as	BodyLength // packet A { u8 x, }
+{  65535 :// 50% %s
+f32a	,}	,
 // " ++ [27880; 37322]%N ++ runes_of_ascii "
-{	Header
-`{ , }` ,
-@lengthOf( a1 ) int32 u8x @calculatedFrom( ""CRC32"" ) , falsey {len i64_,} //	t
+// @lengthOf(
+@lengthOf( asx) i32 lengthOf
+@lengthOf( rootA)
+    , // a // b
+_x @lengthOf( charz
+    ) ,// `tick` ""quote"" 'q'
+charz o ,} MetaData Pad
+{u16 calculatedFrom , Packet// `tick` ""quote"" 'q'
+crc
 ,
-@calculatedFrom( ""\n""
-    )leftPad
-{
-    // `tick` ""quote"" 'q'
-    repeat
-    u`` ,} //	t
-, @tag( 007 )
-char[]  roots @calculatedFrom( ""{,}""  ) ,
-char[]  u
-    @calculatedFrom(""a\\"" ) `" ++ [28040; 24687; 31867; 22411]%N ++ runes_of_ascii "` ,
     }
+packet f32a{
+@lengthOf(f32a ) char u ,
+repeatCount/// triple
+trueish `// not a comment` , match zchar as metadata {[ 0123456789
+, ""abc""
+] :
+    // " ++ [27880; 37322]%N ++ runes_of_ascii "
+    body
+    ["""" ,
+""\n"" , 00 ,"""" , 00
+,42
+, """ ++ [233]%N ++ runes_of_ascii "t" ++ [233]%N ++ runes_of_ascii """
+, 0123456789 ] :Foo
+,	[  007
+    // trailing space 
+    , 007 , 4294967296 ,  7 ] :
+    body,
+    007
+:asx , } // packet A { u8 x, }
+, }
 ")).
-Eval vm_compute in ("<<<M1911>>>" ++ check (runes_of_ascii "root  packet repeatCount { @leftPad
-    ( '0' ) crc i8i8 //	t
-`say ""hi""` ,
-    }root packet x_y_z { @leftPad
-(
-' ' ) //x
-float
-`` ,
-    @rightPad (
-    '0' )  len
-    @calculatedFrom( """ ++ [233]%N ++ runes_of_ascii "t" ++ [233]%N ++ runes_of_ascii """ )
-    , } packet
-    rootA
-{ repeat x_y_z metadata `
-` , string_ , } 	 ")).
-Eval vm_compute in ("<<<M1943>>>" ++ check (runes_of_ascii "packet  len { i16 u8x ,	} MetaData Header { // @lengthOf(
-zchar[  4294967296
-    ]  string_ ,
-int16 zchar,
-float32 Header ,
+Eval vm_compute in ("<<<M1719>>>" ++ check (runes_of_ascii "
+packet falsey {
+packetx
+i64_`tab	here` , @calculatedFrom( ""packet""
+) @lengthOf(// 50% %s
+Packet
+)	string
+_x @calculatedFrom( ""packet""// a // b
+) , } MetaData  u8x {
+}")).
+Eval vm_compute in ("<<<M1751>>>" ++ check (runes_of_ascii "packet roots
+{x @lengthOf( tag )
+`line1
+line2`  , match i8i8
+as leftPad{
+[ """ ++ [128512]%N ++ runes_of_ascii """
+,""\" ++ [233]%N ++ runes_of_ascii """ ]
+    // trailing space 
+    :BodyLength ,
+[ 4294967296,
+    //	t
+    ""\" ++ [233]%N ++ runes_of_ascii """ ]	:
+x_y_z ""{,}""
+:
+u8x , ""`tick`"" : x
+// trailing space 
+//x
+, } ,@calculatedFrom( ""abc"")matchKey {  match string_
+    as leftPad { ""{,}"" :	a1 0123456789
+:charz [ ""a\\""
+, ""it's""
+,
+""1"" , // @lengthOf(
+0123456789
+, """" ] //x
+: uint8x,	[  ""{,}""
+,
+    """ ++ [128512]%N ++ runes_of_ascii """
+    , 1
+    , 7 ]	:
+    // trailing space 
+    As ,
+    [ """ ++ [28040; 24687]%N ++ runes_of_ascii """] : // 50% %s
+tag ""// no comment"" :msg_type
+    // @lengthOf(
+    , }
+    , } ,
+    //x
+    @lengthOf( a1 ) uint32 tag
+, repeat char
+    // `tick` ""quote"" 'q'
+    trueish
+`two words` ,	i8 rootA	,@rightPad (
+'0' ) @calculatedFrom(""x y"" )
+zchar[ 1
+    // @lengthOf(
+    ] metadata @calculatedFrom(""" ++ [28040; 24687]%N ++ runes_of_ascii """
+) `// not a comment` ,
+    @calculatedFrom( ""abc"" ) float32  x_y_z , @lengthOf( falsey )char[]  f32a
+    , } options {
+i8i8=""" ++ [128512]%N ++ runes_of_ascii """ ; a1 =
+true ; len =
+""" ++ [128512]%N ++ runes_of_ascii """ pack// `tick` ""quote"" 'q'
+= ' '
+repeatCount
+= ' '; }
+")).
+Eval vm_compute in ("<<<M1783>>>" ++ check (runes_of_ascii "packet	Packet  {
+    @calculatedFrom(""{,}""
+    ) trueish @calculatedFrom( ""1"" )
+`// not a comment`
+    // a // b
+    , // trailing space 
+@leftPad ( ) metadata
+    // c
+    Foo `
+`,
+    repeatCount
     x
-metadata
-`it's` , tag x_y_z ,} root
+,  uint16
+    o , @calculatedFrom( ""`tick`"" ) repeat
+charz  msg_type `say ""hi""` // packet A { u8 x, }
+, matchKey uint8x
+,
+repeat u64
+calculatedFrom	,	}root packet lengthOf{
+char[]  stringy `100% of %d`// 50% %s
+,@rightPad( '0'
+    // a // b
+    )
+    // @lengthOf(
+    repeat
+    o
+{ match	body as A	{ ""abc"" :/// triple
+Header
+//x
+// `tick` ""quote"" 'q'
+, } ,
+}
+,string x, @lengthOf( x)	A @calculatedFrom(""a\""b"" )
+`// not a comment` // a // b
+,
+uint16 //x
+repeatCount
+    // " ++ [27880; 37322]%N ++ runes_of_ascii "
+    , zchar[ 65535 ]
+    _x	`two words` ,
+    match
+    charz as // trailing space 
+calculatedFrom
+{
+    """ ++ [28040; 24687]%N ++ runes_of_ascii """ : u, 42
+: roots , 42 : //	t
+crc
+    , [ ""it's""
+, """ ++ [28040; 24687]%N ++ runes_of_ascii """,
+""a	b""
+, 1
+    ,
+// `tick` ""quote"" 'q'
+// " ++ [128512]%N ++ runes_of_ascii " emoji
+""packet""
+, ""\n"" //x
+,1	] :
+    trueish
+,
+00 : packetx ,""CRC32"": uint8x
+    /// triple
+    ,	}
+,
+// packet A { u8 x, }
+// trailing space 
+repeat x_y_z { float32 BodyLength // packet A { u8 x, }
+,
     // `tick` ""quote"" 'q'
-    packet As{asx  @calculatedFrom(
-    // packet A { u8 x, }
-    ""`tick`""  )
-    `" ++ [233]%N ++ runes_of_ascii "`
-, }root
-packet A {repeat u8x ,
-    @leftPad ( ) uint64 uint8x , uint8 falsey @calculatedFrom(  ""\" ++ [233]%N ++ runes_of_ascii """ ) `two words` , // a // b
-@lengthOf(
+    } , } root packet A { // " ++ [27880; 37322]%N ++ runes_of_ascii "
+} options {}  MetaData falsey{ }")).
+Eval vm_compute in ("<<<M1815>>>" ++ check (runes_of_ascii "root
+packet lengthOf { @leftPad
+(  )
+@calculatedFrom(""\n""	) match // 50% %s
+rootA as u {// " ++ [27880; 37322]%N ++ runes_of_ascii "
+[
+    """ ++ [233]%N ++ runes_of_ascii "t" ++ [233]%N ++ runes_of_ascii """ , 4294967296, """ ++ [128512]%N ++ runes_of_ascii """	,""abc"",
+    // trailing space 
+    ""{,}""	] : int
+// " ++ [128512]%N ++ runes_of_ascii " emoji
+// `tick` ""quote"" 'q'
+, } ,
+i32
+    x
+    `" ++ [233]%N ++ runes_of_ascii "` ,uint16
 //	t
-// c
-u8x
-    ) i64 As	@lengthOf(
+// a // b
+repeatCount@lengthOf( string_ )
+    , repeat
+    crc {
+Packet
+BodyLength ,
+    }, }
+")).
+Eval vm_compute in ("<<<M1847>>>" ++ check (runes_of_ascii "root
+packet options1{@calculatedFrom( """ ++ [28040; 24687]%N ++ runes_of_ascii """)
+    string options1 , } root //x
+packet
+    body
+{}")).
+Eval vm_compute in ("<<<T1847>>>" ++ terms [mkTok 34 "root" 1 0 false; mkTok 35 "packet" 2 0 false; mkTok 42 "options1" 2 7 false; mkTok 2 "{" 2 15 false; mkTok 5 "@calculatedFrom(" 2 16 false; mkTok 31 (string_of_bytes [34; 230; 182; 136; 230; 129; 175; 34]%N) 2 33 false; mkTok 6 ")" 2 37 false; mkTok 15 "string" 3 4 false; mkTok 42 "options1" 3 11 false; mkTok 40 "," 3 20 false; mkTok 3 "}" 3 22 false; mkTok 34 "root" 3 24 false; mkTok 44 "//x" 3 29 true; mkTok 35 "packet" 4 0 false; mkTok 42 "body" 5 4 false; mkTok 2 "{" 6 0 false; mkTok 3 "}" 6 1 false; mkTok 0 "<EOF>" 6 2 false] (mkPacket (mkPtok 34 "root" 1 0 0) (Some (mkPtok 3 "}" 6 1 16)) [(DPacket (mkPacketDef (mkSpan (mkPtok 34 "root" 1 0 0) (mkPtok 3 "}" 3 22 10)) (Some (mkPtok 34 "root" 1 0 0)) (mkPtok 35 "packet" 2 0 1) (mkPtok 42 "options1" 2 7 2) (mkPtok 2 "{" 2 15 3) [(mkFieldWithAttr (mkSpan (mkPtok 5 "@calculatedFrom(" 2 16 4) (mkPtok 40 "," 3 20 9)) [(FACalculatedFrom (mkSpan (mkPtok 5 "@calculatedFrom(" 2 16 4) (mkPtok 6 ")" 2 37 6)) (mkCalculatedFrom (mkSpan (mkPtok 5 "@calculatedFrom(" 2 16 4) (mkPtok 6 ")" 2 37 6)) (mkPtok 5 "@calculatedFrom(" 2 16 4) (mkPtok 31 (string_of_bytes [34; 230; 182; 136; 230; 129; 175; 34]%N) 2 33 5) (mkPtok 6 ")" 2 37 6)))] (MetaField (mkSpan (mkPtok 15 "string" 3 4 7) (mkPtok 40 "," 3 20 9)) None (mkMetaDecl (mkSpan (mkPtok 15 "string" 3 4 7) (mkPtok 40 "," 3 20 9)) (TyDynamic (mkSpan (mkPtok 15 "string" 3 4 7) (mkPtok 15 "string" 3 4 7)) (mkDynamicString (mkSpan (mkPtok 15 "string" 3 4 7) (mkPtok 15 "string" 3 4 7)) (mkPtok 15 "string" 3 4 7))) (mkPtok 42 "options1" 3 11 8) None (mkPtok 40 "," 3 20 9))))] (mkPtok 3 "}" 3 22 10))); (DPacket (mkPacketDef (mkSpan (mkPtok 34 "root" 3 24 11) (mkPtok 3 "}" 6 1 16)) (Some (mkPtok 34 "root" 3 24 11)) (mkPtok 35 "packet" 4 0 13) (mkPtok 42 "body" 5 4 14) (mkPtok 2 "{" 6 0 15) [] (mkPtok 3 "}" 6 1 16)))])).
+Eval vm_compute in ("<<<M1879>>>" ++ check (runes_of_ascii "packet// trailing space 
+MetaDataX	{}
+")).
+Eval vm_compute in ("<<<M1911>>>" ++ check (runes_of_ascii "options {
+Z9_ = true }
+
+")).
+Eval vm_compute in ("<<<M1943>>>" ++ check (runes_of_ascii "//x
+packet int { char[ 3 ] len , }
+options {
+    u128
+    =
+false
+    // " ++ [27880; 37322]%N ++ runes_of_ascii "
+    ; stringy=
+    0 A=  10 roots
+=
+true }options
+{ A= // " ++ [128512]%N ++ runes_of_ascii " emoji
+zchar[
+7
+//
+/// triple
+] ;
+// a // b
+// @lengthOf(
+}
+root	packet
+leftPad//
+{ @lengthOf(	roots ) char[]
+Foo@calculatedFrom(  ""`tick`"")
+    , @tag(255 ) i64_	{Foo,repeat
     // packet A { u8 x, }
-    a1 ), }MetaData// a // b
-tag {string lengthOf `
-` , }")).
-Eval vm_compute in ("<<<M1975>>>" ++ check (runes_of_ascii "packet zchar {
-@calculatedFrom( ""packet""
-) uint8 body `a\`
-    // `tick` ""quote"" 'q'
-    , @tag( 0123456789
-)
-    @lengthOf( a1 //x
-) repeat uint8 float , repeat zchar[ 4294967296
-] BodyLength`" ++ [233]%N ++ runes_of_ascii "` // " ++ [27880; 37322]%N ++ runes_of_ascii "
-, repeat// " ++ [128512]%N ++ runes_of_ascii " emoji
-i8 chars ,
-    @lengthOf(
-packetx // a // b
-) repeat string T , }")).
+    MetaDataX `it's`
+    , char[] Foo ,
+    },float64 u	, match body as o { ""a	b"" : pack , 0123456789: string_ ,  """ ++ [28040; 24687]%N ++ runes_of_ascii """ :
+// `tick` ""quote"" 'q'
+// `tick` ""quote"" 'q'
+charz 10:  falsey, }
+, i8 MetaDataX
+    `tab	here` , i8 charz
+    ,
+    /// triple
+    }")).
+Eval vm_compute in ("<<<M1975>>>" ++ check (runes_of_ascii "root  packet
+    asx{
+    @leftPad //	t
+( '\x00'
+    // trailing space 
+    ) repeat//x
+stringy { i8i8 string_ `u8 x,` , } , u8 // " ++ [27880; 37322]%N ++ runes_of_ascii "
+metadata ,
+@tag( 0
+) string
+    o // packet A { u8 x, }
+@lengthOf(
+As) `
+`, i32 falsey
+    ,}
+")).
 Eval vm_compute in ("<<<M2007>>>" ++ check (runes_of_ascii "root packet SimpleMessage {
     uint16 MsgType `" ++ [28040; 24687; 31867; 22411]%N ++ runes_of_ascii "`,
     string JsonBody `Json" ++ [23383; 31526; 20018; 28040; 24687; 20307]%N ++ runes_of_ascii "`,
 }")).
-Eval vm_compute in ("<<<M2039>>>" ++ check (runes_of_ascii "options{ i64_ = string ;  =
-    '\x00'
-    leftPad = ""a\\"" /// triple
-; crc
-    = 255; uint8x
-=
-""abc""
-    ;}")).
-Eval vm_compute in ("<<<M2071>>>" ++ check (runes_of_ascii "options{ i64_ = string ; trueish =
-    '\x00'
-    leftPad = ""a\\"" /// triple
-crc ;
-    = 255; uint8x
-=
-""abc""
-    ;}")).
-Eval vm_compute in ("<<<M2103>>>" ++ check (runes_of_ascii "options{ i64_ = string ; trueish =
-    '\x00'
-    leftPad = ""a\\"" /// triple
-; crc
-    = 255; uint8x")).
-Eval vm_compute in ("<<<M2135>>>" ++ check (runes_of_ascii "options{ i64_ = string ; trueish =
-    '\x00'
-    leftPad = ""a\\"" /// triple
-; crc
-    = 255$; uint8x
-=
-""abc""
-    ;}")).
-Eval vm_compute in ("<<<M2167>>>" ++ check (runes_of_ascii "  packet
-asx
-{
-/// triple
-// @lengthOf(
-u32 stringy
-, `" ++ [28040; 24687; 31867; 22411]%N ++ runes_of_ascii "`} MetaData
-    A {string  _x, zchar Header `a\`
-// @lengthOf(
+Eval vm_compute in ("<<<M2039>>>" ++ check (runes_of_ascii "MetaData repeatCount { float64 packetx,
+ root packet  metadata {
+char _x @lengthOf( trueish ), @leftPad
+( ' '// " ++ [27880; 37322]%N ++ runes_of_ascii "
+)/// triple
+char[] len`doc` , // packet A { u8 x, }
+repeatCount , }
+")).
+Eval vm_compute in ("<<<M2071>>>" ++ check (runes_of_ascii "MetaData repeatCount { float64 packetx,
+} root packet  metadata {
+char @lengthOf( _x trueish ), @leftPad
+( ' '// " ++ [27880; 37322]%N ++ runes_of_ascii "
+)/// triple
+char[] len`doc` , // packet A { u8 x, }
+repeatCount , }
+")).
+Eval vm_compute in ("<<<M2103>>>" ++ check (runes_of_ascii "MetaData repeatCount { float64 packetx,
+} root packet  metadata {
+char _x @lengthOf( trueish ), @leftPad")).
+Eval vm_compute in ("<<<M2135>>>" ++ check (runes_of_ascii "MetaData repeatCount { float64 packetx,
+} root packet  metadata {
+char _x @lengthOf( trueish ), @leftPad
+( ' '// " ++ [27880; 37322]%N ++ runes_of_ascii "
+)/// triple
+char[] len`doc` , // packet A { u8 x, }
+repeatCount repeatCount , }
+")).
+Eval vm_compute in ("<<<M2167>>>" ++ check (runes_of_ascii "MetaData repeatCount { float64 packetx,
+} root packet  metadata {
+char _x @lengthOf( caf" ++ [233]%N ++ runes_of_ascii "_1 ), @leftPad
+( ' '// " ++ [27880; 37322]%N ++ runes_of_ascii "
+)/// triple
+char[] len`doc` , // packet A { u8 x, }
+repeatCount , }
+")).
+Eval vm_compute in ("<<<M2199>>>" ++ check (runes_of_ascii "options{
+leftPad
+    =65535")).
+Eval vm_compute in ("<<<M2231>>>" ++ check (runes_of_ascii "options{
+leftPad
+    =65535
+;
+a1 = true ; packetx=  '\x00' '\x00' ; packetx
+=  """ ++ [28040; 24687]%N ++ runes_of_ascii """MetaDataX= // " ++ [27880; 37322]%N ++ runes_of_ascii "
+false }root // c
+packet // packet A { u8 x, }
+Pad { repeat
+u8 Header
 // packet A { u8 x, }
-, char[] MetaDataX
-,zchar[ 1 ]
-    matchKey
-    , char[] //
-u,	char[0123456789 ]
-    matchKey
-    `{ , }`, }
-")).
-Eval vm_compute in ("<<<M2199>>>" ++ check (runes_of_ascii "  packet
-asx
-{
-/// triple
-// @lengthOf(
-u32 stringy
-`" ++ [28040; 24687; 31867; 22411]%N ++ runes_of_ascii "` ,} MetaData
-    A {")).
-Eval vm_compute in ("<<<M2231>>>" ++ check (runes_of_ascii "  packet
-asx
-{
-/// triple
-// @lengthOf(
-u32 stringy
-`" ++ [28040; 24687; 31867; 22411]%N ++ runes_of_ascii "` ,} MetaData
-    A {string  _x, zchar Header `a\`
-// @lengthOf(
-// packet A { u8 x, }
-, char[] char[] MetaDataX
-,zchar[ 1 ]
-    matchKey
-    , char[] //
-u,	char[0123456789 ]
-    matchKey
-    `{ , }`, }
-")).
-Eval vm_compute in ("<<<M2263>>>" ++ check (runes_of_ascii "  packet
-asx
-{
-/// triple
-// @lengthOf(
-u32 stringy
-`" ++ [28040; 24687; 31867; 22411]%N ++ runes_of_ascii "` ,} MetaData
-    A {string  _x, zchar Header `a\`
-// @lengthOf(
-// packet A { u8 x, }
-, char[] MetaDataX
-,zchar[ 1 ]
-    true
-    , char[] //
-u,	char[0123456789 ]
-    matchKey
-    `{ , }`, }
-")).
-Eval vm_compute in ("<<<M2295>>>" ++ check (runes_of_ascii "  packet
-asx
-{
-/// triple
-// @lengthOf(
-u32 stringy
-`" ++ [28040; 24687; 31867; 22411]%N ++ runes_of_ascii "` ,} MetaData
-    A {string  _x, zchar Header `a\`
-// @lengthOf(
-// packet A { u8 x, }
-, char[] MetaDataX
-,zchar[ 1 ]
-    matchKey
-    , char[] //
-u,	char[0123456789 
-    matchKey
-    `{ , }`, }
-")).
-Eval vm_compute in ("<<<M2327>>>" ++ check (runes_of_ascii "  packet
-asx
-{
-/// triple
-// @lengthOf(
-u32 stringy
-`" ++ [28040; 24687; 31867; 22411]%N ++ runes_of_ascii "` ,} MetaData
-    A {string  _x, zchar Header `a\`
-// @lengthOf(
-// packet A { u8 x, ''}
-, char[] MetaDataX
-,zchar[ 1 ]
-    matchKey
-    , char[] //
-u,	char[0123456789 ]
-    matchKey
-    `{ , }`, }
-")).
-Eval vm_compute in ("<<<M2359>>>" ++ check (runes_of_ascii "root
-    packet
-Packet
-[ // trailing space 
-matchKey `tab	here` ,}")).
-Eval vm_compute in ("<<<M2391>>>" ++ check (runes_of_ascii "root
-    packet
-Packet
-{ // trailing space 
-matchKey `tab	here` ,#}")).
-Eval vm_compute in ("<<<M2423>>>" ++ check (runes_of_ascii "options{ falsey // a // b
-=
-    '0' '0' } options { repeatCount =
-true ; string_// a // b
-=
-// c
-// " ++ [27880; 37322]%N ++ runes_of_ascii "
-int64
-// trailing space 
-/// triple
-; } // @lengthOf(")).
-Eval vm_compute in ("<<<M2455>>>" ++ check (runes_of_ascii "options{ falsey // a // b
-=
-    '0' } options { repeatCount =
-""packet"" ; string_// a // b
-=
-// c
-// " ++ [27880; 37322]%N ++ runes_of_ascii "
-int64
-// trailing space 
-/// triple
-; } // @lengthOf(")).
-Eval vm_compute in ("<<<M2487>>>" ++ check (runes_of_ascii "options{ falsey // a // b
-=
-    '0' } options { repeatCount =
-true ; string_// a // b
-=
-// c
-// " ++ [27880; 37322]%N ++ runes_of_ascii "
-int64
-// trailing space 
-/// tripl")).
-Eval vm_compute in ("<<<M2519>>>" ++ check (runes_of_ascii "options{} }root packet
-metadata {
-@lengthOf(x ) float32
-body ``, }
-    MetaData
-Z9_
-    {
-    string string_ , Logon x
-,
-uint32
-    // packet A { u8 x, }
-    Z9_,asx
-_x
-    `tab	here` , }
-")).
-Eval vm_compute in ("<<<M2551>>>" ++ check (runes_of_ascii "options{}root packet
-metadata {
-@lengthOf(char[] ) float32
-body ``, }
-    MetaData
-Z9_
-    {
-    string string_ , Logon x
-,
-uint32
-    // packet A { u8 x, }
-    Z9_,asx
-_x
-    `tab	here` , }
-")).
-Eval vm_compute in ("<<<M2583>>>" ++ check (runes_of_ascii "options{}root packet
-metadata {
-@lengthOf(x ) float32
-body ``, }
-    
-Z9_
-    {
-    string string_ , Logon x
-,
-uint32
-    // packet A { u8 x, }
-    Z9_,asx
-_x
-    `tab	here` , }
-")).
-Eval vm_compute in ("<<<M2615>>>" ++ check (runes_of_ascii "options{}root packet
-metadata {
-@lengthOf(x ) float32
-body ``, }
-    MetaData
-Z9_
-    {
-    string string_ , x Logon
-,
-uint32
-    // packet A { u8 x, }
-    Z9_,asx
-_x
-    `tab	here` , }
-")).
-Eval vm_compute in ("<<<M2647>>>" ++ check (runes_of_ascii "options{}root packet
-metadata {
-@lengthOf(x ) float32
-body ``, }
-    MetaData
-Z9_
-    {
-    string string_ , Logon x
-,
-uint32
-    // packet A { u8 x, }
-    Z9_,")).
-Eval vm_compute in ("<<<M2679>>>" ++ check (runes_of_ascii "options{}root packet
-metad`ata {
-@lengthOf(x ) float32
-body ``, }
-    MetaData
-Z9_
-    {
-    string string_ , Logon x
-,
-uint32
-    // packet A { u8 x, }
-    Z9_,asx
-_x
-    `tab	here` , }
-")).
-Eval vm_compute in ("<<<M2711>>>" ++ check (runes_of_ascii "options {
-    falsey=
-; ""a\\"" }")).
-Eval vm_compute in ("<<<M2743>>>" ++ check (runes_of_ascii "options {
-    x" ++ [178]%N ++ runes_of_ascii "=
-""a\\"" ; }")).
-Eval vm_compute in ("<<<M2775>>>" ++ check (runes_of_ascii "MetaData f32a
-{
-    //	t
-    }root
-    packet   {
-}
-")).
-Eval vm_compute in ("<<<M2807>>>" ++ check (runes_of_ascii "MetaDa'1'ta f32a
-{
-    //	t
-    }root
-    packet tag  {
-}
-")).
-Eval vm_compute in ("<<<M2839>>>" ++ check (runes_of_ascii "
-options
-    {msg_type =
-    float32  char[]root
-packet Z9_{ char /// triple
-crc @lengthOf(
-options1 ) //
-,} MetaData a1{}
-")).
-Eval vm_compute in ("<<<M2871>>>" ++ check (runes_of_ascii "
-options
-    {msg_type =
-    float32  }root
-packet Z9_{ char /// triple
-crc 
-options1 ) //
-,} MetaData a1{}
-")).
-Eval vm_compute in ("<<<M2903>>>" ++ check (runes_of_ascii "
-options
-    {msg_type =
-    float32  }root
-packet Z9_{ char /// triple
-crc @lengthOf(
-options1 ) //
-,} MetaData {a1}
-")).
-Eval vm_compute in ("<<<M2935>>>" ++ check (runes_of_ascii "
-options
-    {msg_type =
-    float32  }root
-packet Z9_{ char /// triple
-crc @lengthOf(
-a" ++ [769]%N ++ runes_of_ascii "b ) //
-,} MetaData a1{}
-")).
-Eval vm_compute in ("<<<M2967>>>" ++ check (runes_of_ascii "packet crc{ // " ++ [128512]%N ++ runes_of_ascii " emoji
-repeat string i8i8
+//	t
+`{ , }`
+// a // b
+//x
 , }
 ")).
-Eval vm_compute in ("<<<M2999>>>" ++ check (runes_of_ascii "packet crc{ // " ++ [128512]%N ++ runes_of_ascii " emoji
-repeat string i8i8|
-`a\`, }
-")).
-Eval vm_compute in ("<<<M3031>>>" ++ check (runes_of_ascii "packet BodyLength {} MetaData u16{ zchar[// @lengthOf(
-42 ]
-    pack , string_
-A , char[]crc , _x trueish ,
-// " ++ [27880; 37322]%N ++ runes_of_ascii "
-// " ++ [128512]%N ++ runes_of_ascii " emoji
-zchar[
-    3 ]	T // trailing space 
-, } packet body
-{
-    }
-")).
-Eval vm_compute in ("<<<M3063>>>" ++ check (runes_of_ascii "packet BodyLength {} MetaData zchar{ zchar[// @lengthOf(
-42 ]
-    pack , 
-A , char[]crc , _x trueish ,
-// " ++ [27880; 37322]%N ++ runes_of_ascii "
-// " ++ [128512]%N ++ runes_of_ascii " emoji
-zchar[
-    3 ]	T // trailing space 
-, } packet body
-{
-    }
-")).
-Eval vm_compute in ("<<<M3095>>>" ++ check (runes_of_ascii "packet BodyLength {} MetaData zchar{ zchar[// @lengthOf(
-42 ]
-    pack , string_
-A , char[]crc , trueish _x ,
-// " ++ [27880; 37322]%N ++ runes_of_ascii "
-// " ++ [128512]%N ++ runes_of_ascii " emoji
-zchar[
-    3 ]	T // trailing space 
-, } packet body
-{
-    }
-")).
-Eval vm_compute in ("<<<M3127>>>" ++ check (runes_of_ascii "packet BodyLength {} MetaData zchar{ zchar[// @lengthOf(
-42 ]
-    pack , string_
-A , char[]crc , _x trueish ,
-// " ++ [27880; 37322]%N ++ runes_of_ascii "
-// " ++ [128512]%N ++ runes_of_ascii " emoji
-zchar[
-    3 ]")).
-Eval vm_compute in ("<<<M3159>>>" ++ check (runes_of_ascii "packet BodyLength {} MetaData zchar{ zchar[// @lengthOf(
-42 ]
- ")).
-Eval vm_compute in ("<<<M3191>>>" ++ check (runes_of_ascii "packet
-string_ @lengthOf({ int ) match packetx as f32a {
-    1 :	calculatedFrom , }  ,
-    } packet len
-    //	t
-    { @calculatedFrom( """ ++ [233]%N ++ runes_of_ascii "t" ++ [233]%N ++ runes_of_ascii """ ) body Header , char[] lengthOf  `two words` ,chars{repeat string_ matchKey ,
-    } ,
-    }
-")).
-Eval vm_compute in ("<<<M3223>>>" ++ check (runes_of_ascii "packet
-string_ {@lengthOf( int ) match packetx")).
-Eval vm_compute in ("<<<M3255>>>" ++ check (runes_of_ascii "packet
-string_ {@lengthOf( int ) match packetx as f32a {
-    1 :	calculatedFrom , } }  ,
-    } packet len
-    //	t
-    { @calculatedFrom( """ ++ [233]%N ++ runes_of_ascii "t" ++ [233]%N ++ runes_of_ascii """ ) body Header , char[] lengthOf  `two words` ,chars{repeat string_ matchKey ,
-    } ,
-    }
-")).
-Eval vm_compute in ("<<<M3287>>>" ++ check (runes_of_ascii "packet
-string_ {@lengthOf( int ) match packetx as f32a {
-    1 :	calculatedFrom , }  ,
-    } packet len
-    //	t
-    { { """ ++ [233]%N ++ runes_of_ascii "t" ++ [233]%N ++ runes_of_ascii """ ) body Header , char[] lengthOf  `two words` ,chars{repeat string_ matchKey ,
-    } ,
-    }
-")).
-Eval vm_compute in ("<<<M3319>>>" ++ check (runes_of_ascii "packet
-string_ {@lengthOf( int ) match packetx as f32a {
-    1 :	calculatedFrom , }  ,
-    } packet len
-    //	t
-    { @calculatedFrom( """ ++ [233]%N ++ runes_of_ascii "t" ++ [233]%N ++ runes_of_ascii """ ) body Header , char[]   `two words` ,chars{repeat string_ matchKey ,
-    } ,
-    }
-")).
-Eval vm_compute in ("<<<M3351>>>" ++ check (runes_of_ascii "packet
-string_ {@lengthOf( int ) match packetx as f32a {
-    1 :	calculatedFrom , }  ,
-    } packet len
-    //	t
-    { @calculatedFrom( """ ++ [233]%N ++ runes_of_ascii "t" ++ [233]%N ++ runes_of_ascii """ ) body Header , char[] lengthOf  `two words` ,chars{repeat matchKey string_ ,
-    } ,
-    }
-")).
-Eval vm_compute in ("<<<M3383>>>" ++ check (runes_of_ascii "packet
-string_ {@lengthOf( int ) match packetx as f32a {
-    1 :	calculatedFrom , }  ,
-    ''} packet len
-    //	t
-    { @calculatedFrom( """ ++ [233]%N ++ runes_of_ascii "t" ++ [233]%N ++ runes_of_ascii """ ) body Header , char[] lengthOf  `two words` ,chars{repeat string_ matchKey ,
-    } ,
-    }
-")).
-Eval vm_compute in ("<<<M3415>>>" ++ check (runes_of_ascii "/// triple
-root
-packet packet // packet A { u8 x, }
-chars { @lengthOf(charz )
-stringy,  @tag(  0 ) // a // b
-asx
-    As
-,
-// trailing space 
-// trailing space 
-x_y_z {
-repeat i16 charz , } ,	int16  crc ,}
-")).
-Eval vm_compute in ("<<<M3447>>>" ++ check (runes_of_ascii "/// triple
-root
+Eval vm_compute in ("<<<M2263>>>" ++ check (runes_of_ascii "options{
+leftPad
+    =65535
+;
+a1 = true ; packetx=  '\x00' ; packetx
+=  """ ++ [28040; 24687]%N ++ runes_of_ascii """MetaDataX u8 // " ++ [27880; 37322]%N ++ runes_of_ascii "
+false }root // c
 packet // packet A { u8 x, }
-chars { @lengthOf(charz")).
-Eval vm_compute in ("<<<M3479>>>" ++ check (runes_of_ascii "/// triple
-root
+Pad { repeat
+u8 Header
+// packet A { u8 x, }
+//	t
+`{ , }`
+// a // b
+//x
+, }
+")).
+Eval vm_compute in ("<<<M2295>>>" ++ check (runes_of_ascii "options{
+leftPad
+    =65535
+;
+a1 = true ; packetx=  '\x00' ; packetx
+=  """ ++ [28040; 24687]%N ++ runes_of_ascii """MetaDataX= // " ++ [27880; 37322]%N ++ runes_of_ascii "
+false }root // c
 packet // packet A { u8 x, }
-chars { @lengthOf(charz )
-stringy,  @tag(  0 ) // a // b
-asx
-    As
-,
-// trailing space 
-// trailing space 
-x_y_z {
-repeat i16 charz , } ,	int16")).
+Pad { 
+u8 Header
+// packet A { u8 x, }
+//	t
+`{ , }`
+// a // b
+//x
+, }
+")).
+Eval vm_compute in ("<<<M2327>>>" ++ check (runes_of_ascii "options{
+leftPad
+    =65535
+;
+a1")).
+Eval vm_compute in ("<<<M2359>>>" ++ check (runes_of_ascii "
+packet float
+as	@calculatedFrom( """ ++ [233]%N ++ runes_of_ascii "t" ++ [233]%N ++ runes_of_ascii """ )
+@rightPad ( '\x00' )
+    @calculatedFrom( ""x y"" ) string chars  ,
+    // a // b
+    char[0 ]
+    u	@lengthOf( i8i8 ) `{ , }` ,repeat char[] o //x
+`// not a comment`, } // c")).
+Eval vm_compute in ("<<<M2391>>>" ++ check (runes_of_ascii "
+packet float
+{	@calculatedFrom( """ ++ [233]%N ++ runes_of_ascii "t" ++ [233]%N ++ runes_of_ascii """ )
+@rightPad ( '\x00' 
+    @calculatedFrom( ""x y"" ) string chars  ,
+    // a // b
+    char[0 ]
+    u	@lengthOf( i8i8 ) `{ , }` ,repeat char[] o //x
+`// not a comment`, } // c")).
+Eval vm_compute in ("<<<M2423>>>" ++ check (runes_of_ascii "
+packet float
+{	@calculatedFrom( """ ++ [233]%N ++ runes_of_ascii "t" ++ [233]%N ++ runes_of_ascii """ )
+@rightPad ( '\x00' )
+    @calculatedFrom( ""x y"" ) string chars  char[
+    // a // b
+    ,0 ]
+    u	@lengthOf( i8i8 ) `{ , }` ,repeat char[] o //x
+`// not a comment`, } // c")).
+Eval vm_compute in ("<<<M2455>>>" ++ check (runes_of_ascii "
+packet float
+{	@calculatedFrom( """ ++ [233]%N ++ runes_of_ascii "t" ++ [233]%N ++ runes_of_ascii """ )
+@rightPad ( '\x00' )
+    @calculatedFrom( ""x y"" ) string chars  ,
+    // a // b
+    char[0 ]
+    u	@lengthOf(")).
+Eval vm_compute in ("<<<M2487>>>" ++ check (runes_of_ascii "
+packet float
+{	@calculatedFrom( """ ++ [233]%N ++ runes_of_ascii "t" ++ [233]%N ++ runes_of_ascii """ )
+@rightPad ( '\x00' )
+    @calculatedFrom( ""x y"" ) string chars  ,
+    // a // b
+    char[0 ]
+    u	@lengthOf( i8i8 ) `{ , }` ,repeat char[] o //x
+`// not a comment` `// not a comment`, } // c")).
+Eval vm_compute in ("<<<M2519>>>" ++ check (runes_of_ascii "
+packet float
+{	@calculatedFrom( """ ++ [233]%N ++ runes_of_ascii "t" ++ [233]%N ++ runes_of_ascii """ )
+@rightPad ( '\x00' )
+    @calculatedFrom( ""x y"" ) string caf" ++ [233]%N ++ runes_of_ascii "_1  ,
+    // a // b
+    char[0 ]
+    u	@lengthOf( i8i8 ) `{ , }` ,repeat char[] o //x
+`// not a comment`, } // c")).
+Eval vm_compute in ("<<<M2551>>>" ++ check (runes_of_ascii "root packet u128{
+    repeat")).
+Eval vm_compute in ("<<<M2583>>>" ++ check (runes_of_ascii "root packet u128{
+    repeat
+    zchar[ 65535 ] u `" ++ [28040; 24687; 31867; 22411]%N ++ runes_of_ascii "` ,// `tick` ""quote"" 'q'
+} packet packet i64_ {repeatCount
+    `
+` ,	} // " ++ [128512]%N ++ runes_of_ascii " emoji")).
+Eval vm_compute in ("<<<M2615>>>" ++ check (runes_of_ascii "root packet u128{
+    repeat
+    zchar[ 65535 ] u `" ++ [28040; 24687; 31867; 22411]%N ++ runes_of_ascii "` ,// `tick` ""quote"" 'q'
+} packet i64_ {repeatCount
+    `
+` ,")).
+Eval vm_compute in ("<<<M2647>>>" ++ check (runes_of_ascii "
+MetaData")).
+Eval vm_compute in ("<<<M2679>>>" ++ check (runes_of_ascii "
+MetaData
+roots { int8
+    BodyLength ,//	t
+" ++ [127]%N ++ runes_of_ascii "}
+")).
+Eval vm_compute in ("<<<M2711>>>" ++ check (runes_of_ascii "options {Packet ""CRC32"" =i8i8 = false; leftPad =
+    '\x00'
+    // `tick` ""quote"" 'q'
+    ; o=255  ;
+    // packet A { u8 x, }
+    }")).
+Eval vm_compute in ("<<<M2743>>>" ++ check (runes_of_ascii "options {Packet = ""CRC32""i8i8 = false;")).
+Eval vm_compute in ("<<<M2775>>>" ++ check (runes_of_ascii "options {Packet = ""CRC32""i8i8 = false; leftPad =
+    '\x00'
+    // `tick` ""quote"" 'q'
+    ; o=255  ; ;
+    // packet A { u8 x, }
+    }")).
+Eval vm_compute in ("<<<M2807>>>" ++ check (runes_of_ascii "
+metadata packet { @rightPad (
+    // packet A { u8 x, }
+    ' ' ) repeat u32	A
+,matchKey ,
+    @lengthOf( string_ ) @lengthOf( body )
+    // a // b
+    @lengthOf(float  )	repeat
+int32 u8x
+    // c
+    `tab	here`
+, } // a // b")).
+Eval vm_compute in ("<<<M2839>>>" ++ check (runes_of_ascii "
+packet metadata { @rightPad (
+    // packet A { u8 x, }
+    ' '")).
+Eval vm_compute in ("<<<M2871>>>" ++ check (runes_of_ascii "
+packet metadata { @rightPad (
+    // packet A { u8 x, }
+    ' ' ) repeat u32	A
+,matchKey ,
+    @lengthOf( @lengthOf( string_ ) @lengthOf( body )
+    // a // b
+    @lengthOf(float  )	repeat
+int32 u8x
+    // c
+    `tab	here`
+, } // a // b")).
+Eval vm_compute in ("<<<M2903>>>" ++ check (runes_of_ascii "
+packet metadata { @rightPad (
+    // packet A { u8 x, }
+    ' ' ) repeat u32	A
+,matchKey ,
+    @lengthOf( string_ ) @lengthOf( body )
+    // a // b
+    float32 float  )	repeat
+int32 u8x
+    // c
+    `tab	here`
+, } // a // b")).
+Eval vm_compute in ("<<<M2935>>>" ++ check (runes_of_ascii "
+packet metadata { @rightPad (
+    // packet A { u8 x, }
+    ' ' ) repeat u32	A
+,matchKey ,
+    @lengthOf( string_ ) @lengthOf( body )
+    // a // b
+    @lengthOf(float  )	repeat
+int32 u8x
+    // c
+    `tab	here`
+ } // a // b")).
+Eval vm_compute in ("<<<M2967>>>" ++ check (runes_of_ascii "packet packet x{
+string
+zchar , //	t
+}
+")).
+Eval vm_compute in ("<<<M2999>>>" ++ check (runes_of_ascii "packet x{
+string
+zchar ,")).
+Eval vm_compute in ("<<<M3031>>>" ++ check (runes_of_ascii "
+MetaData")).
+Eval vm_compute in ("<<<M3063>>>" ++ check (runes_of_ascii "
+MetaData Logon
+{ // c
+}root packet
+    Pad {
+    } } options
+{
+u
+    =
+    ""CRC32""
+    // " ++ [128512]%N ++ runes_of_ascii " emoji
+    i64_ = u16;
+T =65535 x = ' '
+    ; u128
+= true ; }")).
+Eval vm_compute in ("<<<M3095>>>" ++ check (runes_of_ascii "
+MetaData Logon
+{ // c
+}root packet
+    Pad {
+    } options
+{
+u
+    =
+    ""CRC32""
+    // " ++ [128512]%N ++ runes_of_ascii " emoji
+    string = u16;
+T =65535 x = ' '
+    ; u128
+= true ; }")).
+Eval vm_compute in ("<<<M3127>>>" ++ check (runes_of_ascii "
+MetaData Logon
+{ // c
+}root packet
+    Pad {
+    } options
+{
+u
+    =
+    ""CRC32""
+    // " ++ [128512]%N ++ runes_of_ascii " emoji
+    i64_ = u16;
+T =65535  = ' '
+    ; u128
+= true ; }")).
+Eval vm_compute in ("<<<M3159>>>" ++ check (runes_of_ascii "
+MetaData Logon
+{ // c
+}root packet
+    Pad {
+    } options
+{
+u
+    =
+    ""CRC32""
+    // " ++ [128512]%N ++ runes_of_ascii " emoji
+    i64_ = u16;
+T =65535 x = ' '
+    ; u128
+= ; true }")).
+Eval vm_compute in ("<<<M3191>>>" ++ check (runes_of_ascii "
+MetaData Logon
+{ // c
+}root packet
+    Pad {
+    } options
+{
+u
+    =
+    ""CRC32""
+    // " ++ [128512]%N ++ runes_of_ascii " emoji
+    i64_ = u16;
+T =65535 caf" ++ [233]%N ++ runes_of_ascii "_1 = ' '
+    ; u128
+= true ; }")).
+Eval vm_compute in ("<<<M3223>>>" ++ check (runes_of_ascii "MetaData body{}
+packet	Packet  x_y_z @calculatedFrom(  ""a\\"")// `tick` ""quote"" 'q'
+, }
+")).
+Eval vm_compute in ("<<<M3255>>>" ++ check (runes_of_ascii "MetaData body{}
+packet	Packet { x_y_z @calculatedFrom(  ""a\\"")// `tick` ""quote"" 'q'
+, @calculatedFrom(
+")).
+Eval vm_compute in ("<<<M3287>>>" ++ check (runes_of_ascii "packet zchar[ {} root packet len {repeat u // " ++ [128512]%N ++ runes_of_ascii " emoji
+`{ , }` , }
+")).
+Eval vm_compute in ("<<<M3319>>>" ++ check (runes_of_ascii "packet f32a {} root packet len { u // " ++ [128512]%N ++ runes_of_ascii " emoji
+`{ , }` , }
+")).
+Eval vm_compute in ("<<<M3351>>>" ++ check (runes_of_ascii "packet f3|2a {} root packet len {repeat u // " ++ [128512]%N ++ runes_of_ascii " emoji
+`{ , }` , }
+")).
+Eval vm_compute in ("<<<M3383>>>" ++ check (runes_of_ascii "options{ _x=""\" ++ [233]%N ++ runes_of_ascii """;
+    Logon = 10	; Foo= 7;
+i64_= char[] options {
+matchKey = ""// no comment"" // a // b
+falsey = string
+; trueish =
+    4294967296
+options1=
+    ""it's"" string_	= true } options {
+    /// triple
+    }")).
+Eval vm_compute in ("<<<M3415>>>" ++ check (runes_of_ascii "options{ _x=""\" ++ [233]%N ++ runes_of_ascii """;
+    Logon = 10	; Foo")).
+Eval vm_compute in ("<<<M3447>>>" ++ check (runes_of_ascii "options{ _x=""\" ++ [233]%N ++ runes_of_ascii """;
+    Logon = 10	; Foo= 7;
+i64_= char[]} options {
+matchKey = ""// no comment"" // a // b
+falsey = string
+; trueish =
+    
+options1=
+    ""it's"" string_	= true } options {
+    /// triple
+    }")).
+Eval vm_compute in ("<<<M3479>>>" ++ check (runes_of_ascii "options{ _x=""\" ++ [233]%N ++ runes_of_ascii """;
+    Logon  10	; Foo= 7;
+i64_= char[]} options {
+matchKey = ""// no comment"" // a // b
+falsey = string
+; trueish =
+    4294967296
+options1=
+    ""it's"" string_	= true } options {
+    /// triple
+    }")).
 Eval vm_compute in ("<<<M3511>>>" ++ check (runes_of_ascii "true")).
 Eval vm_compute in ("<<<M3543>>>" ++ check (runes_of_ascii "'")).
 Eval vm_compute in ("<<<M3575>>>" ++ check (runes_of_ascii """a\")).
 Eval vm_compute in ("<<<M3607>>>" ++ check (runes_of_ascii ":,;=()[]{}")).
 Eval vm_compute in ("<<<M3639>>>" ++ check (runes_of_ascii "packet A { x y z, }")).
 Eval vm_compute in ("<<<M3671>>>" ++ check (runes_of_ascii "packet A { match k as n { 1 : B }, }")).
+Eval vm_compute in ("<<<T3671>>>" ++ terms [mkTok 35 "packet" 1 0 false; mkTok 42 "A" 1 7 false; mkTok 2 "{" 1 9 false; mkTok 38 "match" 1 11 false; mkTok 42 "k" 1 17 false; mkTok 17 "as" 1 19 false; mkTok 42 "n" 1 22 false; mkTok 2 "{" 1 24 false; mkTok 30 "1" 1 26 false; mkTok 39 ":" 1 28 false; mkTok 42 "B" 1 30 false; mkTok 3 "}" 1 32 false; mkTok 40 "," 1 33 false; mkTok 3 "}" 1 35 false; mkTok 0 "<EOF>" 1 36 false] (mkPacket (mkPtok 35 "packet" 1 0 0) (Some (mkPtok 3 "}" 1 35 13)) [(DPacket (mkPacketDef (mkSpan (mkPtok 35 "packet" 1 0 0) (mkPtok 3 "}" 1 35 13)) None (mkPtok 35 "packet" 1 0 0) (mkPtok 42 "A" 1 7 1) (mkPtok 2 "{" 1 9 2) [(mkFieldWithAttr (mkSpan (mkPtok 38 "match" 1 11 3) (mkPtok 40 "," 1 33 12)) [] (MatchField (mkSpan (mkPtok 38 "match" 1 11 3) (mkPtok 40 "," 1 33 12)) (mkMatchFieldDecl (mkSpan (mkPtok 38 "match" 1 11 3) (mkPtok 3 "}" 1 32 11)) (mkPtok 38 "match" 1 11 3) (mkPtok 42 "k" 1 17 4) (mkPtok 17 "as" 1 19 5) (mkPtok 42 "n" 1 22 6) (mkPtok 2 "{" 1 24 7) [(mkMatchPair (mkSpan (mkPtok 30 "1" 1 26 8) (mkPtok 42 "B" 1 30 10)) (MKDigits (mkPtok 30 "1" 1 26 8)) (mkPtok 39 ":" 1 28 9) (mkPtok 42 "B" 1 30 10) None)] (mkPtok 3 "}" 1 32 11)) (mkPtok 40 "," 1 33 12)))] (mkPtok 3 "}" 1 35 13)))])).
 Eval vm_compute in ("<<<M3703>>>" ++ check (runes_of_ascii "packet A }")).
 Eval vm_compute in ("<<<M3735>>>" ++ check (runes_of_ascii "options { a = `d`; }")).
-Eval vm_compute in ("<<<M3767>>>" ++ check (runes_of_ascii "false ] true as [ MetaData int8")).
-Eval vm_compute in ("<<<M3799>>>" ++ check (runes_of_ascii ", i8 ] char[] true 0123456789 uint32 repeat packet f32 false")).
-Eval vm_compute in ("<<<M3831>>>" ++ check (runes_of_ascii "@rightPad char[] ) options")).
-Eval vm_compute in ("<<<M3863>>>" ++ check (runes_of_ascii ":")).
-Eval vm_compute in ("<<<M3895>>>" ++ check (runes_of_ascii "@tag( @lengthOf( ; """ ++ [128512]%N ++ runes_of_ascii """")).
-Eval vm_compute in ("<<<M3927>>>" ++ check (runes_of_ascii "i8 uint8 char[ u32 rootA char[] @tag( root uint64")).
-Eval vm_compute in ("<<<M3959>>>" ++ check (runes_of_ascii "u16 options } `` ; 10 root char[] root { int8 3 , root")).
-Eval vm_compute in ("<<<M3991>>>" ++ check (runes_of_ascii "match int16 char[ uint32 float32 as options")).
+Eval vm_compute in ("<<<M3767>>>" ++ check (runes_of_ascii ")")).
+Eval vm_compute in ("<<<M3799>>>" ++ check (runes_of_ascii "int8")).
+Eval vm_compute in ("<<<M3831>>>" ++ check (runes_of_ascii "BodyLength true zchar[ options char[ int32 lengthOf false")).
+Eval vm_compute in ("<<<M3863>>>" ++ check (runes_of_ascii "char u32 , uint64 { string 4294967296 options @leftPad @tag( char[")).
+Eval vm_compute in ("<<<M3895>>>" ++ check (runes_of_ascii "char options @lengthOf( : '\x00' } ;")).
+Eval vm_compute in ("<<<M3927>>>" ++ check (runes_of_ascii "as f64 root i64")).
+Eval vm_compute in ("<<<M3959>>>" ++ check (runes_of_ascii "as i8 repeat , repeat f64 as u16")).
+Eval vm_compute in ("<<<M3991>>>" ++ check (runes_of_ascii "( repeat")).
